@@ -35,30 +35,31 @@ Fixpoint oscoped (w : Z) (ng : nat) (ni : nat) (o : iopd) : Prop :=
   | OUn _ x => oscoped w ng ni x
   | OGlob g => (g < ng)%nat
   end.
-Fixpoint bscoped (w : Z) (ng : nat) (ni nb : nat) (e : bexpr) : Prop :=
+Fixpoint bscoped (w : Z) (ng nbg : nat) (ni nb : nat) (e : bexpr) : Prop :=
   match e with
   | BLit _ => True
-  | BVar j => (j < nb)%nat
+  | BVar (BLocal j) => (j < nb)%nat
+  | BVar (BGlobal h) => (h < nbg)%nat
   | BCmp _ a b => oscoped w ng ni a /\ oscoped w ng ni b
-  | BNot e1 => bscoped w ng ni nb e1
-  | BAnd e1 e2 | BOr e1 e2 => bscoped w ng ni nb e1 /\ bscoped w ng ni nb e2
+  | BNot e1 => bscoped w ng nbg ni nb e1
+  | BAnd e1 e2 | BOr e1 e2 => bscoped w ng nbg ni nb e1 /\ bscoped w ng nbg ni nb e2
   end.
 (* well-scoped statements: (ni, nb) = numbers of int / bool locals in scope; inloop: break /
    continue allowed; lib: what a call needs of the machine (the registers are where hidc puts
    them, the runtime library is loaded); cf f n: function f may be called with n arguments *)
-Fixpoint sscoped (w : Z) (ng : nat) (lib : Prop) (cf : nat -> nat -> Prop) (ni nb : nat) (inloop : bool) (s : stmt) : Prop :=
+Fixpoint sscoped (w : Z) (ng nbg : nat) (lib : Prop) (cf : nat -> nat -> Prop) (ni nb : nat) (inloop : bool) (s : stmt) : Prop :=
   match s with
   | SDeclI o => oscoped w ng ni o
   | SAssignI i o => (i < ni)%nat /\ oscoped w ng ni o
-  | SDeclB e => bscoped w ng ni nb e
-  | SAssignB j e => (j < nb)%nat /\ bscoped w ng ni nb e
-  | SWrite (WrByte o) => oscoped w ng ni o /\ is_glob o = false     (* `write(g is byte)` of a global: modelled, not proved *)
+  | SDeclB e => bscoped w ng nbg ni nb e
+  | SAssignB j e => (j < nb)%nat /\ bscoped w ng nbg ni nb e
+  | SWrite (WrByte o) => oscoped w ng ni o
   | SWrite _ | SWriteln => True
   | SWriteI _ o => oscoped w ng ni o /\ lib              (* the runtime library must be there *)
-  | SWriteB _ e => bscoped w ng ni nb e /\ lib
-  | SIf c s1 s2 => bscoped w ng ni nb c /\ ssscoped w ng lib cf ni nb inloop s1 /\ ssscoped w ng lib cf ni nb inloop s2
-  | SWhile c b k => bscoped w ng ni nb c /\ ssscoped w ng lib cf ni nb true b /\ ssscoped w ng lib cf ni nb inloop k
-  | SBlock ss => ssscoped w ng lib cf ni nb inloop ss
+  | SWriteB _ e => bscoped w ng nbg ni nb e /\ lib
+  | SIf c s1 s2 => bscoped w ng nbg ni nb c /\ ssscoped w ng nbg lib cf ni nb inloop s1 /\ ssscoped w ng nbg lib cf ni nb inloop s2
+  | SWhile c b k => bscoped w ng nbg ni nb c /\ ssscoped w ng nbg lib cf ni nb true b /\ ssscoped w ng nbg lib cf ni nb inloop k
+  | SBlock ss => ssscoped w ng nbg lib cf ni nb inloop ss
   | SBreak | SContinue => inloop = true
   | SDeclDiv op a b => (op = SDiv \/ op = SMod) /\ oscoped w ng ni a /\ oscoped w ng ni b /\ lib
   | SAssignDiv i op a b => (i < ni)%nat /\ (op = SDiv \/ op = SMod) /\ oscoped w ng ni a /\ oscoped w ng ni b /\ lib
@@ -67,19 +68,19 @@ Fixpoint sscoped (w : Z) (ng : nat) (lib : Prop) (cf : nat -> nat -> Prop) (ni n
       cf f (length args) /\ Forall (oscoped w ng ni) args /\ lib
   | SReturn (Some o) => oscoped w ng ni o
   | SReturn None => True
-  (* an int global receives a literal, a variable, or the result of one binary operation *)
-  | SAssignG g o => (g < ng)%nat /\ oscoped w ng ni o /\ match o with OUn _ _ => False | _ => True end
-  | SAssignGDiv _ _ _ _ => False
+  | SAssignG g o => (g < ng)%nat /\ oscoped w ng ni o
+  | SAssignGDiv g op a b => (g < ng)%nat /\ (op = SDiv \/ op = SMod) /\ oscoped w ng ni a /\ oscoped w ng ni b /\ lib
+  | SAssignBG h e => (h < nbg)%nat /\ bscoped w ng nbg ni nb e
   end
-with ssscoped (w : Z) (ng : nat) (lib : Prop) (cf : nat -> nat -> Prop) (ni nb : nat) (inloop : bool) (ss : stmts) : Prop :=
+with ssscoped (w : Z) (ng nbg : nat) (lib : Prop) (cf : nat -> nat -> Prop) (ni nb : nat) (inloop : bool) (ss : stmts) : Prop :=
   match ss with
   | SNil => True
   | SCons s r =>
-      sscoped w ng lib cf ni nb inloop s /\
+      sscoped w ng nbg lib cf ni nb inloop s /\
       match s with
-      | SDeclI _ | SDeclDiv _ _ _ | SCall DDecl _ _ => ssscoped w ng lib cf (S ni) nb inloop r
-      | SDeclB _ => ssscoped w ng lib cf ni (S nb) inloop r
-      | _ => ssscoped w ng lib cf ni nb inloop r
+      | SDeclI _ | SDeclDiv _ _ _ | SCall DDecl _ _ => ssscoped w ng nbg lib cf (S ni) nb inloop r
+      | SDeclB _ => ssscoped w ng nbg lib cf ni (S nb) inloop r
+      | _ => ssscoped w ng nbg lib cf ni nb inloop r
       end
   end.
 
@@ -91,6 +92,7 @@ Variable lo : Z.          (* lowest address of the stack area the function may u
 Variable fb : Z.          (* frame base: every local lies strictly below [fp] - fb (fb = w: the return address) *)
 Variable gl : Z.          (* the int globals lie at or above gl = stack_end, above every frame *)
 Variable ng : nat.        (* the number of int globals *)
+Variable nbg : nat.       (* the number of bool globals *)
 Notation W := (Machine.W w).
 Notation wrap := (Machine.wrap w).
 Notation sgn := (Machine.sgn w).
@@ -134,10 +136,16 @@ Record rep (S : senv) (s : store) (m : mem) : Prop := {
   (* the int globals: words above every frame, pairwise apart, holding the global part of the store *)
   rp_gl : FP m <= gl;
   rp_gn : length (sg s) = ng;
-  rp_g : forall g, (g < ng)%nat -> gl <= a_glob R g /\ inb m (a_glob R g) w = true /\
+  rp_g : forall g, (g < ng)%nat -> gl <= a_glob R g < W /\ inb m (a_glob R g) w = true /\
                                   sgn (lw m (a_glob R g)) = nth g (sg s) 0;
   rp_gd : forall g g', (g < ng)%nat -> (g' < ng)%nat -> g <> g' ->
-          a_glob R g + w <= a_glob R g' \/ a_glob R g' + w <= a_glob R g }.
+          a_glob R g + w <= a_glob R g' \/ a_glob R g' + w <= a_glob R g;
+  (* the bool globals: bytes in the same area, apart from each other and from the int globals *)
+  rp_gbn : length (sgb s) = nbg;
+  rp_gb : forall h, (h < nbg)%nat -> gl <= a_bglob R h < W /\ inb m (a_bglob R h) 1 = true /\
+                                    lb m (a_bglob R h) = nth h (sgb s) 0 /\ (nth h (sgb s) 0 = 0 \/ nth h (sgb s) 0 = 1);
+  rp_gbd : (forall h h', (h < nbg)%nat -> (h' < nbg)%nat -> h <> h' -> a_bglob R h <> a_bglob R h') /\
+           (forall g h, (g < ng)%nat -> (h < nbg)%nat -> a_bglob R h + 1 <= a_glob R g \/ a_glob R g + w <= a_bglob R h) }.
 
 Hypothesis Hw : 2 <= w.
 Let Hw1 : 1 <= w. Proof. lia. Qed.
@@ -187,12 +195,14 @@ Proof.
   - destruct u; rewrite IHx by assumption; reflexivity.
   - apply (rp_g S s m Rp g Sc).
 Qed.
-Lemma rep_beval S s m e : wf_senv S -> rep S s m -> bscoped w ng (length (ioffs S)) (length (boffs S)) e ->
+Lemma rep_beval S s m e : wf_senv S -> rep S s m -> bscoped w ng nbg (length (ioffs S)) (length (boffs S)) e ->
   beval w R (env_of S) m e = bevals w s e.
 Proof.
   intros Wf Rp. induction e as [b|j|op a b|e IH|e1 IH1 e2 IH2|e1 IH1 e2 IH2]; cbn [bscoped beval bevals]; intros Sc.
   - reflexivity.
-  - unfold bval. cbn [env_of bool_off]. now rewrite (proj1 (rp_b S s m Rp j Sc)).
+  - destruct j as [j|h]; cbn [bval env_of bool_off].
+    + now rewrite (proj1 (rp_b S s m Rp j Sc)).
+    + destruct (rp_gb S s m Rp h Sc) as [_ [_ [E _]]]. now rewrite E.
   - destruct Sc as [Sa Sb]. now rewrite (rep_sval S s m a Wf Rp Sa), (rep_sval S s m b Wf Rp Sb).
   - now rewrite IH.
   - destruct Sc as [S1 S2]. now rewrite IH1, IH2.
@@ -201,7 +211,7 @@ Qed.
 Lemma temps_b_le_and e1 e2 : (temps_b e1 <= temps_b (BAnd e1 e2))%nat /\ (temps_b e2 <= temps_b (BAnd e1 e2))%nat.
 Proof. cbn [temps_b]. lia. Qed.
 (* E' is env_of S possibly with a higher stack top *)
-Lemma rep_vars S s m e t : wf_senv S -> rep S s m -> bscoped w ng (length (ioffs S)) (length (boffs S)) e ->
+Lemma rep_vars S s m e t : wf_senv S -> rep S s m -> bscoped w ng nbg (length (ioffs S)) (length (boffs S)) e ->
   top S <= t -> t + Z.of_nat (temps_b e) * w <= FP m - lo ->
   vars_ok w R (with_top (env_of S) t) lo m e.
 Proof.
@@ -209,7 +219,9 @@ Proof.
   assert (Hh : HI w R (with_top (env_of S) t) m <= FP m - top S) by (unfold HI; cbn [with_top stack_top]; lia).
   induction e as [b|j|op a b|e IH|e1 IH1 e2 IH2|e1 IH1 e2 IH2]; cbn [bscoped vars_ok temps_b] in *.
   - exact I.
-  - cbn [with_top env_of bool_off]. apply (rep_slot_b S s); assumption.
+  - destruct j as [j|h]; cbn [bslot_ok with_top env_of bool_off]; [apply (rep_slot_b S s); assumption|].
+    destruct (rp_gb S s m Rp h Sc) as [G0 [G1 _]]. pose proof (rp_gl S s m Rp) as Hg. pose proof (wfs_fb S Wf) as Ofb.
+    pose proof (rp_regs S s m Rp) as L. destruct L, Rp. unfold dj. repeat split; try assumption; lia.
   - destruct Sc as [Sa Sb]. split; [|split].
     + pose proof (rep_oexp S s m a _ Wf Rp Sa Hh) as X. exact X.
     + pose proof (rep_oexp S s m b _ Wf Rp Sb Hh) as X. exact X.
@@ -220,11 +232,13 @@ Proof.
   - destruct Sc as [S1 S2]. split; [apply IH1 | apply IH2]; try assumption;
       (eapply Z.le_trans; [|exact Hr]); apply Z.add_le_mono_l; apply Z.mul_le_mono_nonneg_r; lia.
 Qed.
-Lemma rep_norm S s m e : wf_senv S -> rep S s m -> bscoped w ng (length (ioffs S)) (length (boffs S)) e ->
+Lemma rep_norm S s m e : wf_senv S -> rep S s m -> bscoped w ng nbg (length (ioffs S)) (length (boffs S)) e ->
   bool_norm w R (env_of S) m e.
 Proof.
   intros Wf Rp. induction e as [b|j|op a b|e IH|e1 IH1 e2 IH2|e1 IH1 e2 IH2]; cbn [bscoped bool_norm]; try tauto.
-  intros Sc. unfold bval. cbn [env_of bool_off]. destruct (rp_b S s m Rp j Sc) as [E N]. now rewrite E.
+  intros Sc. destruct j as [j|h]; cbn [bval env_of bool_off].
+  - destruct (rp_b S s m Rp j Sc) as [E N]. now rewrite E.
+  - destruct (rp_gb S s m Rp h Sc) as [_ [_ [E N]]]. now rewrite E.
 Qed.
 (* the semantics does not look at the stack top *)
 Lemma sval_top E t m o : sval w R (with_top E t) m o = sval w R E m o.
@@ -255,16 +269,28 @@ Proof.
     split; [rewrite (agree_inb w R lo _ m m' _ _ A); exact G1|]. rewrite <- G2. f_equal.
     pose proof (rp_gl S s m Rp) as Hgl'. pose proof (wfs_fb S Wf) as Ofb. pose proof (rp_regs S s m Rp) as L.
     apply (agree_lw w R lo Hw (FP m - top S)); [exact A | destruct L, Rp; lia | unfold dj; destruct L, Rp; lia].
+  - intros h Hh. destruct (rp_gb S s m Rp h Hh) as [G0 [G1 [G2 G3]]]. split; [exact G0|].
+    split; [rewrite (agree_inb w R lo _ m m' _ _ A); exact G1|]. split; [|exact G3]. rewrite <- G2.
+    pose proof (rp_gl S s m Rp) as Hgl'. pose proof (wfs_fb S Wf) as Ofb. pose proof (rp_regs S s m Rp) as L.
+    apply (agree_lb w R lo (FP m - top S)); [exact A | destruct L, Rp; lia | unfold dj; destruct L, Rp; lia].
 Qed.
 Hypothesis Hgl : lo <= gl.
 (* the globals are not touched by code that keeps everything above the frame *)
 Lemma glob_agree S s m m' hi : rep S s m -> agree w R lo hi m m' -> hi <= FP m -> forall g, (g < ng)%nat ->
-  gl <= a_glob R g /\ inb m' (a_glob R g) w = true /\ sgn (lw m' (a_glob R g)) = nth g (sg s) 0.
+  gl <= a_glob R g < W /\ inb m' (a_glob R g) w = true /\ sgn (lw m' (a_glob R g)) = nth g (sg s) 0.
 Proof.
   intros Rp A Hh g Hg. destruct (rp_g S s m Rp g Hg) as [G0 [G1 G2]]. split; [exact G0|].
   split; [rewrite (agree_inb w R lo _ m m' _ _ A); exact G1|]. rewrite <- G2. f_equal.
   pose proof (rp_gl S s m Rp) as Hgl'. pose proof (rp_regs S s m Rp) as L.
   apply (agree_lw w R lo Hw hi); [exact A | destruct L, Rp; lia | unfold dj; destruct L, Rp; lia].
+Qed.
+Lemma globb_agree S s m m' hi : rep S s m -> agree w R lo hi m m' -> hi <= FP m -> forall h, (h < nbg)%nat ->
+  gl <= a_bglob R h < W /\ inb m' (a_bglob R h) 1 = true /\ lb m' (a_bglob R h) = nth h (sgb s) 0 /\ (nth h (sgb s) 0 = 0 \/ nth h (sgb s) 0 = 1).
+Proof.
+  intros Rp A Hh h Hg. destruct (rp_gb S s m Rp h Hg) as [G0 [G1 [G2 G3]]]. split; [exact G0|].
+  split; [rewrite (agree_inb w R lo _ m m' _ _ A); exact G1|]. split; [|exact G3]. rewrite <- G2.
+  pose proof (rp_gl S s m Rp) as Hgl'. pose proof (rp_regs S s m Rp) as L.
+  apply (agree_lb w R lo hi); [exact A | destruct L, Rp; lia | unfold dj; destruct L, Rp; lia].
 Qed.
 (* STATEMENTS may also assign to globals: `gagree hi m m'` -- m' differs from m at most in r0, r1, r2,
    in the stack area [lo, hi) and in the globals area [gl, ..) *)
@@ -371,6 +397,7 @@ Variable cf : nat -> nat -> Prop.       (* cf f n: function f may be called with
 Hypothesis Hfb : fb = w.                (* the frame base is the return address *)
 Variable gl : Z.                        (* the int globals lie at or above gl (stack_end) *)
 Variable ng : nat.                      (* the number of int globals *)
+Variable nbg : nat.                     (* the number of bool globals *)
 Hypothesis Hgl : lo <= gl.
 Notation W := (Machine.W w).
 Notation wrap := (Machine.wrap w).
@@ -388,7 +415,7 @@ Notation oval := (Idioms.oval w cmem).
 Notation plc := (placed R lab code).
 Notation rs := (res_sym R lab).
 Notation wf_senv := (wf_senv w fb).
-Notation rep := (rep w R lo gl ng).
+Notation rep := (rep w R lo gl ng nbg).
 Notation fagree := (fagree w R lo fb gl).
 Let Hw1 : 1 <= w. Proof. lia. Qed.
 (* what a call of a library routine needs: hidc's register layout and the library in the code *)
@@ -502,11 +529,11 @@ Qed.
 
 Lemma rep_push_int S s m m' v : wf_senv S -> rep S s m -> agree w R lo (FP m - top S) m m' ->
   top S + w <= FP m - lo -> sgn (lw m' (FP m - (top S + w))) = v ->
-  rep (push_int S) (mkstore (si s ++ [v]) (sb s) (sg s)) m'.
+  rep (push_int S) (mkstore (si s ++ [v]) (sb s) (sg s) (sgb s)) m'.
 Proof.
-  intros Wf Rp A Hr Hv. pose proof (rep_agree w R lo fb gl ng Hw S s m m' Wf Rp A) as Rp'.
-  pose proof (FP_agree w R lo Hw _ m m' (rp_regs w R lo gl ng S s m Rp) A) as EF.
-  destruct Rp' as [Rg Rlo Rh Rsz Rli Rlb Ri Rb Rap Rgl Rgn Rgg Rgd].
+  intros Wf Rp A Hr Hv. pose proof (rep_agree w R lo fb gl ng nbg Hw S s m m' Wf Rp A) as Rp'.
+  pose proof (FP_agree w R lo Hw _ m m' (rp_regs w R lo gl ng nbg S s m Rp) A) as EF.
+  destruct Rp' as [Rg Rlo Rh Rsz Rli Rlb Ri Rb Rap Rgl Rgn Rgg Rgd Rbn Rbg Rbd].
   pose proof (wfs_w w fb S Wf) as Ews.
   constructor; cbn [push_int top ioffs boffs si sb]; rewrite ?Ews; try assumption; try lia.
   - rewrite !app_length. cbn [length]. lia.
@@ -522,11 +549,11 @@ Proof.
 Qed.
 Lemma rep_push_bool S s m m' v : wf_senv S -> rep S s m -> agree w R lo (FP m - top S) m m' ->
   top S + 1 <= FP m - lo -> lb m' (FP m - (top S + 1)) = v -> v = 0 \/ v = 1 ->
-  rep (push_bool S) (mkstore (si s) (sb s ++ [v]) (sg s)) m'.
+  rep (push_bool S) (mkstore (si s) (sb s ++ [v]) (sg s) (sgb s)) m'.
 Proof.
-  intros Wf Rp A Hr Hv Hn. pose proof (rep_agree w R lo fb gl ng Hw S s m m' Wf Rp A) as Rp'.
-  pose proof (FP_agree w R lo Hw _ m m' (rp_regs w R lo gl ng S s m Rp) A) as EF.
-  destruct Rp' as [Rg Rlo Rh Rsz Rli Rlb Ri Rb Rap Rgl Rgn Rgg Rgd].
+  intros Wf Rp A Hr Hv Hn. pose proof (rep_agree w R lo fb gl ng nbg Hw S s m m' Wf Rp A) as Rp'.
+  pose proof (FP_agree w R lo Hw _ m m' (rp_regs w R lo gl ng nbg S s m Rp) A) as EF.
+  destruct Rp' as [Rg Rlo Rh Rsz Rli Rlb Ri Rb Rap Rgl Rgn Rgg Rgd Rbn Rbg Rbd].
   constructor; cbn [push_bool top ioffs boffs si sb]; try assumption; try lia.
   - rewrite !app_length. cbn [length]. lia.
   - intros j Hj. rewrite app_length in Hj. cbn [length] in Hj.
@@ -542,20 +569,20 @@ Qed.
 (* overwriting the slot of int local i *)
 Lemma rep_set_int S s m i x : wf_senv S -> rep S s m -> (i < length (ioffs S))%nat -> inrange w x ->
   let m' := sw m (FP m - nth i (ioffs S) 0) x in
-  rep S (mkstore (upd i (sgn x) (si s)) (sb s) (sg s)) m' /\ fagree m m'.
+  rep S (mkstore (upd i (sgn x) (si s)) (sb s) (sg s) (sgb s)) m' /\ fagree m m'.
 Proof.
-  intros Wf Rp Hi Hx m'. pose proof (rp_regs w R lo gl ng S s m Rp) as L.
+  intros Wf Rp Hi Hx m'. pose proof (rp_regs w R lo gl ng nbg S s m Rp) as L.
   assert (Hlo : 0 <= lo) by (destruct L; lia).
-  destruct (rep_slot_i w R lo fb gl ng Hw S s m i (FP m - top S) Wf Rp Hi ltac:(lia)) as [O1 [O2 [O3 [D0 [D1 D2]]]]].
+  destruct (rep_slot_i w R lo fb gl ng nbg Hw S s m i (FP m - top S) Wf Rp Hi ltac:(lia)) as [O1 [O2 [O3 [D0 [D1 D2]]]]].
   pose proof (wfs_i w fb S Wf i Hi) as Oi. pose proof (wfs_fb w fb S Wf) as Ofb.
   set (a := FP m - nth i (ioffs S) 0) in *.
   assert (Aa : agree w R lo (FP m - fb) m m').
   { apply (agree_sw w R lo Hw); [exact O2|]. right. right. destruct Rp. subst a. lia. }
   assert (Fa : fagree m m') by (apply (agree_gagree w R lo gl); exact Aa).
   assert (EF : FP m' = FP m) by apply (FP_fagree w R lo fb gl Hw Hgl m m' L Fa).
-  split; [|exact Fa]. pose proof (glob_agree w R lo gl ng Hw Hgl S s m m' _ Rp Aa ltac:(lia)) as Gg.
-  destruct Rp as [Rg Rlo Rh Rsz Rli Rlb Ri Rb Rap Rgl Rgn Rgg Rgd].
-  constructor; cbn [si sb sg]; rewrite ?EF; try assumption;
+  split; [|exact Fa]. pose proof (glob_agree w R lo gl ng nbg Hw Hgl S s m m' _ Rp Aa ltac:(lia)) as Gg. pose proof (globb_agree w R lo gl ng nbg Hw Hgl S s m m' _ Rp Aa ltac:(lia)) as Gb.
+  destruct Rp as [Rg Rlo Rh Rsz Rli Rlb Ri Rb Rap Rgl Rgn Rgg Rgd Rbn Rbg Rbd].
+  constructor; cbn [si sb sg sgb]; rewrite ?EF; try assumption;
     try (intros Ap; rewrite (ap_agree w R lo Hw _ _ _ Ap Aa); exact (Rap Ap)).
   - apply (regs_ok_fagree w R lo fb gl Hw Hgl m m' L Fa).
   - unfold m'. rewrite msize_sw. exact Rsz.
@@ -572,11 +599,11 @@ Proof.
 Qed.
 Lemma rep_set_bool S s m j v : wf_senv S -> rep S s m -> (j < length (boffs S))%nat -> v = 0 \/ v = 1 ->
   let m' := Machine.sb m (FP m - nth j (boffs S) 0) v in
-  rep S (mkstore (si s) (upd j v (sb s)) (sg s)) m' /\ fagree m m'.
+  rep S (mkstore (si s) (upd j v (sb s)) (sg s) (sgb s)) m' /\ fagree m m'.
 Proof.
-  intros Wf Rp Hj Hv m'. pose proof (rp_regs w R lo gl ng S s m Rp) as L.
+  intros Wf Rp Hj Hv m'. pose proof (rp_regs w R lo gl ng nbg S s m Rp) as L.
   assert (Hlo : 0 <= lo) by (destruct L; lia).
-  destruct (rep_slot_b w R lo fb gl ng Hw S s m j (FP m - top S) Wf Rp Hj ltac:(lia)) as [O1 [O2 [O3 [D0 [D1 D2]]]]].
+  destruct (rep_slot_b w R lo fb gl ng nbg Hw S s m j (FP m - top S) Wf Rp Hj ltac:(lia)) as [O1 [O2 [O3 [D0 [D1 D2]]]]].
   pose proof (wfs_b w fb S Wf j Hj) as Oj. pose proof (wfs_fb w fb S Wf) as Ofb.
   set (a := FP m - nth j (boffs S) 0) in *.
   assert (Aa : agree w R lo (FP m - fb) m m').
@@ -585,9 +612,9 @@ Proof.
     - intros x X N0 N1 N2 N3. apply getb_setb_other; [exact O2 | exact X |]. destruct Rp. subst a. lia. }
   assert (Fa : fagree m m') by (apply (agree_gagree w R lo gl); exact Aa).
   assert (EF : FP m' = FP m) by apply (FP_fagree w R lo fb gl Hw Hgl m m' L Fa).
-  split; [|exact Fa]. pose proof (glob_agree w R lo gl ng Hw Hgl S s m m' _ Rp Aa ltac:(lia)) as Gg.
-  destruct Rp as [Rg Rlo Rh Rsz Rli Rlb Ri Rb Rap Rgl Rgn Rgg Rgd].
-  constructor; cbn [si sb sg]; rewrite ?EF; try assumption;
+  split; [|exact Fa]. pose proof (glob_agree w R lo gl ng nbg Hw Hgl S s m m' _ Rp Aa ltac:(lia)) as Gg. pose proof (globb_agree w R lo gl ng nbg Hw Hgl S s m m' _ Rp Aa ltac:(lia)) as Gb.
+  destruct Rp as [Rg Rlo Rh Rsz Rli Rlb Ri Rb Rap Rgl Rgn Rgg Rgd Rbn Rbg Rbd].
+  constructor; cbn [si sb sg sgb]; rewrite ?EF; try assumption;
     try (intros Ap; rewrite (ap_agree w R lo Hw _ _ _ Ap Aa); exact (Rap Ap)).
   - apply (regs_ok_fagree w R lo fb gl Hw Hgl m m' L Fa).
   - rewrite length_upd. exact Rlb.
@@ -611,9 +638,9 @@ Lemma rep_opd_hyps S s m o keep : wf_senv S -> rep S s m -> oscoped w ng (length
 Proof.
   intros Wf Rp Sc Hn. unfold need_int in Hn. rewrite (wfs_w w fb S Wf) in Hn.
   assert (0 <= Z.of_nat (temps o keep) * w) by (apply Z.mul_nonneg_nonneg; lia).
-  split; [apply (wfs_w w fb S Wf)|]. split; [apply (rp_regs w R lo gl ng S s m Rp)|].
-  split; [apply (rep_room w R lo fb gl ng S s m (top S) Wf Rp); lia|].
-  split; [apply (rep_oexp w R lo fb gl ng Hw S s m o _ Wf Rp Sc); lia | lia].
+  split; [apply (wfs_w w fb S Wf)|]. split; [apply (rp_regs w R lo gl ng nbg S s m Rp)|].
+  split; [apply (rep_room w R lo fb gl ng nbg S s m (top S) Wf Rp); lia|].
+  split; [apply (rep_oexp w R lo fb gl ng nbg Hw S s m o _ Wf Rp Sc); lia | lia].
 Qed.
 (* get_expr_value(r1, o): evaluate and pop into r1 *)
 Lemma get_value_runs S s m rg o c0 bub c1 v p : rg = R0 \/ rg = R1 -> wf_senv S -> rep S s m -> oscoped w ng (length (ioffs S)) o ->
@@ -648,18 +675,18 @@ Qed.
 Lemma sval_ieval S s m o : wf_senv S -> rep S s m -> oscoped w ng (length (ioffs S)) o ->
   sgn (wval w R (env_of S) m o) = ieval w s o /\ inrange w (wval w R (env_of S) m o).
 Proof.
-  intros Wf Rp Sc. pose proof (rp_regs w R lo gl ng S s m Rp) as L.
+  intros Wf Rp Sc. pose proof (rp_regs w R lo gl ng nbg S s m Rp) as L.
   split; [|apply (wval_range w R (env_of S) Hw); apply (lo_wf w R lo m L)].
   rewrite (sgn_wval w R (env_of S) lo Hw (FP m - top S) m o (lo_wf w R lo m L)).
-  - apply (rep_sval w R lo fb gl ng S s m o Wf Rp Sc).
-  - apply (rep_oexp w R lo fb gl ng Hw S s m o _ Wf Rp Sc). lia.
+  - apply (rep_sval w R lo fb gl ng nbg S s m o Wf Rp Sc).
+  - apply (rep_oexp w R lo fb gl ng nbg Hw S s m o _ Wf Rp Sc). lia.
 Qed.
 
 (* int x = o; *)
 Lemma decl_int_runs S s m o p : wf_senv S -> rep S s m -> oscoped w ng (length (ioffs S)) o ->
   need_int S o true <= FP m - lo -> top S + w <= FP m - lo -> plc (decl_int S o) p ->
   exists m', runs (mk p m) [] (mk (p + size (decl_int S o)) m') /\
-             rep (push_int S) (mkstore (si s ++ [ieval w s o]) (sb s) (sg s)) m' /\ agree w R lo (FP m - top S) m m'.
+             rep (push_int S) (mkstore (si s ++ [ieval w s o]) (sb s) (sg s) (sgb s)) m' /\ agree w R lo (FP m - top S) m m'.
 Proof.
   intros Wf Rp Sc Hn Ht P.
   destruct (rep_opd_hyps S s m o true Wf Rp Sc Hn) as [HwE [L [Ro [Oe T]]]].
@@ -671,7 +698,7 @@ Proof.
   assert (Final : forall m1, agree w R lo (FP m - tp) m m1 -> forall v q, oval m1 (rs v) = Some (wval w R E m o) ->
             code q = Some (IStoreO WWord (St fp) (Imm (- (tp + w))) (rs v)) ->
             exists m', runs (mk q m1) [] (mk (q + 1) m') /\
-                       rep (push_int S) (mkstore (si s ++ [ieval w s o]) (sb s) (sg s)) m' /\ agree w R lo (FP m - tp) m m').
+                       rep (push_int S) (mkstore (si s ++ [ieval w s o]) (sb s) (sg s) (sgb s)) m' /\ agree w R lo (FP m - tp) m m').
   { intros m1 A1 v q Ov Cq.
     pose proof (regs_ok_agree w R lo Hw _ m m1 L A1) as L1. pose proof (FP_agree w R lo Hw _ m m1 L A1) as F1.
     assert (I1 : inb m1 (FP m1 - (tp + w)) w = true).
@@ -725,7 +752,7 @@ Qed.
 Lemma assign_int_runs S s m i o p : wf_senv S -> rep S s m -> (i < length (ioffs S))%nat ->
   oscoped w ng (length (ioffs S)) o -> need_int S o false <= FP m - lo -> plc (assign_int S i o) p ->
   exists m', runs (mk p m) [] (mk (p + size (assign_int S i o)) m') /\
-             rep S (mkstore (upd i (ieval w s o) (si s)) (sb s) (sg s)) m' /\ fagree m m'.
+             rep S (mkstore (upd i (ieval w s o) (si s)) (sb s) (sg s) (sgb s)) m' /\ fagree m m'.
 Proof.
   intros Wf Rp Hi Sc Hn P. unfold assign_int in *.
   destruct (eval_opd (env_of S) (top S) R1 o false) as [c0 bub] eqn:Ev.
@@ -736,15 +763,15 @@ Proof.
   cbn [plc res_ins res_sym regaddr] in P2. destruct P2 as [Cq _].
   destruct (get_value_runs S s m R1 o c0 bub c1 v p (or_intror eq_refl) Wf Rp Sc Hn Ev Pv P1) as [m2 [Rn [A [Ov _]]]].
   destruct (sval_ieval S s m o Wf Rp Sc) as [Sv Rv].
-  pose proof (rep_agree w R lo fb gl ng Hw S s m m2 Wf Rp A) as Rp2.
-  pose proof (rp_regs w R lo gl ng S s m Rp) as L. pose proof (FP_agree w R lo Hw _ m m2 L A) as F2.
-  destruct (rep_slot_i w R lo fb gl ng Hw S s m2 i (FP m2 - top S) Wf Rp2 Hi ltac:(lia)) as [O1 [O2 [O3 _]]].
-  pose proof (store_word_runs _ m2 (rs v) _ _ Cq Ov (rp_regs w R lo gl ng S s m2 Rp2) O1 O3) as Rs.
+  pose proof (rep_agree w R lo fb gl ng nbg Hw S s m m2 Wf Rp A) as Rp2.
+  pose proof (rp_regs w R lo gl ng nbg S s m Rp) as L. pose proof (FP_agree w R lo Hw _ m m2 L A) as F2.
+  destruct (rep_slot_i w R lo fb gl ng nbg Hw S s m2 i (FP m2 - top S) Wf Rp2 Hi ltac:(lia)) as [O1 [O2 [O3 _]]].
+  pose proof (store_word_runs _ m2 (rs v) _ _ Cq Ov (rp_regs w R lo gl ng nbg S s m2 Rp2) O1 O3) as Rs.
   destruct (rep_set_int S s m2 i _ Wf Rp2 Hi Rv) as [Rp3 Fa]. rewrite Sv in Rp3.
   eexists. split; [|split; [exact Rp3|]].
   - rewrite size_app. cbn [size]. change (@nil event) with (@nil event ++ []).
     eapply runs_trans; [exact Rn|]. replace (p + (size (c0 ++ c1) + (1 + 0))) with (p + size (c0 ++ c1) + 1) by lia. exact Rs.
-  - apply (fagree_trans w R lo fb gl Hw Hgl m m2); [exact L | apply (agree_fagree w R lo fb gl ng S s m m2 Wf Rp A) | exact Fa].
+  - apply (fagree_trans w R lo fb gl Hw Hgl m m2); [exact L | apply (agree_fagree w R lo fb gl ng nbg S s m m2 Wf Rp A) | exact Fa].
 Qed.
 
 (* write(b) *)
@@ -752,11 +779,11 @@ Lemma yield_runs p m v x : code p = Some (IYield v) -> oval m v = Some x ->
   runs (mk p m) [EOut (x mod 256)] (mk (p + 1) m).
 Proof. intros C A. apply (runs_next act _ _ (Some (EOut (x mod 256)))). apply (act_yield p m v x); assumption. Qed.
 Lemma write_runs S s m x p : wf_senv S -> rep S s m ->
-  match x with WrByte o => oscoped w ng (length (ioffs S)) o /\ is_glob o = false /\ need_int S o false <= FP m - lo | _ => True end ->
+  match x with WrByte o => oscoped w ng (length (ioffs S)) o /\ need_int S o false <= FP m - lo | _ => True end ->
   plc (lower_write S x) p ->
   exists m', runs (mk p m) [EOut (wbyte w s x)] (mk (p + size (lower_write S x)) m') /\ rep S s m' /\ fagree m m'.
 Proof.
-  intros Wf Rp Hx P. pose proof (rp_regs w R lo gl ng S s m Rp) as L. pose proof (wfs_fb w fb S Wf) as Ofb.
+  intros Wf Rp Hx P. pose proof (rp_regs w R lo gl ng nbg S s m Rp) as L. pose proof (wfs_fb w fb S Wf) as Ofb.
   destruct x as [z|c|o]; cbn [lower_write wbyte] in *.
   - cbn [plc res_ins res_sym] in P. destruct P as [C _]. exists m. cbn [size]. replace (p + (1 + 0)) with (p + 1) by lia.
     split; [|split; [exact Rp | apply fagree_refl]].
@@ -764,7 +791,7 @@ Proof.
   - cbn [plc res_ins res_sym] in P. destruct P as [C _]. exists m. cbn [size]. replace (p + (1 + 0)) with (p + 1) by lia.
     split; [|split; [exact Rp | apply fagree_refl]].
     rewrite <- (wrap_mod256 c). apply (yield_runs p m (Imm c)); [exact C | apply oval_imm].
-  - destruct Hx as [Sc [Ngl Hn]].
+  - destruct Hx as [Sc Hn].
     destruct (rep_opd_hyps S s m o false Wf Rp Sc Hn) as [HwE [_ [Ro [Oe T]]]].
     destruct (sval_ieval S s m o Wf Rp Sc) as [Sv Rv].
     set (E := env_of S) in *. set (tp := top S) in *.
@@ -784,7 +811,7 @@ Proof.
     rewrite Eb in *. destruct o as [z|i|op x y|u x|g]; cbn [bub_of] in *.
     + (* a literal: masked at compile time *)
       cbn [plc res_ins res_sym] in P1. destruct P1 as [C _]. exists m1.
-      rewrite size_app. cbn [size]. split; [|split; [apply (rep_agree w R lo fb gl ng Hw S s m m1 Wf Rp A) | apply (agree_fagree w R lo fb gl ng S s m m1 Wf Rp A)]].
+      rewrite size_app. cbn [size]. split; [|split; [apply (rep_agree w R lo fb gl ng nbg Hw S s m m1 Wf Rp A) | apply (agree_fagree w R lo fb gl ng nbg S s m m1 Wf Rp A)]].
       change [EOut (wval w R E m (OLit z) mod 256)] with ([] ++ [EOut (wval w R E m (OLit z) mod 256)]).
       eapply runs_trans; [exact R0'|]. replace (p + (size c0 + (1 + 0))) with (p + size c0 + 1) by lia.
       cbn [wval]. rewrite wrap_mod256. rewrite <- (Z.mod_mod z 256) by lia. rewrite <- (wrap_mod256 (z mod 256)).
@@ -792,8 +819,8 @@ Proof.
     + (* a local: lbso *)
       cbn [plc res_ins res_sym regaddr] in P1. destruct P1 as [Cl [Cy _]].
       cbn [oscoped] in Sc. cbn [env_of int_off] in *.
-      pose proof (rep_agree w R lo fb gl ng Hw S s m m1 Wf Rp A) as Rp1.
-      destruct (rep_slot_i w R lo fb gl ng Hw S s m1 i (FP m1 - top S) Wf Rp1 Sc ltac:(lia)) as [O1 [O2 [O3 _]]].
+      pose proof (rep_agree w R lo fb gl ng nbg Hw S s m m1 Wf Rp A) as Rp1.
+      destruct (rep_slot_i w R lo fb gl ng nbg Hw S s m1 i (FP m1 - top S) Wf Rp1 Sc ltac:(lia)) as [O1 [O2 [O3 _]]].
       assert (I1 : inb m1 (FP m1 - nth i (ioffs S) 0) 1 = true).
       { unfold inb in *. apply andb_true_iff in O3. destruct O3 as [X1 X2]. apply Z.leb_le in X1, X2. apply andb_true_iff. split; apply Z.leb_le; lia. }
       pose proof (act_lbso w code cmem _ m1 r1 (St fp) (Imm (- nth i (ioffs S) 0)) (FP m1) (wrap (- nth i (ioffs S) 0)) Cl
@@ -803,7 +830,7 @@ Proof.
       assert (A2 : agree w R lo (FP m - tp) m m2).
       { eapply (agree_trans w R lo); [exact A|]. apply (agree_sw w R lo Hw); [apply (lo_r1 w R lo m1 L1) | auto]. }
       exists m2. rewrite size_app. cbn [size].
-      split; [|split; [apply (rep_agree w R lo fb gl ng Hw S s m m2 Wf Rp A2) | apply (agree_fagree w R lo fb gl ng S s m m2 Wf Rp A2)]].
+      split; [|split; [apply (rep_agree w R lo fb gl ng nbg Hw S s m m2 Wf Rp A2) | apply (agree_fagree w R lo fb gl ng nbg S s m m2 Wf Rp A2)]].
       change [EOut (wval w R E m (OVar i) mod 256)] with ([] ++ ([] ++ [EOut (wval w R E m (OVar i) mod 256)])).
       eapply runs_trans; [exact R0'|]. eapply runs_trans; [apply (runs_next act _ _ None Al)|].
       replace (p + (size c0 + (1 + (1 + 0)))) with (p + size c0 + 1 + 1) by lia.
@@ -812,7 +839,7 @@ Proof.
       rewrite (lb_lw m1 _ (lo_wf w R lo m1 L1)). cbn [wval env_of int_off]. fold E.
       rewrite F1. rewrite (agree_lw w R lo Hw (FP m - tp) m m1 _ A); [| rewrite <- F1; exact O2 |].
       * apply (wrap_small w). unfold inrange. pose proof (W_ge w Hw1). pose proof (Z.mod_pos_bound (lw m (FP m - nth i (ioffs S) 0)) 256 ltac:(lia)). lia.
-      * destruct (rep_slot_i w R lo fb gl ng Hw S s m i (FP m - top S) Wf Rp Sc ltac:(lia)) as [_ [_ [_ D]]]. exact D.
+      * destruct (rep_slot_i w R lo fb gl ng nbg Hw S s m i (FP m - top S) Wf Rp Sc ltac:(lia)) as [_ [_ [_ D]]]. exact D.
     + (* a computed value in r1: lbs [r1], r1 *)
       cbn [plc res_ins res_sym regaddr] in P1. destruct P1 as [Cl [Cy _]]. cbn [bub_val regaddr] in V.
       assert (Sr1 : wrap r1 = r1).
@@ -824,7 +851,7 @@ Proof.
       assert (A2 : agree w R lo (FP m - tp) m m2).
       { eapply (agree_trans w R lo); [exact A|]. apply (agree_sw w R lo Hw); [apply (lo_r1 w R lo m1 L1) | auto]. }
       exists m2. rewrite size_app. cbn [size].
-      split; [|split; [apply (rep_agree w R lo fb gl ng Hw S s m m2 Wf Rp A2) | apply (agree_fagree w R lo fb gl ng S s m m2 Wf Rp A2)]].
+      split; [|split; [apply (rep_agree w R lo fb gl ng nbg Hw S s m m2 Wf Rp A2) | apply (agree_fagree w R lo fb gl ng nbg S s m m2 Wf Rp A2)]].
       change [EOut (wval w R E m (OArith op x y) mod 256)] with ([] ++ ([] ++ [EOut (wval w R E m (OArith op x y) mod 256)])).
       eapply runs_trans; [exact R0'|]. eapply runs_trans; [apply (runs_next act _ _ None Al)|].
       replace (p + (size c0 + (1 + (1 + 0)))) with (p + size c0 + 1 + 1) by lia.
@@ -842,7 +869,7 @@ Proof.
       assert (A2 : agree w R lo (FP m - tp) m m2).
       { eapply (agree_trans w R lo); [exact A|]. apply (agree_sw w R lo Hw); [apply (lo_r1 w R lo m1 L1) | auto]. }
       exists m2. rewrite size_app. cbn [size].
-      split; [|split; [apply (rep_agree w R lo fb gl ng Hw S s m m2 Wf Rp A2) | apply (agree_fagree w R lo fb gl ng S s m m2 Wf Rp A2)]].
+      split; [|split; [apply (rep_agree w R lo fb gl ng nbg Hw S s m m2 Wf Rp A2) | apply (agree_fagree w R lo fb gl ng nbg S s m m2 Wf Rp A2)]].
       change [EOut (wval w R E m (OUn u x) mod 256)] with ([] ++ ([] ++ [EOut (wval w R E m (OUn u x) mod 256)])).
       eapply runs_trans; [exact R0'|]. eapply runs_trans; [apply (runs_next act _ _ None Al)|].
       replace (p + (size c0 + (1 + (1 + 0)))) with (p + size c0 + 1 + 1) by lia.
@@ -850,7 +877,28 @@ Proof.
       unfold m2. rewrite (oval_st_sw_same w Hw cmem m1 _ _ (lo_r1 w R lo m1 L1) (lo_i1 w R lo m1 L1)). f_equal.
       rewrite (lb_lw m1 _ (lo_wf w R lo m1 L1)), V.
       apply (wrap_small w). unfold inrange. pose proof (W_ge w Hw1). pose proof (Z.mod_pos_bound (wval w R E m (OUn u x)) 256 ltac:(lia)). lia.
-    + discriminate Ngl.
+    + (* an int global: lbs [r1], var_g *)
+      cbn [plc res_ins res_sym regaddr] in P1. destruct P1 as [Cl [Cy _]]. cbn [bub_val regaddr] in V.
+      cbn [oscoped] in Sc.
+      pose proof (rep_agree w R lo fb gl ng nbg Hw S s m m1 Wf Rp A) as Rp1.
+      destruct (rp_g w R lo gl ng nbg S s m1 Rp1 g Sc) as [G0 [G1 G2]]. pose proof (rp_gl w R lo gl ng nbg S s m1 Rp1) as Hf1.
+      assert (Ha : 0 <= a_glob R g) by (destruct L1; lia).
+      assert (Sa : wrap (a_glob R g) = a_glob R g) by (apply (wrap_small w); unfold inrange; lia).
+      assert (I1 : inb m1 (a_glob R g) 1 = true).
+      { unfold inb in *. apply andb_true_iff in G1. destruct G1 as [X1 X2]. apply Z.leb_le in X1, X2. apply andb_true_iff. split; apply Z.leb_le; lia. }
+      pose proof (act_lbs _ m1 r1 (Imm (a_glob R g)) (a_glob R g) Cl ltac:(rewrite oval_imm, Sa; reflexivity) I1 (lo_i1 w R lo m1 L1)) as Al.
+      set (m2 := sw m1 r1 (lb m1 (a_glob R g))) in *.
+      assert (A2 : agree w R lo (FP m - tp) m m2).
+      { eapply (agree_trans w R lo); [exact A|]. apply (agree_sw w R lo Hw); [apply (lo_r1 w R lo m1 L1) | auto]. }
+      exists m2. rewrite size_app. cbn [size].
+      split; [|split; [apply (rep_agree w R lo fb gl ng nbg Hw S s m m2 Wf Rp A2) | apply (agree_fagree w R lo fb gl ng nbg S s m m2 Wf Rp A2)]].
+      change [EOut (wval w R E m (OGlob g) mod 256)] with ([] ++ ([] ++ [EOut (wval w R E m (OGlob g) mod 256)])).
+      eapply runs_trans; [exact R0'|]. eapply runs_trans; [apply (runs_next act _ _ None Al)|].
+      replace (p + (size c0 + (1 + (1 + 0)))) with (p + size c0 + 1 + 1) by lia.
+      apply (Tail _ m2 A2); [|exact Cy].
+      unfold m2. rewrite (oval_st_sw_same w Hw cmem m1 _ _ (lo_r1 w R lo m1 L1) (lo_i1 w R lo m1 L1)). f_equal.
+      rewrite (lb_lw m1 _ (lo_wf w R lo m1 L1)).
+      apply (wrap_small w). unfold inrange. pose proof (W_ge w Hw1). pose proof (Z.mod_pos_bound (lw m1 (a_glob R g)) 256 ltac:(lia)). lia.
 Qed.
 
 (* ---------- bool locals ---------- *)
@@ -862,7 +910,7 @@ Proof.
 Qed.
 (* value = get_expr_value(r1, e); sbso [fp], -off, value *)
 Lemma bool_store_runs S s m off e st c st' p : wf_senv S -> rep S s m ->
-  bscoped w ng (length (ioffs S)) (length (boffs S)) e -> top S + Z.of_nat (temps_b e) * w <= FP m - lo ->
+  bscoped w ng nbg (length (ioffs S)) (length (boffs S)) e -> top S + Z.of_nat (temps_b e) * w <= FP m - lo ->
   assign_bool (env_of S) off e st = (c, st') -> plc c p -> 0 < off <= W / 2 -> inb m (FP m - off) 1 = true ->
   exists m1, agree w R lo (FP m - top S) m m1 /\
              runs (mk p m) [] (mk (p + size c) (Machine.sb m1 (FP m - off) (b2z (bevals w s e)))).
@@ -870,13 +918,13 @@ Proof.
   intros Wf Rp Sc Hn Ev P Ho I. unfold assign_bool in Ev.
   destruct (eval_bool_value (env_of S) R1 e st) as [[c0 v] st0] eqn:E0. inversion Ev; subst c st'; clear Ev.
   apply placed_app in P. destruct P as [P0 P1]. cbn [plc res_ins res_sym regaddr] in P1. destruct P1 as [Cq _].
-  pose proof (rep_layout w R lo fb gl ng S s m Wf Rp) as Lo.
-  pose proof (rep_vars w R lo fb gl ng Hw S s m e (top S) Wf Rp Sc ltac:(lia) Hn) as V.
-  pose proof (rep_norm w R lo fb gl ng S s m e Wf Rp Sc) as N.
+  pose proof (rep_layout w R lo fb gl ng nbg S s m Wf Rp) as Lo.
+  pose proof (rep_vars w R lo fb gl ng nbg Hw S s m e (top S) Wf Rp Sc ltac:(lia) Hn) as V.
+  pose proof (rep_norm w R lo fb gl ng nbg S s m e Wf Rp Sc) as N.
   destruct (bool_value_runs w R (env_of S) lo Hw (wfs_w w fb S Wf) code cmem lab lab_range e st c0 v st0 p m E0 P0 Lo V N)
     as [m1 [R1' [A1 O1]]].
-  rewrite (rep_beval w R lo fb gl ng S s m e Wf Rp Sc) in O1.
-  pose proof (rp_regs w R lo gl ng S s m Rp) as L.
+  rewrite (rep_beval w R lo fb gl ng nbg S s m e Wf Rp Sc) in O1.
+  pose proof (rp_regs w R lo gl ng nbg S s m Rp) as L.
   pose proof (regs_ok_agree w R lo Hw _ m m1 L A1) as L1. pose proof (FP_agree w R lo Hw _ m m1 L A1) as F1.
   assert (I1 : inb m1 (FP m1 - off) 1 = true) by (rewrite F1, (agree_inb w R lo _ m m1 _ _ A1); exact I).
   pose proof (store_byte_runs _ m1 (rs v) _ off Cq O1 L1 Ho I1) as Rs. rewrite F1 in Rs.
@@ -888,29 +936,29 @@ Proof. destruct b; cbn; auto. Qed.
 
 (* pj = e; *)
 Lemma assign_bool_runs S s m j e st c st' p : wf_senv S -> rep S s m -> (j < length (boffs S))%nat ->
-  bscoped w ng (length (ioffs S)) (length (boffs S)) e -> top S + Z.of_nat (temps_b e) * w <= FP m - lo ->
+  bscoped w ng nbg (length (ioffs S)) (length (boffs S)) e -> top S + Z.of_nat (temps_b e) * w <= FP m - lo ->
   assign_bool (env_of S) (nth j (boffs S) 0) e st = (c, st') -> plc c p ->
   exists m', runs (mk p m) [] (mk (p + size c) m') /\
-             rep S (mkstore (si s) (upd j (b2z (bevals w s e)) (sb s)) (sg s)) m' /\ fagree m m'.
+             rep S (mkstore (si s) (upd j (b2z (bevals w s e)) (sb s)) (sg s) (sgb s)) m' /\ fagree m m'.
 Proof.
   intros Wf Rp Hj Sc Hn Ev P.
-  destruct (rep_slot_b w R lo fb gl ng Hw S s m j (FP m - top S) Wf Rp Hj ltac:(lia)) as [O1 [O2 [O3 _]]].
+  destruct (rep_slot_b w R lo fb gl ng nbg Hw S s m j (FP m - top S) Wf Rp Hj ltac:(lia)) as [O1 [O2 [O3 _]]].
   destruct (bool_store_runs S s m _ e st c st' p Wf Rp Sc Hn Ev P O1 O3) as [m1 [A1 Rn]].
-  pose proof (rep_agree w R lo fb gl ng Hw S s m m1 Wf Rp A1) as Rp1.
-  pose proof (rp_regs w R lo gl ng S s m Rp) as L. pose proof (FP_agree w R lo Hw _ m m1 L A1) as F1.
+  pose proof (rep_agree w R lo fb gl ng nbg Hw S s m m1 Wf Rp A1) as Rp1.
+  pose proof (rp_regs w R lo gl ng nbg S s m Rp) as L. pose proof (FP_agree w R lo Hw _ m m1 L A1) as F1.
   destruct (rep_set_bool S s m1 j _ Wf Rp1 Hj (b2z_01 (bevals w s e))) as [Rp2 Fa]. rewrite F1 in Rp2, Fa.
   eexists. split; [exact Rn|]. split; [exact Rp2|].
-  apply (fagree_trans w R lo fb gl Hw Hgl m m1); [exact L | apply (agree_fagree w R lo fb gl ng S s m m1 Wf Rp A1) | exact Fa].
+  apply (fagree_trans w R lo fb gl Hw Hgl m m1); [exact L | apply (agree_fagree w R lo fb gl ng nbg S s m m1 Wf Rp A1) | exact Fa].
 Qed.
 
 (* bool p = e; *)
 Lemma declare_bool_runs S s m e st c st' p : wf_senv S -> rep S s m ->
-  bscoped w ng (length (ioffs S)) (length (boffs S)) e -> fst (need_bool_decl S e) <= FP m - lo ->
+  bscoped w ng nbg (length (ioffs S)) (length (boffs S)) e -> fst (need_bool_decl S e) <= FP m - lo ->
   declare_bool (env_of S) e st = (c, st') -> plc c p ->
   exists m', runs (mk p m) [] (mk (p + size c) m') /\
-             rep (push_bool S) (mkstore (si s) (sb s ++ [b2z (bevals w s e)]) (sg s)) m' /\ agree w R lo (FP m - top S) m m'.
+             rep (push_bool S) (mkstore (si s) (sb s ++ [b2z (bevals w s e)]) (sg s) (sgb s)) m' /\ agree w R lo (FP m - top S) m m'.
 Proof.
-  intros Wf Rp Sc Hn Ev P. pose proof (rp_regs w R lo gl ng S s m Rp) as L.
+  intros Wf Rp Sc Hn Ev P. pose proof (rp_regs w R lo gl ng nbg S s m Rp) as L.
   pose proof (wfs_w w fb S Wf) as Ews. pose proof (wfs_fb w fb S Wf) as Ofb.
   assert (Hlo : 0 <= lo) by (destruct L; lia).
   assert (P0 : 0 <= Z.of_nat (temps_b e) * w) by (apply Z.mul_nonneg_nonneg; lia).
@@ -918,7 +966,7 @@ Proof.
   (* both shapes end by storing the value in the new byte, inside the area below the old stack top *)
   assert (Fin : forall m1, agree w R lo (FP m - top S) m m1 -> top S + 1 <= FP m - lo ->
             let m' := Machine.sb m1 (FP m - off) (b2z (bevals w s e)) in
-            rep (push_bool S) (mkstore (si s) (sb s ++ [b2z (bevals w s e)]) (sg s)) m' /\ agree w R lo (FP m - top S) m m').
+            rep (push_bool S) (mkstore (si s) (sb s ++ [b2z (bevals w s e)]) (sg s) (sgb s)) m' /\ agree w R lo (FP m - top S) m m').
   { intros m1 A1 Ht m'.
     assert (A2 : agree w R lo (FP m - top S) m m').
     { eapply (agree_trans w R lo); [exact A1|]. apply agree_sb; unfold off; destruct Rp; lia. }
@@ -931,13 +979,13 @@ Proof.
   assert (Keep : (exists C0, value_lowering_keep (env_of S) e st = (C0, st') /\ c = C0) ->
             top S + 1 + Z.of_nat (temps_b e) * w <= FP m - lo ->
             exists m', runs (mk p m) [] (mk (p + size c) m') /\
-                       rep (push_bool S) (mkstore (si s) (sb s ++ [b2z (bevals w s e)]) (sg s)) m' /\ agree w R lo (FP m - top S) m m').
+                       rep (push_bool S) (mkstore (si s) (sb s ++ [b2z (bevals w s e)]) (sg s) (sgb s)) m' /\ agree w R lo (FP m - top S) m m').
   { intros [C0 [Ek ->]] Hk. unfold value_lowering_keep in Ek. cbn [env_of stack_top] in Ek. fold off in Ek.
     set (E' := with_top (env_of S) off) in *.
     assert (HwE' : wsize E' = w) by exact Ews.
     assert (Lo' : layout_ok w R E' lo m).
-    { split; [exact L|]. apply (rep_room w R lo fb gl ng S s m off Wf Rp); unfold off; lia. }
-    pose proof (rep_vars w R lo fb gl ng Hw S s m e off Wf Rp Sc ltac:(unfold off; lia) ltac:(unfold off; lia)) as V'.
+    { split; [exact L|]. apply (rep_room w R lo fb gl ng nbg S s m off Wf Rp); unfold off; lia. }
+    pose proof (rep_vars w R lo fb gl ng nbg Hw S s m e off Wf Rp Sc ltac:(unfold off; lia) ltac:(unfold off; lia)) as V'.
     pose proof (run_mem_agree w R E' lo Hw HwE' code cmem lab e m Lo' V') as A1.
     set (m1 := run_mem w R E' e m) in *.
     assert (A1' : agree w R lo (FP m - top S) m m1).
@@ -955,7 +1003,7 @@ Proof.
     replace (kexit lab (if beval w R E' m e then None else None) (p + size C0)) with (p + size C0) in Rn
       by (destruct (beval w R E' m e); reflexivity).
     apply Rn. fold m1.
-    assert (Ebv : beval w R E' m e = bevals w s e) by (unfold E'; rewrite (beval_top w R (env_of S) off m e); apply (rep_beval w R lo fb gl ng S s m e Wf Rp Sc)).
+    assert (Ebv : beval w R E' m e = bevals w s e) by (unfold E'; rewrite (beval_top w R (env_of S) off m e); apply (rep_beval w R lo fb gl ng nbg S s m e Wf Rp Sc)).
     rewrite Ebv.
     destruct (bevals w s e); cbn [run_simple b2z]; unfold step_simple; cbn [res_ins res_sym regaddr Machine.exec val mm];
       rewrite (lo_if w R lo m1 L1); change (lw m1 (a_fp R)) with (FP m1);
@@ -963,7 +1011,7 @@ Proof.
   assert (Other : (assign_bool (env_of S) off e st = (c, st')) ->
             Z.max (top S + Z.of_nat (temps_b e) * w) (top S + 1) <= FP m - lo ->
             exists m', runs (mk p m) [] (mk (p + size c) m') /\
-                       rep (push_bool S) (mkstore (si s) (sb s ++ [b2z (bevals w s e)]) (sg s)) m' /\ agree w R lo (FP m - top S) m m').
+                       rep (push_bool S) (mkstore (si s) (sb s ++ [b2z (bevals w s e)]) (sg s) (sgb s)) m' /\ agree w R lo (FP m - top S) m m').
   { intros Ea Hk. destruct (Ho ltac:(lia)) as [Ho1 Ho2].
     destruct (bool_store_runs S s m off e st c st' p Wf Rp Sc ltac:(lia) Ea P Ho1 Ho2) as [m1 [A1 Rn]].
     destruct (Fin m1 A1 ltac:(lia)) as [Rp' Fa]. eexists. split; [exact Rn|]. split; assumption. }
@@ -1011,9 +1059,9 @@ Qed.
 Lemma rep_after_ra S s m m' : wf_senv S -> rep S s m -> agree w R lo (FP m - top S) m m' ->
   top S + w <= FP m - lo -> rep (after_ra S) s m'.
 Proof.
-  intros Wf Rp A Hr. pose proof (rep_agree w R lo fb gl ng Hw S s m m' Wf Rp A) as Rp'.
-  pose proof (FP_agree w R lo Hw _ m m' (rp_regs w R lo gl ng S s m Rp) A) as EF. pose proof (wfs_w w fb S Wf) as Ews.
-  destruct Rp' as [Rg Rlo Rh Rsz Rli Rlb Ri Rb Rap Rgl Rgn Rgg Rgd]. constructor; cbn [after_ra top ioffs boffs]; rewrite ?Ews; try assumption; lia.
+  intros Wf Rp A Hr. pose proof (rep_agree w R lo fb gl ng nbg Hw S s m m' Wf Rp A) as Rp'.
+  pose proof (FP_agree w R lo Hw _ m m' (rp_regs w R lo gl ng nbg S s m Rp) A) as EF. pose proof (wfs_w w fb S Wf) as Ews.
+  destruct Rp' as [Rg Rlo Rh Rsz Rli Rlb Ri Rb Rap Rgl Rgn Rgg Rgd Rbn Rbg Rbd]. constructor; cbn [after_ra top ioffs boffs]; rewrite ?Ews; try assumption; lia.
 Qed.
 
 Lemma lib_call_runs S s m0 mb f ec ln p evs : lib_hyps -> wf_senv S -> rep S s m0 ->
@@ -1028,13 +1076,13 @@ Lemma lib_call_runs S s m0 mb f ec ln p evs : lib_hyps -> wf_senv S -> rep S s m
              agree w R lo (FP m0 - top S) m0 m3.
 Proof.
   intros [Hfp [H0 [H1 [H2 [CA [BR Hap]]]]]] Wf Rp A Hr Hra P Callee.
-  pose proof (rp_regs w R lo gl ng S s m0 Rp) as L0. pose proof (regs_ok_agree w R lo Hw _ m0 mb L0 A) as Lb.
+  pose proof (rp_regs w R lo gl ng nbg S s m0 Rp) as L0. pose proof (regs_ok_agree w R lo Hw _ m0 mb L0 A) as Lb.
   pose proof (FP_agree w R lo Hw _ m0 mb L0 A) as Fb. pose proof (wfs_fb w fb S Wf) as Ofb.
   set (F := FP m0) in *. set (tp := top S) in *.
   assert (Hlo : 5 * w <= lo) by (destruct L0; lia).
   assert (HF : 0 <= F < W / 2) by apply (lo_F w R lo m0 L0).
   assert (HW : W / 2 < W) by (pose proof (W_even w Hw1); pose proof (half_pos w Hw1); lia).
-  assert (Hsz : F <= msize m0) by apply (rp_sz w R lo gl ng S s m0 Rp).
+  assert (Hsz : F <= msize m0) by apply (rp_sz w R lo gl ng nbg S s m0 Rp).
   unfold call_tail in P. fold tp in P. apply placed_app in P. destruct P as [P Pln].
   cbn [placed res_ins res_sym regaddr] in P. destruct P as [C0 [C1 [C2 [Lec [C3 _]]]]].
   assert (Efpc : wrap (F + wrap (- tp)) = F - tp) by (apply (wrap_add_neg w); destruct Rp; unfold F, tp in *; lia).
@@ -1094,7 +1142,7 @@ Lemma push_ra_runs S s m ec p : wf_senv S -> rep S s m -> top S + w <= FP m - lo
   runs (mk p m) [] (mk (p + 1) ma) /\ agree w R lo (FP m - top S) m ma /\
   rep (after_ra S) s ma /\ lw ma (FP m - top S - w) = lab ec.
 Proof.
-  intros Wf Rp Hr P ma. pose proof (rp_regs w R lo gl ng S s m Rp) as L. pose proof (wfs_fb w fb S Wf) as Ofb.
+  intros Wf Rp Hr P ma. pose proof (rp_regs w R lo gl ng nbg S s m Rp) as L. pose proof (wfs_fb w fb S Wf) as Ofb.
   pose proof (wfs_w w fb S Wf) as Ews. assert (Hlo : 0 <= lo) by (destruct L; lia).
   cbn [placed push_ra res_ins res_sym regaddr] in P. destruct P as [C _]. rewrite Ews in C.
   assert (Ho : 0 < top S + w <= W / 2) by (destruct Rp; lia).
@@ -1115,7 +1163,7 @@ Lemma writei_runs S s m ln o ec p : lib_hyps -> wf_senv S -> rep S s m -> oscope
              rep S s m' /\ fagree m m'.
 Proof.
   intros Hl Wf Rp Sc Hn P. pose proof Hl as [Hfp [H0 [H1 [H2 [CA [BR Hap]]]]]].
-  pose proof (rp_regs w R lo gl ng S s m Rp) as L. pose proof (wfs_fb w fb S Wf) as Ofb. pose proof (wfs_w w fb S Wf) as Ews.
+  pose proof (rp_regs w R lo gl ng nbg S s m Rp) as L. pose proof (wfs_fb w fb S Wf) as Ofb. pose proof (wfs_w w fb S Wf) as Ews.
   assert (Hlo : 5 * w <= lo) by (destruct L; lia).
   cbn [need_stmt fst] in Hn. rewrite Ews in Hn. apply need_max in Hn. destruct Hn as [Hn Hd]. apply need_max in Hn. destruct Hn as [Hna Hnb].
   set (F := FP m) in *. set (tp := top S) in *.
@@ -1137,9 +1185,9 @@ Proof.
   destruct (sval_ieval S s m o Wf Rp Sc) as [Sv Rv].
   assert (Vr : - (W / 2) <= ieval w s o < W / 2) by (rewrite <- Sv; apply (sgn_range w Hw1); exact Rv).
   assert (Earg : sgn (lw mb (F - tp - 2 * w)) = ieval w s o).
-  { pose proof (rp_i w R lo gl ng _ _ mb Rpb (length (ioffs S))) as X. cbn [push_int after_ra ioffs top ws] in X.
+  { pose proof (rp_i w R lo gl ng nbg _ _ mb Rpb (length (ioffs S))) as X. cbn [push_int after_ra ioffs top ws] in X.
     rewrite app_length in X. cbn [length] in X. specialize (X ltac:(lia)).
-    rewrite nth_app_last in X. rewrite <- (rp_li w R lo gl ng S s m Rp) in X. cbn [si] in X. rewrite nth_app_last in X.
+    rewrite nth_app_last in X. rewrite <- (rp_li w R lo gl ng nbg S s m Rp) in X. cbn [si] in X. rewrite nth_app_last in X.
     rewrite (FP_agree w R lo Hw _ m mb L Amb), Ews in X. fold F tp in X.
     replace (F - tp - 2 * w) with (F - (tp + w + w)) by lia. exact X. }
   destruct (lib_call_runs S s m mb LibWriteInt ec ln _ (decimal (ieval w s o)) Hl Wf Rp Amb ltac:(fold F tp; lia) Erab Pcall)
@@ -1163,14 +1211,14 @@ Proof.
     exists m2, (write_int_lo w (F - tp) (ieval w s o)). split; [exact Rn|]. split; [exact Sz|]. split; [exact Wf2|].
     split; [unfold write_int_lo; lia | exact Ae]. }
   fold F tp in R3, A3.
-  exists m3. split; [|split; [apply (rep_agree w R lo fb gl ng Hw S s m m3 Wf Rp A3) | apply (agree_fagree w R lo fb gl ng S s m m3 Wf Rp A3)]].
+  exists m3. split; [|split; [apply (rep_agree w R lo fb gl ng nbg Hw S s m m3 Wf Rp A3) | apply (agree_fagree w R lo fb gl ng nbg S s m m3 Wf Rp A3)]].
   change (map EOut (decimal (ieval w s o) ++ (if ln then [10] else []))) with ([] ++ ([] ++ map EOut (decimal (ieval w s o) ++ (if ln then [10] else [])))).
   eapply runs_trans; [exact Ra|]. eapply runs_trans; [exact Rb|]. close_with R3.
 Qed.
 
 (* write(e) / writeln(e) for a bool: "true" / "false", through write_bool *)
 Lemma writeb_runs S s m ln e ec st1 c st2 p : lib_hyps -> wf_senv S -> rep S s m ->
-  bscoped w ng (length (ioffs S)) (length (boffs S)) e ->
+  bscoped w ng nbg (length (ioffs S)) (length (boffs S)) e ->
   fst (need_stmt S (SWriteB ln e)) <= FP m - lo ->
   declare_bool (env_of (after_ra S)) e st1 = (c, st2) ->
   plc ([push_ra S ec] ++ c ++ call_tail S ec LibWriteBool ln) p ->
@@ -1179,7 +1227,7 @@ Lemma writeb_runs S s m ln e ec st1 c st2 p : lib_hyps -> wf_senv S -> rep S s m
              rep S s m' /\ fagree m m'.
 Proof.
   intros Hl Wf Rp Sc Hn Ed P. pose proof Hl as [Hfp [H0 [H1 [H2 [CA [BR Hap]]]]]].
-  pose proof (rp_regs w R lo gl ng S s m Rp) as L. pose proof (wfs_fb w fb S Wf) as Ofb. pose proof (wfs_w w fb S Wf) as Ews.
+  pose proof (rp_regs w R lo gl ng nbg S s m Rp) as L. pose proof (wfs_fb w fb S Wf) as Ofb. pose proof (wfs_w w fb S Wf) as Ews.
   assert (Hlo : 5 * w <= lo) by (destruct L; lia).
   cbn [need_stmt fst] in Hn.
   assert (Hn1 : top S + w + 1 <= FP m - lo).
@@ -1190,7 +1238,7 @@ Proof.
   destruct (push_ra_runs S s m ec p Wf Rp ltac:(fold F tp; lia) Pra) as [Ra [Aa [Rpa Era]]]. fold F tp in Ra, Aa, Rpa, Era.
   set (ma := sw m (F - (tp + w)) (lab ec)) in *.
   pose proof (wf_after_ra S Wf) as Wfa. pose proof (FP_agree w R lo Hw _ m ma L Aa) as Fa.
-  assert (Sca : bscoped w ng (length (ioffs (after_ra S))) (length (boffs (after_ra S))) e) by exact Sc.
+  assert (Sca : bscoped w ng nbg (length (ioffs (after_ra S))) (length (boffs (after_ra S))) e) by exact Sc.
   destruct (declare_bool_runs (after_ra S) s ma e st1 c st2 _ Wfa Rpa Sca ltac:(rewrite Fa; exact Hn) Ed Parg)
     as [mb [Rb [Rpb Ab]]].
   rewrite Fa in Ab. cbn [after_ra top] in Ab. rewrite Ews in Ab. fold F tp in Ab.
@@ -1201,9 +1249,9 @@ Proof.
   { rewrite <- Era. apply (agree_lw w R lo Hw (F - (tp + w)) ma mb); [exact Ab | destruct Rp; unfold F, tp in *; lia |].
     unfold dj. destruct L. destruct Rp. unfold F, tp in *. lia. }
   assert (Earg : lb mb (F - tp - w - 1) = b2z (bevals w s e)).
-  { pose proof (rp_b w R lo gl ng _ _ mb Rpb (length (boffs S))) as X. cbn [push_bool after_ra boffs top ws] in X.
+  { pose proof (rp_b w R lo gl ng nbg _ _ mb Rpb (length (boffs S))) as X. cbn [push_bool after_ra boffs top ws] in X.
     rewrite app_length in X. cbn [length] in X. specialize (X ltac:(lia)). destruct X as [X _].
-    rewrite nth_app_last in X. rewrite <- (rp_lb w R lo gl ng S s m Rp) in X. cbn [sb] in X. rewrite nth_app_last in X.
+    rewrite nth_app_last in X. rewrite <- (rp_lb w R lo gl ng nbg S s m Rp) in X. cbn [sb] in X. rewrite nth_app_last in X.
     rewrite (FP_agree w R lo Hw _ m mb L Amb), Ews in X. fold F tp in X.
     replace (F - tp - w - 1) with (F - (tp + w + 1)) by lia. exact X. }
   destruct (lib_call_runs S s m mb LibWriteBool ec ln _ (if bevals w s e then str_true else str_false) Hl Wf Rp Amb ltac:(fold F tp; lia) Erab Pcall)
@@ -1224,7 +1272,7 @@ Proof.
         by (destruct (bevals w s e); reflexivity). exact Rn. }
     split; [exact Sz|]. split; [exact Wf2|]. split; [lia|]. intros x X X1 _. apply Ae; assumption. }
   fold F tp in R3, A3.
-  exists m3. split; [|split; [apply (rep_agree w R lo fb gl ng Hw S s m m3 Wf Rp A3) | apply (agree_fagree w R lo fb gl ng S s m m3 Wf Rp A3)]].
+  exists m3. split; [|split; [apply (rep_agree w R lo fb gl ng nbg Hw S s m m3 Wf Rp A3) | apply (agree_fagree w R lo fb gl ng nbg S s m m3 Wf Rp A3)]].
   change (map EOut ((if bevals w s e then str_true else str_false) ++ (if ln then [10] else [])))
     with ([] ++ ([] ++ map EOut ((if bevals w s e then str_true else str_false) ++ (if ln then [10] else [])))).
   eapply runs_trans; [exact Ra|]. eapply runs_trans; [exact Rb|]. close_with R3.
@@ -1235,17 +1283,17 @@ Qed.
 (* ================================================================================= *)
 (* the condition of an if / a loop: if_true = (), if_false = goto L *)
 Lemma cond_runs S s m c L st cc st' p : wf_senv S -> rep S s m ->
-  bscoped w ng (length (ioffs S)) (length (boffs S)) c -> top S + Z.of_nat (temps_b c) * w <= FP m - lo ->
+  bscoped w ng nbg (length (ioffs S)) (length (boffs S)) c -> top S + Z.of_nat (temps_b c) * w <= FP m - lo ->
   lower_branch (env_of S) c [] (goto L) st = (cc, st') -> plc cc p ->
   exists m1, runs (mk p m) [] (mk (if bevals w s c then p + size cc else lab L) m1) /\
              agree w R lo (FP m - top S) m m1.
 Proof.
   intros Wf Rp Sc Hn Ev P.
-  pose proof (rep_layout w R lo fb gl ng S s m Wf Rp) as Lo.
-  pose proof (rep_vars w R lo fb gl ng Hw S s m c (top S) Wf Rp Sc ltac:(lia) Hn) as V.
+  pose proof (rep_layout w R lo fb gl ng nbg S s m Wf Rp) as Lo.
+  pose proof (rep_vars w R lo fb gl ng nbg Hw S s m c (top S) Wf Rp Sc ltac:(lia) Hn) as V.
   pose proof (lower_runs w R (env_of S) lo Hw (wfs_w w fb S Wf) code cmem lab lab_range c [] None [] (Some L)
                 st cc st' p m Ev eq_refl eq_refl P Lo V (run_mem w R (env_of S) c m)) as Rn.
-  rewrite (rep_beval w R lo fb gl ng S s m c Wf Rp Sc) in Rn.
+  rewrite (rep_beval w R lo fb gl ng nbg S s m c Wf Rp Sc) in Rn.
   exists (run_mem w R (env_of S) c m). split.
   - destruct (bevals w s c); cbn [kexit] in Rn; apply Rn; reflexivity.
   - apply (run_mem_agree w R (env_of S) lo Hw (wfs_w w fb S Wf) code cmem lab c m Lo V).
@@ -1291,7 +1339,7 @@ Lemma eval_div_runs S s m op a b keep da c bub p : lib_hyps -> wf_senv S -> rep 
   (ieval w s b = 0 -> exists m', runs (mk p m) [] (mk div_stub m')).
 Proof.
   intros Hl Wf Rp Hop Sa Sb Hn Ev P.
-  pose proof (wfs_w w fb S Wf) as Ews. pose proof (rp_regs w R lo gl ng S s m Rp) as L.
+  pose proof (wfs_w w fb S Wf) as Ews. pose proof (rp_regs w R lo gl ng nbg S s m Rp) as L.
   assert (HwE : wsize (env_of S) = w) by exact Ews.
   set (E := env_of S) in *. set (tp := top S) in *.
   unfold need_int in Hn. rewrite Ews in Hn. cbn [temps] in Hn. fold tp in Hn.
@@ -1301,9 +1349,9 @@ Proof.
   assert (Hk : keep = true -> w <= FP m - tp - lo).
   { intros ->. assert (Z.of_nat 1 * w <= FP m - tp - lo) by (eapply room_le; [exact W0 | apply Nat.le_max_r | exact Tall]). lia. }
   assert (Ro : room_ok w R lo tp m).
-  { apply (rep_room w R lo fb gl ng S s m tp Wf Rp); [unfold tp; lia|]. assert (0 <= Z.of_nat (temps_cmp a b) * w) by (apply Z.mul_nonneg_nonneg; lia). lia. }
-  pose proof (rep_oexp w R lo fb gl ng Hw S s m a (FP m - tp) Wf Rp Sa ltac:(unfold tp; lia)) as Oa.
-  pose proof (rep_oexp w R lo fb gl ng Hw S s m b (FP m - tp) Wf Rp Sb ltac:(unfold tp; lia)) as Ob.
+  { apply (rep_room w R lo fb gl ng nbg S s m tp Wf Rp); [unfold tp; lia|]. assert (0 <= Z.of_nat (temps_cmp a b) * w) by (apply Z.mul_nonneg_nonneg; lia). lia. }
+  pose proof (rep_oexp w R lo fb gl ng nbg Hw S s m a (FP m - tp) Wf Rp Sa ltac:(unfold tp; lia)) as Oa.
+  pose proof (rep_oexp w R lo fb gl ng nbg Hw S s m b (FP m - tp) Wf Rp Sb ltac:(unfold tp; lia)) as Ob.
   destruct (sval_ieval S s m a Wf Rp Sa) as [Sva Rva]. destruct (sval_ieval S s m b Wf Rp Sb) as [Svb Rvb].
   destruct (pair_props w R E lo Hw HwE code cmem lab a b (eval_opd_props w R E lo Hw HwE code cmem lab a)
               (eval_opd_props w R E lo Hw HwE code cmem lab b) tp m L Ro Oa Ob Tp) as [A4 [Sl [Sr C]]].
@@ -1361,7 +1409,7 @@ Lemma decldiv_runs S s m op a b da p : lib_hyps -> wf_senv S -> rep S s m -> op 
   oscoped w ng (length (ioffs S)) a -> oscoped w ng (length (ioffs S)) b ->
   need_int S (OArith op a b) true <= FP m - lo -> top S + w <= FP m - lo -> plc (decl_div S op a b da) p ->
   (ieval w s b <> 0 -> exists m', runs (mk p m) [] (mk (p + size (decl_div S op a b da)) m') /\
-     rep (push_int S) (mkstore (si s ++ [swrap w (arith_sem op (ieval w s a) (ieval w s b))]) (sb s) (sg s)) m' /\
+     rep (push_int S) (mkstore (si s ++ [swrap w (arith_sem op (ieval w s a) (ieval w s b))]) (sb s) (sg s) (sgb s)) m' /\
      agree w R lo (FP m - top S) m m') /\
   (ieval w s b = 0 -> exists m', runs (mk p m) [] (mk div_stub m')).
 Proof.
@@ -1370,14 +1418,14 @@ Proof.
   destruct (eval_div_runs S s m op a b true da c bub p Hl Wf Rp Hop Sa Sb Hn Ev P) as [Eb [Ok Fl]]. split; [|exact Fl].
   intros Nz. destruct (Ok Nz) as [m' [xw [Rn [A [Bv [Rx Sx]]]]]]. exists m'. split; [exact Rn|]. split; [|exact A].
   apply (rep_push_int S s m m' _ Wf Rp A Ht). subst bub. cbn [fin_bub bub_val] in Bv.
-  rewrite (FP_agree w R lo Hw _ m m' (rp_regs w R lo gl ng S s m Rp) A) in Bv. rewrite Bv. exact Sx.
+  rewrite (FP_agree w R lo Hw _ m m' (rp_regs w R lo gl ng nbg S s m Rp) A) in Bv. rewrite Bv. exact Sx.
 Qed.
 (* xi = a / b; *)
 Lemma assdiv_runs S s m i op a b da p : lib_hyps -> wf_senv S -> rep S s m -> (i < length (ioffs S))%nat ->
   op = SDiv \/ op = SMod -> oscoped w ng (length (ioffs S)) a -> oscoped w ng (length (ioffs S)) b ->
   need_int S (OArith op a b) false <= FP m - lo -> plc (assign_div S i op a b da) p ->
   (ieval w s b <> 0 -> exists m', runs (mk p m) [] (mk (p + size (assign_div S i op a b da)) m') /\
-     rep S (mkstore (upd i (swrap w (arith_sem op (ieval w s a) (ieval w s b))) (si s)) (sb s) (sg s)) m' /\ fagree m m') /\
+     rep S (mkstore (upd i (swrap w (arith_sem op (ieval w s a) (ieval w s b))) (si s)) (sb s) (sg s) (sgb s)) m' /\ fagree m m') /\
   (ieval w s b = 0 -> exists m', runs (mk p m) [] (mk div_stub m')).
 Proof.
   intros Hl Wf Rp Hi Hop Sa Sb Hn P. unfold assign_div in *.
@@ -1385,17 +1433,17 @@ Proof.
   apply placed_app in P. destruct P as [P1 P2]. cbn [placed res_ins res_sym regaddr] in P2. destruct P2 as [Cq _].
   destruct (eval_div_runs S s m op a b false da c bub p Hl Wf Rp Hop Sa Sb Hn Ev P1) as [Eb [Ok Fl]]. split; [|exact Fl].
   intros Nz. destruct (Ok Nz) as [m2 [xw [Rn [A [Bv [Rx Sx]]]]]].
-  pose proof (rep_agree w R lo fb gl ng Hw S s m m2 Wf Rp A) as Rp2.
-  pose proof (rp_regs w R lo gl ng S s m Rp) as L. pose proof (FP_agree w R lo Hw _ m m2 L A) as F2.
-  destruct (rep_slot_i w R lo fb gl ng Hw S s m2 i (FP m2 - top S) Wf Rp2 Hi ltac:(lia)) as [O1 [O2 [O3 _]]].
+  pose proof (rep_agree w R lo fb gl ng nbg Hw S s m m2 Wf Rp A) as Rp2.
+  pose proof (rp_regs w R lo gl ng nbg S s m Rp) as L. pose proof (FP_agree w R lo Hw _ m m2 L A) as F2.
+  destruct (rep_slot_i w R lo fb gl ng nbg Hw S s m2 i (FP m2 - top S) Wf Rp2 Hi ltac:(lia)) as [O1 [O2 [O3 _]]].
   subst bub. cbn [fin_bub bub_val regaddr] in Bv.
-  assert (Ov : oval m2 (St r1) = Some xw) by (rewrite (oval_st w cmem m2 r1 (lo_i1 w R lo m2 (rp_regs w R lo gl ng S s m2 Rp2))), Bv; reflexivity).
-  pose proof (store_word_runs _ m2 (St r1) _ _ Cq Ov (rp_regs w R lo gl ng S s m2 Rp2) O1 O3) as Rs.
+  assert (Ov : oval m2 (St r1) = Some xw) by (rewrite (oval_st w cmem m2 r1 (lo_i1 w R lo m2 (rp_regs w R lo gl ng nbg S s m2 Rp2))), Bv; reflexivity).
+  pose proof (store_word_runs _ m2 (St r1) _ _ Cq Ov (rp_regs w R lo gl ng nbg S s m2 Rp2) O1 O3) as Rs.
   destruct (rep_set_int S s m2 i _ Wf Rp2 Hi Rx) as [Rp3 Fa]. rewrite Sx in Rp3.
   eexists. split; [|split; [exact Rp3|]].
   - rewrite size_app. cbn [size]. change (@nil event) with (@nil event ++ []).
     eapply runs_trans; [exact Rn|]. replace (p + (size c + (1 + 0))) with (p + size c + 1) by lia. exact Rs.
-  - apply (fagree_trans w R lo fb gl Hw Hgl m m2); [exact L | apply (agree_fagree w R lo fb gl ng S s m m2 Wf Rp A) | exact Fa].
+  - apply (fagree_trans w R lo fb gl Hw Hgl m m2); [exact L | apply (agree_fagree w R lo fb gl ng nbg S s m m2 Wf Rp A) | exact Fa].
 Qed.
 
 (* ---------- return;  return o; ---------- *)
@@ -1405,7 +1453,7 @@ Lemma return_runs S s m r p : wf_senv S -> rep S s m ->
   exists m', runs (mk p m) [] (mk (lw m (FP m - w)) m') /\ agree w R lo (FP m) m m' /\
              match r with Some o => sgn (lw m' (FP m - w)) = ieval w s o | None => True end.
 Proof.
-  intros Wf Rp Hr P. pose proof (rp_regs w R lo gl ng S s m Rp) as L. pose proof (wfs_w w fb S Wf) as Ews.
+  intros Wf Rp Hr P. pose proof (rp_regs w R lo gl ng nbg S s m Rp) as L. pose proof (wfs_w w fb S Wf) as Ews.
   pose proof (wfs_fb w fb S Wf) as Ofb. rewrite Hfb in Ofb.
   assert (Hlo : 0 <= lo) by (destruct L; lia).
   assert (Ow : 0 < w <= W / 2) by (destruct Rp; lia).
@@ -1443,7 +1491,7 @@ Proof.
     { pose proof (regs_ok_agree w R lo Hw _ m m2 L A) as L2.
       destruct Vs as [[z ->] | [-> | [g [-> Eo]]]]; [exact Ov | |]; cbn [res_sym regaddr] in Ov |- *; rewrite <- Ov; unfold m3.
       - apply (oval_st_sw_other w Hw cmem); [apply (lo_r1 w R lo m2 L2) | apply (lo_r0 w R lo m2 L2) | destruct L2; lia].
-      - subst o. cbn [oscoped] in Sc. destruct (rp_g w R lo gl ng S s m Rp g Sc) as [G0 _]. pose proof (rp_gl w R lo gl ng S s m Rp) as Hg'.
+      - subst o. cbn [oscoped] in Sc. destruct (rp_g w R lo gl ng nbg S s m Rp g Sc) as [G0 _]. pose proof (rp_gl w R lo gl ng nbg S s m Rp) as Hg'.
         apply (oval_st_sw_other w Hw cmem); [apply (lo_r1 w R lo m2 L2) | destruct L, Rp; lia | destruct L, Rp; lia]. }
     assert (I3 : inb m3 (FP m3 - w) w = true) by (rewrite F3, (agree_inb w R lo _ m m3 _ _ A3); apply inb_true; destruct Rp; lia).
     pose proof (store_word_runs _ m3 (rs v) _ w Cs Ov3 L3 Ow I3) as Rs. rewrite F3 in Rs.
@@ -1482,7 +1530,7 @@ Proof.
     apply placed_app in P. destruct P as [P1 P2].
     destruct (decl_int_runs S s m o p Wf Rp So Hn1 Hn2 P1) as [m1 [R1 [Rp1 A1]]].
     pose proof (rep_after_ra S s m m1 Wf Rp A1 Hn2) as Rpa. pose proof (wf_after_ra S Wf) as Wfa.
-    pose proof (rp_regs w R lo gl ng S s m Rp) as L. pose proof (FP_agree w R lo Hw _ m m1 L A1) as F1.
+    pose proof (rp_regs w R lo gl ng nbg S s m Rp) as L. pose proof (FP_agree w R lo Hw _ m m1 L A1) as F1.
     pose proof (regs_ok_agree w R lo Hw _ m m1 L A1) as L1.
     destruct (IH (after_ra S) s m1 (p + size (decl_int S o)) Wfa Rpa Sr ltac:(rewrite F1; exact Hnr) P2) as [m2 [R2 [A2 V2]]].
     cbn [after_ra top] in A2, V2. rewrite Ews, F1 in A2, V2.
@@ -1494,9 +1542,9 @@ Proof.
     + intros k Hk. destruct k as [|k].
       * cbn [nth]. change (Z.of_nat 0 + 1) with 1. rewrite Z.mul_1_l.
         assert (E1 : sgn (lw m1 (FP m - (top S + w))) = ieval w s o).
-        { pose proof (rp_i w R lo gl ng (push_int S) _ m1 Rp1 (length (ioffs S))) as Ri. cbn [push_int ioffs si] in Ri.
+        { pose proof (rp_i w R lo gl ng nbg (push_int S) _ m1 Rp1 (length (ioffs S))) as Ri. cbn [push_int ioffs si] in Ri.
           rewrite app_length in Ri. cbn [length] in Ri. specialize (Ri ltac:(lia)).
-          rewrite nth_app_last, <- (rp_li w R lo gl ng S s m Rp), nth_app_last, Ews, F1 in Ri. exact Ri. }
+          rewrite nth_app_last, <- (rp_li w R lo gl ng nbg S s m Rp), nth_app_last, Ews, F1 in Ri. exact Ri. }
         rewrite <- E1. f_equal. apply (agree_lw w R lo Hw (FP m - (top S + w)) m1 m2 _ A2); [destruct L, Rp; lia|].
         unfold dj. destruct L, Rp. lia.
       * cbn [nth length] in *. specialize (V2 k ltac:(lia)). rewrite <- V2. f_equal. f_equal. lia.
@@ -1508,7 +1556,7 @@ Lemma entry_mem S s m0 mb : wf_senv S -> rep S s m0 -> agree w R lo (FP m0 - top
   regs_ok w R lo m1 /\ FP m1 = FP m0 - top S /\ msize m1 = msize mb /\
   (forall a, 0 <= a -> (a < fp \/ fp + w <= a) -> getb m1 a = getb mb a).
 Proof.
-  intros Wf Rp A m1. pose proof (rp_regs w R lo gl ng S s m0 Rp) as L0. pose proof (regs_ok_agree w R lo Hw _ m0 mb L0 A) as Lb.
+  intros Wf Rp A m1. pose proof (rp_regs w R lo gl ng nbg S s m0 Rp) as L0. pose proof (regs_ok_agree w R lo Hw _ m0 mb L0 A) as Lb.
   pose proof (wfs_fb w fb S Wf) as Ofb.
   assert (Efpc : wrap (FP m0 + wrap (- top S)) = FP m0 - top S) by (apply (wrap_add_neg w); destruct Rp, L0; lia).
   assert (F1 : FP m1 = FP m0 - top S) by (unfold FP, m1; rewrite (lw_sw_same w Hw1) by apply (lo_fp w R lo mb Lb); exact Efpc).
@@ -1524,7 +1572,7 @@ Lemma call_enter S s m0 mb ec f p : wf_senv S -> rep S s m0 -> agree w R lo (FP 
   plc (call_seq S ec f) p ->
   runs (mk p mb) [] (mk (lab (func_label f)) (sw mb fp (FP m0 + wrap (- top S)))).
 Proof.
-  intros Wf Rp A P. pose proof (rp_regs w R lo gl ng S s m0 Rp) as L0. pose proof (regs_ok_agree w R lo Hw _ m0 mb L0 A) as Lb.
+  intros Wf Rp A P. pose proof (rp_regs w R lo gl ng nbg S s m0 Rp) as L0. pose proof (regs_ok_agree w R lo Hw _ m0 mb L0 A) as Lb.
   pose proof (FP_agree w R lo Hw _ m0 mb L0 A) as Fb.
   cbn [call_seq placed res_ins res_sym regaddr] in P. destruct P as [C0 [C1 [C2 _]]].
   change (@nil event) with (@nil event ++ []). eapply runs_trans.
@@ -1546,8 +1594,8 @@ Lemma user_call_runs S s m0 mb ec f p evs (Qr : Z -> Prop) (Qm : mem -> Prop) : 
              gagree w R lo gl (FP m0 - top S) m0 m3 /\ Qr (lw m3 (FP m0 - top S - w)) /\
              exists m2, Qm m2 /\ m3 = sw m2 fp (FP m0) /\ lw m2 fp = FP m0 - top S.
 Proof.
-  intros Wf Rp A Hr Hra P [m2 [Rc [A2 [Q2 Qm2]]]]. pose proof (rp_gl w R lo gl ng S s m0 Rp) as Hfg.
-  pose proof (rp_regs w R lo gl ng S s m0 Rp) as L0. pose proof (regs_ok_agree w R lo Hw _ m0 mb L0 A) as Lb.
+  intros Wf Rp A Hr Hra P [m2 [Rc [A2 [Q2 Qm2]]]]. pose proof (rp_gl w R lo gl ng nbg S s m0 Rp) as Hfg.
+  pose proof (rp_regs w R lo gl ng nbg S s m0 Rp) as L0. pose proof (regs_ok_agree w R lo Hw _ m0 mb L0 A) as Lb.
   pose proof (FP_agree w R lo Hw _ m0 mb L0 A) as Fb. pose proof (wfs_fb w fb S Wf) as Ofb.
   destruct (entry_mem S s m0 mb Wf Rp A) as [L1 [F1 [Sz1 G1]]].
   set (F := FP m0) in *. set (tp := top S) in *. set (m1 := sw mb fp (F + wrap (- tp))) in *.
@@ -1607,20 +1655,20 @@ Lemma rep_set_glob S s m m1 g xw : wf_senv S -> rep S s m -> agree w R lo (FP m 
   let m' := sw m1 (a_glob R g) xw in
   rep S (set_g s g (sgn xw)) m' /\ fagree m m'.
 Proof.
-  intros Wf Rp A Hg Hx m'. pose proof (rep_agree w R lo fb gl ng Hw S s m m1 Wf Rp A) as Rp1.
-  pose proof (rp_regs w R lo gl ng S s m1 Rp1) as L1. pose proof (rp_regs w R lo gl ng S s m Rp) as L.
+  intros Wf Rp A Hg Hx m'. pose proof (rep_agree w R lo fb gl ng nbg Hw S s m m1 Wf Rp A) as Rp1.
+  pose proof (rp_regs w R lo gl ng nbg S s m1 Rp1) as L1. pose proof (rp_regs w R lo gl ng nbg S s m Rp) as L.
   pose proof (FP_agree w R lo Hw _ m m1 L A) as F1.
-  destruct (rp_g w R lo gl ng S s m1 Rp1 g Hg) as [G0 [G1 G2]]. pose proof (rp_gl w R lo gl ng S s m1 Rp1) as Hf.
+  destruct (rp_g w R lo gl ng nbg S s m1 Rp1 g Hg) as [G0 [G1 G2]]. pose proof (rp_gl w R lo gl ng nbg S s m1 Rp1) as Hf.
   pose proof (wfs_fb w fb S Wf) as Ofb.
   assert (Ha : 0 <= a_glob R g) by (destruct L1; lia).
   assert (Fa : fagree m m').
-  { unfold LowerStmtProofs.fagree. eapply (gagree_trans w R lo gl); [apply (agree_gagree w R lo gl), (agree_mono w R lo (FP m - top S)); [lia | exact A]|].
-    apply gagree_sw_glob; assumption. }
+  { unfold fagree. eapply (gagree_trans w R lo gl); [apply (agree_gagree w R lo gl), (agree_mono w R lo (FP m - top S)); [lia | exact A]|].
+    apply gagree_sw_glob; [assumption | lia]. }
   split; [|exact Fa].
   assert (EF : FP m' = FP m1).
   { unfold LowerBoolProofs.FP, m'. apply (lw_sw_other w Hw1); destruct L1; lia. }
-  destruct Rp1 as [Rg Rlo Rh Rsz Rli Rlb Ri Rb Rap Rgl Rgn Rgg Rgd].
-  constructor; cbn [set_g si sb sg]; rewrite ?EF; try assumption.
+  destruct Rp1 as [Rg Rlo Rh Rsz Rli Rlb Ri Rb Rap Rgl Rgn Rgg Rgd Rbn Rbg Rbd].
+  constructor; cbn [set_g si sb sg sgb]; rewrite ?EF; try assumption.
   - destruct Rg. constructor; try assumption; unfold m'; rewrite ?inb_sw; try assumption.
     + apply (wf_sw w); assumption.
     + fold m'. rewrite EF. assumption.
@@ -1636,15 +1684,18 @@ Proof.
     + rewrite nth_upd_same by lia. unfold m'. rewrite (lw_sw_same w Hw1) by exact Ha. now rewrite (wrap_small w _ Hx).
     + rewrite nth_upd_other by congruence. rewrite <- K2. f_equal. unfold m'.
       apply (lw_sw_other w Hw1); [exact Ha | destruct Rg; lia | destruct (Rgd k g Hk Hg Ne); lia].
+  - intros h Hh. destruct (Rbg h Hh) as [B0 [B1 [B2 B3]]]. split; [exact B0|]. split; [unfold m'; rewrite inb_sw; exact B1|].
+    split; [|exact B3]. rewrite <- B2. unfold m'.
+    apply (lb_sw_other w Hw1); [exact Ha | destruct Rg; lia | destruct (proj2 Rbd g h Hg Hh); lia].
 Qed.
 (* g = o;  for o a literal, a variable, or one binary operation *)
 Lemma assign_glob_runs S s m g o p : wf_senv S -> rep S s m -> (g < ng)%nat -> oscoped w ng (length (ioffs S)) o ->
   match o with OUn _ _ => False | _ => True end -> need_int S o false <= FP m - lo -> plc (assign_glob S g o) p ->
   exists m', runs (mk p m) [] (mk (p + size (assign_glob S g o)) m') /\ rep S (set_g s g (ieval w s o)) m' /\ fagree m m'.
 Proof.
-  intros Wf Rp Hg Sc Nu Hn P. pose proof (rp_regs w R lo gl ng S s m Rp) as L. pose proof (wfs_w w fb S Wf) as Ews.
-  destruct (sval_ieval S s m o Wf Rp Sc) as [Sv Rv]. destruct (rp_g w R lo gl ng S s m Rp g Hg) as [G0 [G1 G2]].
-  pose proof (rp_gl w R lo gl ng S s m Rp) as Hf. pose proof (wfs_fb w fb S Wf) as Ofb.
+  intros Wf Rp Hg Sc Nu Hn P. pose proof (rp_regs w R lo gl ng nbg S s m Rp) as L. pose proof (wfs_w w fb S Wf) as Ews.
+  destruct (sval_ieval S s m o Wf Rp Sc) as [Sv Rv]. destruct (rp_g w R lo gl ng nbg S s m Rp g Hg) as [G0 [G1 G2]].
+  pose proof (rp_gl w R lo gl ng nbg S s m Rp) as Hf. pose proof (wfs_fb w fb S Wf) as Ofb.
   assert (Ha : 0 <= a_glob R g) by (destruct L; lia).
   assert (HwE : wsize (env_of S) = w) by exact Ews.
   unfold assign_glob in *. destruct o as [z|i|op x y|u x|h]; [| | | destruct Nu |].
@@ -1657,7 +1708,7 @@ Proof.
   - (* a local: lwso [var_g], [fp], -off *)
     cbn [eval_opd pop_value is_state_of reg_eqb app env_of int_off] in P |- *. rewrite Nat.eqb_refl in *. cbn [app] in P |- *.
     cbn [placed res_ins res_sym regaddr] in P. destruct P as [Cl _]. cbn [oscoped] in Sc.
-    destruct (rep_slot_i w R lo fb gl ng Hw S s m i (FP m - top S) Wf Rp Sc ltac:(lia)) as [O1 [O2 [O3 _]]].
+    destruct (rep_slot_i w R lo fb gl ng nbg Hw S s m i (FP m - top S) Wf Rp Sc ltac:(lia)) as [O1 [O2 [O3 _]]].
     pose proof (act_lwso w code cmem p m (a_glob R g) (St fp) (Imm (- nth i (ioffs S) 0)) (FP m) (wrap (- nth i (ioffs S) 0)) Cl
                   (oval_st w cmem m fp (lo_if w R lo m L)) (oval_imm w cmem m _)) as Al.
     rewrite (frame_addr w R lo Hw m _ L O1) in Al. specialize (Al O3 G1).
@@ -1672,9 +1723,9 @@ Proof.
     assert (W0 : 0 <= w) by lia.
     assert (Tp : Z.of_nat (temps_cmp x y) * w <= FP m - tp - lo) by (unfold temps_cmp; lia).
     assert (Ro : room_ok w R lo tp m).
-    { apply (rep_room w R lo fb gl ng S s m tp Wf Rp); [unfold tp; lia|]. assert (0 <= Z.of_nat (temps_cmp x y) * w) by (apply Z.mul_nonneg_nonneg; lia). lia. }
-    pose proof (rep_oexp w R lo fb gl ng Hw S s m x (FP m - tp) Wf Rp Sx ltac:(unfold tp; lia)) as Ox.
-    pose proof (rep_oexp w R lo fb gl ng Hw S s m y (FP m - tp) Wf Rp Sy ltac:(unfold tp; lia)) as Oy.
+    { apply (rep_room w R lo fb gl ng nbg S s m tp Wf Rp); [unfold tp; lia|]. assert (0 <= Z.of_nat (temps_cmp x y) * w) by (apply Z.mul_nonneg_nonneg; lia). lia. }
+    pose proof (rep_oexp w R lo fb gl ng nbg Hw S s m x (FP m - tp) Wf Rp Sx ltac:(unfold tp; lia)) as Ox.
+    pose proof (rep_oexp w R lo fb gl ng nbg Hw S s m y (FP m - tp) Wf Rp Sy ltac:(unfold tp; lia)) as Oy.
     destruct (pair_props w R E lo Hw HwE code cmem lab x y (eval_opd_props w R E lo Hw HwE code cmem lab x)
                 (eval_opd_props w R E lo Hw HwE code cmem lab y) tp m L Ro Ox Oy Tp) as [A4 [Sl [Sr C]]].
     set (kx := negb (is_safe y)) in *. set (bx := bub_of E tp R0 x kx) in *.
@@ -1705,7 +1756,7 @@ Proof.
       { rewrite Wr. cbn [wval] in Sv. rewrite <- Sv. cbn [sval]. reflexivity. }
       rewrite Ev in Rp'. exact Rp'.
   - (* another global: mov [var_g], [var_h], or nothing for g = g *)
-    cbn [oscoped] in Sc. destruct (rp_g w R lo gl ng S s m Rp h Sc) as [H0 [H1 H2]].
+    cbn [oscoped] in Sc. destruct (rp_g w R lo gl ng nbg S s m Rp h Sc) as [H0 [H1 H2]].
     cbn [eval_opd pop_value is_state_of reg_eqb app] in P |- *. cbn [wval] in Sv, Rv.
     destruct (Nat.eqb_spec g h) as [<-|Ne]; cbn [app] in P |- *.
     + exists m. cbn [size]. replace (p + 0) with p by lia. split; [apply runs_refl|]. split; [|apply fagree_refl].
@@ -1719,6 +1770,213 @@ Proof.
       split; [|exact Fa]. rewrite Sv in Rp'. exact Rp'.
 Qed.
 
+(* ---------- any int operand evaluated INTO a global (get_expr_value(var_g, o)) ---------- *)
+(* m' differs from ma at most in the word of global g *)
+Definition only_g (g : nat) (ma m' : mem) : Prop :=
+  msize m' = msize ma /\ (wf_mem ma -> wf_mem m') /\
+  forall x, 0 <= x -> ~ (a_glob R g <= x < a_glob R g + w) -> getb m' x = getb ma x.
+Lemma only_g_refl g m : only_g g m m.
+Proof. split; [reflexivity|]. split; auto. Qed.
+Lemma only_g_sw g ma m' x : 0 <= a_glob R g -> only_g g ma m' -> only_g g ma (sw m' (a_glob R g) x).
+Proof.
+  intros Ha [S1 [F1 G1]]. split; [rewrite msize_sw; exact S1|]. split; [intros Wf; apply (wf_sw w); auto|].
+  intros y Y N. rewrite <- (G1 y Y N). unfold Machine.sw. apply storen_outside; [exact Ha | exact Y|]. rewrite (wn_w w Hw1). lia.
+Qed.
+Lemma only_g_lw g ma m' a : only_g g ma m' -> 0 <= a -> (a + w <= a_glob R g \/ a_glob R g + w <= a) -> lw m' a = lw ma a.
+Proof.
+  intros [_ [_ G]] Ha D. unfold Machine.lw. apply loadn_ext. intros x Hx. rewrite (wn_w w Hw1) in Hx. apply G; lia.
+Qed.
+Lemma only_g_gagree g hi ma m' : gl <= a_glob R g -> only_g g ma m' -> gagree w R lo gl hi ma m'.
+Proof. intros Hg [S1 [F1 G1]]. split; [exact S1|]. split; [exact F1|]. intros x X N0 N1 N2 N3 N4. apply G1; [exact X | lia]. Qed.
+Lemma only_g_oval g ma m' v y : only_g g ma m' -> oval ma (rs v) = Some y ->
+  match v with SReg r => 0 <= regaddr R r /\ (regaddr R r + w <= a_glob R g \/ a_glob R g + w <= regaddr R r) | SLit _ => True | _ => False end ->
+  oval m' (rs v) = Some y.
+Proof.
+  intros O Ov Hv. destruct v as [z|r|l|c|r|x]; try contradiction; cbn [res_sym] in *.
+  - rewrite <- Ov. apply oval_imm_any.
+  - destruct Hv as [H0 HD]. destruct (oval_st_inv w cmem ma _ _ Ov) as [I E].
+    rewrite (oval_st w cmem m' _); [rewrite (only_g_lw g ma m' _ O H0 HD), E; reflexivity|].
+    unfold inb in *. rewrite (proj1 O). exact I.
+Qed.
+
+Lemma eval_glob_props S s m g : wf_senv S -> rep S s m -> (g < ng)%nat -> forall o c bub c1 v p,
+  oscoped w ng (length (ioffs S)) o -> need_int S o false <= FP m - lo ->
+  eval_opd (env_of S) (top S) (RGlob g) o false = (c, bub) -> pop_value (RGlob g) bub = (c1, v) -> plc (c ++ c1) p ->
+  exists ma m', agree w R lo (FP m - top S) m ma /\ only_g g ma m' /\
+     runs (mk p m) [] (mk (p + size (c ++ c1)) m') /\ oval m' (rs v) = Some (wval w R (env_of S) m o) /\
+     match v with SReg r => r = RGlob g \/ exists h, r = RGlob h /\ o = OGlob h | SLit _ => True | _ => False end.
+Proof.
+  intros Wf Rp Hg. pose proof (rp_regs w R lo gl ng nbg S s m Rp) as L. pose proof (wfs_w w fb S Wf) as Ews.
+  destruct (rp_g w R lo gl ng nbg S s m Rp g Hg) as [G0 [G1 G2]].
+  pose proof (rp_gl w R lo gl ng nbg S s m Rp) as Hf. pose proof (wfs_fb w fb S Wf) as Ofb.
+  assert (Ha : 0 <= a_glob R g) by (destruct L; lia).
+  assert (HwE : wsize (env_of S) = w) by exact Ews.
+  set (E := env_of S) in *. set (tp := top S) in *.
+  (* one instruction that writes y into the global, from a memory that differs from ma only there *)
+  assert (Step : forall ma m1 q y, agree w R lo (FP m - tp) m ma -> only_g g ma m1 ->
+            act (mk q m1) = ANext (mk (q + 1) (sw m1 (a_glob R g) y)) None ->
+            only_g g ma (sw m1 (a_glob R g) y) /\ runs (mk q m1) [] (mk (q + 1) (sw m1 (a_glob R g) y)) /\
+            oval (sw m1 (a_glob R g) y) (St (a_glob R g)) = Some (wrap y)).
+  { intros ma m1 q y A O Ac. split; [apply only_g_sw; assumption|]. split; [apply (runs_next act _ _ None Ac)|].
+    apply (oval_st_sw_same w Hw cmem); [exact Ha|]. unfold inb. rewrite (proj1 O), (proj1 A). exact G1. }
+  assert (Inb1 : forall ma m1, agree w R lo (FP m - tp) m ma -> only_g g ma m1 -> inb m1 (a_glob R g) w = true).
+  { intros ma m1 A O. unfold inb. rewrite (proj1 O), (proj1 A). exact G1. }
+  induction o as [z|i|op x IHx y IHy|u x IHx|h]; intros c bub c1 v p Sc Hn Ev Pv P.
+  - (* literal *)
+    cbn [eval_opd] in Ev. inversion Ev; subst c bub. cbn [pop_value] in Pv. inversion Pv; subst c1 v.
+    exists m, m. split; [apply agree_refl|]. split; [apply only_g_refl|]. cbn [app size]. replace (p + 0) with p by lia.
+    split; [apply runs_refl|]. split; [apply oval_imm | exact I].
+  - (* local: loaded into the global *)
+    cbn [eval_opd] in Ev. inversion Ev; subst c bub. cbn [pop_value env_of int_off E] in Pv. inversion Pv; subst c1 v.
+    cbn [app placed res_ins res_sym regaddr] in P. destruct P as [Cl _]. cbn [oscoped] in Sc.
+    destruct (rep_slot_i w R lo fb gl ng nbg Hw S s m i (FP m - top S) Wf Rp Sc ltac:(lia)) as [O1 [O2 [O3 _]]].
+    pose proof (act_lwso w code cmem p m (a_glob R g) (St fp) (Imm (- nth i (ioffs S) 0)) (FP m) (wrap (- nth i (ioffs S) 0)) Cl
+                  (oval_st w cmem m fp (lo_if w R lo m L)) (oval_imm w cmem m _)) as Al.
+    rewrite (frame_addr w R lo Hw m _ L O1) in Al. specialize (Al O3 G1).
+    destruct (Step m m p _ (agree_refl w R lo _ m) (only_g_refl g m) Al) as [Og [Rn Ov]].
+    eexists m, _. split; [apply agree_refl|]. split; [exact Og|]. cbn [app size]. replace (p + (1 + 0)) with (p + 1) by lia.
+    split; [exact Rn|]. split; [|left; reflexivity]. cbn [res_sym regaddr wval env_of int_off]. rewrite Ov. f_equal.
+    apply (wrap_small w), (lw_range w Hw1), (lo_wf w R lo m L).
+  - (* binary: the operands as usual, the operation into the global *)
+    cbn [oscoped] in Sc. destruct Sc as [Oop [Sx Sy]].
+    unfold need_int in Hn. rewrite Ews in Hn. cbn [temps] in Hn. fold tp in Hn.
+    assert (Tp : Z.of_nat (temps_cmp x y) * w <= FP m - tp - lo) by (unfold temps_cmp; lia).
+    assert (Ro : room_ok w R lo tp m).
+    { apply (rep_room w R lo fb gl ng nbg S s m tp Wf Rp); [unfold tp; lia|]. assert (0 <= Z.of_nat (temps_cmp x y) * w) by (apply Z.mul_nonneg_nonneg; lia). lia. }
+    pose proof (rep_oexp w R lo fb gl ng nbg Hw S s m x (FP m - tp) Wf Rp Sx ltac:(unfold tp; lia)) as Ox.
+    pose proof (rep_oexp w R lo fb gl ng nbg Hw S s m y (FP m - tp) Wf Rp Sy ltac:(unfold tp; lia)) as Oy.
+    destruct (pair_props w R E lo Hw HwE code cmem lab x y (eval_opd_props w R E lo Hw HwE code cmem lab x)
+                (eval_opd_props w R E lo Hw HwE code cmem lab y) tp m L Ro Ox Oy Tp) as [A4 [Sl [Sr C]]].
+    set (kx := negb (is_safe y)) in *. set (bx := bub_of E tp R0 x kx) in *.
+    set (by_ := bub_of E (top_after tp bx) R1 y false) in *. set (m4 := pair_mem w R E tp x y m) in *.
+    cbn [eval_opd] in Ev. fold kx in Ev.
+    destruct (eval_opd E tp R0 x kx) as [cx bx'] eqn:E1.
+    destruct (eval_opd E (top_after tp bx') R1 y false) as [cy by'] eqn:E2.
+    destruct (pop_value R1 by') as [c2' rhs] eqn:E3. destruct (pop_value R0 bx') as [c3 lhs] eqn:E4.
+    unfold finish_opd in Ev. inversion Ev; subst c bub; clear Ev. cbn [pop_value] in Pv. inversion Pv; subst c1 v; clear Pv.
+    rewrite app_nil_r in *.
+    replace (cx ++ cy ++ c2' ++ c3 ++ [AInstr (AArith (arith_instr op) (RGlob g) lhs rhs)])
+      with ((cx ++ cy ++ c2' ++ c3) ++ [AInstr (AArith (arith_instr op) (RGlob g) lhs rhs)]) in * by (rewrite <- !app_assoc; reflexivity).
+    apply placed_app in P. destruct P as [P4 Pi]. cbn [placed res_ins regaddr] in Pi. destruct Pi as [Ci _].
+    destruct (C cx bx' cy by' c2' rhs c3 lhs p eq_refl E2 E3 E4 P4) as [El [Er R4]]. subst lhs rhs.
+    destruct (arith_ok w Hw op (wval w R E m x) (wval w R E m y) Oop (wval_range w R E Hw m x (lo_wf w R lo m L)) (wval_range w R E Hw m y (lo_wf w R lo m L))) as [r [Ar Wr]].
+    rewrite (sgn_wval w R E lo Hw _ m x (lo_wf w R lo m L) Ox), (sgn_wval w R E lo Hw _ m y (lo_wf w R lo m L) Oy) in Wr.
+    pose proof (act_arith w code cmem _ m4 (arith_instr op) (a_glob R g) _ _ _ _ r Ci
+                  (symval_oval w R cmem lab _ _ _ Sl) (symval_oval w R cmem lab _ _ _ Sr) Ar (Inb1 m4 m4 A4 (only_g_refl g m4))) as Aa.
+    destruct (Step m4 m4 _ r A4 (only_g_refl g m4) Aa) as [Og [Rn Ov]].
+    eexists m4, _. split; [exact A4|]. split; [exact Og|]. split; [|split; [|left; reflexivity]].
+    + rewrite size_app. cbn [size]. change (@nil event) with (@nil event ++ []). eapply runs_trans; [exact R4|].
+      replace (p + (size (cx ++ cy ++ c2' ++ c3) + (1 + 0))) with (p + size (cx ++ cy ++ c2' ++ c3) + 1) by lia. exact Rn.
+    + cbn [res_sym regaddr wval]. rewrite Ov, Wr. reflexivity.
+  - (* unary: the argument into the global, then the operation on it *)
+    cbn [oscoped] in Sc. unfold need_int in Hn. cbn [temps] in Hn.
+    assert (Hnx : need_int S x false <= FP m - lo).
+    { unfold need_int. assert (Z.of_nat (temps x false) * ws S <= Z.of_nat (Nat.max (temps x false) 0) * ws S) by (apply Z.mul_le_mono_nonneg_r; lia). lia. }
+    cbn [eval_opd] in Ev.
+    destruct (eval_opd E tp (RGlob g) x false) as [cx bx] eqn:E1. destruct (pop_value (RGlob g) bx) as [cx' vx] eqn:E2.
+    unfold finish_opd in Ev. inversion Ev; subst c bub; clear Ev. cbn [pop_value] in Pv. inversion Pv; subst c1 v; clear Pv.
+    rewrite app_nil_r in *. rewrite app_assoc in P. apply placed_app in P. destruct P as [Px Pu].
+    destruct (IHx cx bx cx' vx p Sc Hnx eq_refl E2 Px) as [ma [m1 [A [O [Rx [Ovx Hvx]]]]]].
+    pose proof (rep_oexp w R lo fb gl ng nbg Hw S s m x (FP m - tp) Wf Rp Sc ltac:(unfold tp; lia)) as Ox.
+    assert (Rvx : inrange w (wval w R E m x)) by (apply (wval_range w R E Hw), (lo_wf w R lo m L)).
+    destruct u.
+    + (* neg: sub [var_g], 0, vx *)
+      cbn [placed res_ins res_sym regaddr] in Pu. destruct Pu as [Cq _].
+      assert (W0' : wrap 0 = 0) by (apply (wrap_small w); pose proof (W_pos w Hw1); unfold inrange; lia).
+      pose proof (act_arith w code cmem _ m1 Asub (a_glob R g) (Imm 0) _ (wrap 0) (wval w R E m x) (wrap 0 - wval w R E m x) Cq
+                    (oval_imm w cmem m1 0) Ovx eq_refl (Inb1 ma m1 A O)) as Aa.
+      destruct (Step ma m1 _ _ A O Aa) as [Og [Rn Ov]].
+      eexists ma, _. split; [exact A|]. split; [exact Og|]. split; [|split; [|left; reflexivity]].
+      * change (@nil event) with (@nil event ++ []). eapply runs_trans; [exact Rx|]. close_with Rn.
+      * cbn [res_sym regaddr wval]. rewrite Ov. f_equal. rewrite W0'.
+        rewrite (wrap_sub_sgn w Hw1 0 (wval w R E m x)); [|pose proof (W_pos w Hw1); unfold inrange; lia | exact Rvx].
+        rewrite (sgn_small w 0) by (pose proof (half_pos w Hw1); lia).
+        rewrite (sgn_wval w R E lo Hw _ m x (lo_wf w R lo m L) Ox). f_equal; lia.
+    + (* pos: mov [var_g], vx unless the value is already there *)
+      assert (Vp : wval w R E m (OUn UPos x) = wval w R E m x).
+      { cbn [wval]. rewrite <- (sgn_wval w R E lo Hw _ m x (lo_wf w R lo m L) Ox). apply (wrap_sgn w Hw1). exact Rvx. }
+      destruct (is_state_of (RGlob g) vx) eqn:Is.
+      * assert (Evx : vx = SReg (RGlob g)).
+        { destruct vx as [z|r|l|c|r|x0]; try discriminate Is. cbn [is_state_of] in Is. destruct r; try discriminate Is. cbn [reg_eqb] in Is. apply Nat.eqb_eq in Is. now subst. }
+        subst vx. exists ma, m1. split; [exact A|]. split; [exact O|].
+        split; [close_with Rx|]. split; [rewrite Vp; exact Ovx | left; reflexivity].
+      * cbn [placed res_ins res_sym regaddr] in Pu. destruct Pu as [Cq _].
+        pose proof (act_mov w code cmem _ m1 (a_glob R g) (rs vx) _ Cq Ovx (Inb1 ma m1 A O)) as Am.
+        destruct (Step ma m1 _ _ A O Am) as [Og [Rn Ov]].
+        eexists ma, _. split; [exact A|]. split; [exact Og|]. split; [|split; [|left; reflexivity]].
+        -- change (@nil event) with (@nil event ++ []). eapply runs_trans; [exact Rx|]. close_with Rn.
+        -- cbn [res_sym regaddr]. rewrite Ov, Vp. f_equal. apply (wrap_small w). exact Rvx.
+  - (* another global *)
+    cbn [eval_opd] in Ev. inversion Ev; subst c bub. cbn [pop_value] in Pv. inversion Pv; subst c1 v.
+    cbn [oscoped] in Sc. destruct (rp_g w R lo gl ng nbg S s m Rp h Sc) as [H0 [H1 H2]].
+    exists m, m. split; [apply agree_refl|]. split; [apply only_g_refl|]. cbn [app size]. replace (p + 0) with p by lia.
+    split; [apply runs_refl|]. split; [cbn [res_sym regaddr wval]; apply (oval_st w cmem m _ H1) | right; eauto].
+Qed.
+(* g = a / b;  g /= b  (checked build): the division computed into the global *)
+Lemma assign_glob_div_runs S s m g op a b da p : lib_hyps -> wf_senv S -> rep S s m -> (g < ng)%nat -> op = SDiv \/ op = SMod ->
+  oscoped w ng (length (ioffs S)) a -> oscoped w ng (length (ioffs S)) b ->
+  need_int S (OArith op a b) false <= FP m - lo -> plc (assign_glob_div S g op a b da) p ->
+  (ieval w s b <> 0 -> exists m', runs (mk p m) [] (mk (p + size (assign_glob_div S g op a b da)) m') /\
+     rep S (set_g s g (swrap w (arith_sem op (ieval w s a) (ieval w s b)))) m' /\ fagree m m') /\
+  (ieval w s b = 0 -> exists m', runs (mk p m) [] (mk div_stub m')).
+Proof.
+  intros Hl Wf Rp Hg Hop Sa Sb Hn P.
+  unfold assign_glob_div, eval_div, compare_operands in *. change (with_top (env_of S) (top S)) with (env_of S) in *. change (stack_top (env_of S)) with (top S) in *.
+  pose proof (wfs_w w fb S Wf) as Ews. pose proof (rp_regs w R lo gl ng nbg S s m Rp) as L.
+  destruct (rp_g w R lo gl ng nbg S s m Rp g Hg) as [G0 [G1 G2]].
+  assert (HwE : wsize (env_of S) = w) by exact Ews.
+  set (E := env_of S) in *. set (tp := top S) in *.
+  unfold need_int in Hn. rewrite Ews in Hn. cbn [temps] in Hn. fold tp in Hn.
+  assert (W0 : 0 <= w) by lia.
+  assert (Tp : Z.of_nat (temps_cmp a b) * w <= FP m - tp - lo) by (unfold temps_cmp; lia).
+  assert (Ro : room_ok w R lo tp m).
+  { apply (rep_room w R lo fb gl ng nbg S s m tp Wf Rp); [unfold tp; lia|]. assert (0 <= Z.of_nat (temps_cmp a b) * w) by (apply Z.mul_nonneg_nonneg; lia). lia. }
+  pose proof (rep_oexp w R lo fb gl ng nbg Hw S s m a (FP m - tp) Wf Rp Sa ltac:(unfold tp; lia)) as Oa.
+  pose proof (rep_oexp w R lo fb gl ng nbg Hw S s m b (FP m - tp) Wf Rp Sb ltac:(unfold tp; lia)) as Ob.
+  destruct (sval_ieval S s m a Wf Rp Sa) as [Sva Rva]. destruct (sval_ieval S s m b Wf Rp Sb) as [Svb Rvb].
+  destruct (pair_props w R E lo Hw HwE code cmem lab a b (eval_opd_props w R E lo Hw HwE code cmem lab a)
+              (eval_opd_props w R E lo Hw HwE code cmem lab b) tp m L Ro Oa Ob Tp) as [A4 [Sl [Sr C]]].
+  set (kx := negb (is_safe b)) in *. set (bx := bub_of E tp R0 a kx) in *.
+  set (by_ := bub_of E (top_after tp bx) R1 b false) in *. set (m4 := pair_mem w R E tp a b m) in *.
+  pose proof (regs_ok_agree w R lo Hw _ m m4 L A4) as L4.
+  fold kx in P |- *.
+  destruct (eval_opd E tp R0 a kx) as [c1 bx'] eqn:E1.
+  destruct (eval_opd E (top_after tp bx') R1 b false) as [c2 by'] eqn:E2.
+  destruct (pop_value R1 by') as [c2' rhs] eqn:E3. destruct (pop_value R0 bx') as [c3 lhs] eqn:E4.
+  unfold finish_opd in *. cbn [fst] in *.
+  apply placed_app in P. destruct P as [P4 Pg].
+  cbn [div_guard app placed res_ins res_sym regaddr] in Pg. destruct Pg as [Cj [Cc [Ce [Ch [Lda [Ci _]]]]]].
+  destruct (C c1 bx' c2 by' c2' rhs c3 lhs p eq_refl E2 E3 E4 P4) as [El [Er R4]]. subst lhs rhs.
+  set (p4 := p + size (c1 ++ c2 ++ c2' ++ c3)) in *.
+  assert (Ig : inb m4 (a_glob R g) w = true) by (rewrite (agree_inb w R lo _ m m4 _ _ A4); exact G1).
+  destruct (stub_not_halts off_division_by_zero m4 Hl (or_introl eq_refl)) as [Nh Ws].
+  assert (Hai : arith_instr op = Adiv \/ arith_instr op = Amod) by (destruct Hop as [-> | ->]; [left | right]; reflexivity).
+  replace (p4 + 1 + 1) with (p4 + 2) in Ce by lia. replace (p4 + 1 + 1 + 1) with (p4 + 3) in Ch by lia.
+  replace (p4 + 1 + 1 + 1 + 1) with (p4 + 4) in Ci by lia.
+  replace (p4 + 1 + 1 + 1 + 1) with (p4 + 4) in Lda by lia.
+  destruct (div_guard_idiom w Hw code cmem p4 m4 (Imm (lab da)) (Imm (a_lib R + off_division_by_zero)) div_stub
+              (rs (sym_of R1 by_)) (wval w R E m b) (arith_instr op) (a_glob R g) (rs (sym_of R0 bx)) (wval w R E m a)
+              Cj ltac:(rewrite oval_imm, (wrap_small w _ (lab_range da)), Lda; reflexivity) Cc
+              (symval_oval w R cmem lab _ _ _ Sr) Rvb Ce Ch ltac:(rewrite oval_imm; unfold div_stub; now rewrite Ws)
+              Ci Hai (symval_oval w R cmem lab _ _ _ Sl) Ig) as [Gok Gf].
+  split.
+  - intros Nz. assert (Nz' : wval w R E m b <> 0) by (intro Z0; apply Nz; rewrite <- Svb; apply (sgn_zero_iff _ Rvb); exact Z0).
+    destruct (Gok Nz') as [Rg [r [Ar Aa]]].
+    pose proof (arith_div_sem op _ _ r Hop Rva Rvb Ar) as Wr. rewrite Sva, Svb in Wr.
+    assert (Es : sw m4 (a_glob R g) r = sw m4 (a_glob R g) (wrap r)) by (apply sw_wrap_eq; symmetry; apply (wrap_wrap w Hw1)).
+    rewrite Es in Aa.
+    destruct (rep_set_glob S s m m4 g (wrap r) Wf Rp A4 Hg (wrap_range w Hw1 r)) as [Rp' Fa].
+    eexists. split; [|split; [|exact Fa]].
+    + change (@nil event) with (@nil event ++ ([] ++ [])).
+      eapply runs_trans; [exact R4|]. eapply runs_trans; [exact Rg|].
+      match goal with |- HidV.Sphinx.Halts.runs _ _ _ (mk ?x _) =>
+        replace x with (p4 + 4 + 1) by (unfold p4; rewrite ?size_app; cbn [size div_guard]; rewrite ?size_app; cbn [size]; lia) end.
+      apply (runs_next act _ _ None Aa).
+    + assert (Ev' : sgn (wrap r) = swrap w (arith_sem op (ieval w s a) (ieval w s b))) by (rewrite Wr; reflexivity).
+      rewrite Ev' in Rp'. exact Rp'.
+  - intros Z0. assert (Z0' : wval w R E m b = 0) by (apply (sgn_zero_iff _ Rvb); rewrite Svb; exact Z0).
+    destruct (Gf Z0' Nh) as [Rg _]. exists m4. change (@nil event) with (@nil event ++ []). eapply runs_trans; [exact R4 | exact Rg].
+Qed.
 (* ---------- environments grow along a statement list ---------- *)
 Definition extends (S S1 : senv) : Prop :=
   (exists l, ioffs S1 = ioffs S ++ l) /\ (exists l, boffs S1 = boffs S ++ l) /\ top S <= top S1 /\ ws S1 = ws S.
@@ -1738,7 +1996,7 @@ Proof. split; [exists []; cbn; now rewrite app_nil_r|]. split; [eexists; reflexi
 Lemma rep_shrink S S1 s s1 m : extends S S1 ->
   length (si s) = length (ioffs S) -> length (sb s) = length (boffs S) -> rep S1 s1 m -> rep S (trunc s s1) m.
 Proof.
-  intros [[l El] [[k Ek] [Ht _]]] Li Lb Rp. destruct Rp as [Rg Rlo Rh Rsz Rli Rlb Ri Rb Rap Rgl Rgn Rgg Rgd].
+  intros [[l El] [[k Ek] [Ht _]]] Li Lb Rp. destruct Rp as [Rg Rlo Rh Rsz Rli Rlb Ri Rb Rap Rgl Rgn Rgg Rgd Rbn Rbg Rbd].
   constructor; cbn [trunc si sb]; try assumption; try lia.
   - rewrite firstn_length, Rli, El, app_length. lia.
   - rewrite firstn_length, Rlb, Ek, app_length. lia.
@@ -1760,17 +2018,18 @@ Ltac destruct_lets :=
   | |- context [add_label ?a ?b] => destruct (add_label a b)
   | |- context [declare_bool ?a ?b ?c] => destruct (declare_bool a b c)
   | |- context [assign_bool ?a ?b ?c ?d] => destruct (assign_bool a b c d)
+  | |- context [assign_bglob ?a ?b ?c ?d] => destruct (assign_bglob a b c d)
   | |- context [lower_branch ?a ?b ?c ?d ?e] => destruct (lower_branch a b c d e)
   | |- context [lower_stmts ?a ?b ?c ?d] => destruct (lower_stmts a b c d) as [[[? ?] ?] ?]
   end.
 Lemma lower_stmt_env S li s st : let '(_, S', _, _) := lower_stmt S li s st in S' = snd (need_stmt S s).
 Proof.
-  destruct s as [o|i o|e|j e|x| |ln o|ln e|c s1 s2|c b k|ss| | |op a b|i op a b|dst f args|r|gg og|gg gop ga gb]; cbn [lower_stmt need_stmt need_bool_decl snd];
+  destruct s as [o|i o|e|j e|x| |ln o|ln e|c s1 s2|c b k|ss| | |op a b|i op a b|dst f args|r|gg og|gg gop ga gb|hh eh]; cbn [lower_stmt need_stmt need_bool_decl snd];
     try reflexivity; try (destruct x; reflexivity); try (destruct r; reflexivity); destruct_lets; reflexivity.
 Qed.
 Lemma need_stmt_extends S s : 0 <= ws S -> extends S (snd (need_stmt S s)).
 Proof.
-  intros H. destruct s as [o|i o|e|j e|x| |ln o|ln e|c s1 s2|c b k|ss| | |op a b|i op a b|dst f args|r|gg og|gg gop ga gb]; cbn [need_stmt snd]; try apply extends_refl.
+  intros H. destruct s as [o|i o|e|j e|x| |ln o|ln e|c s1 s2|c b k|ss| | |op a b|i op a b|dst f args|r|gg og|gg gop ga gb|hh eh]; cbn [need_stmt snd]; try apply extends_refl.
   - apply extends_push_int. exact H.
   - destruct e; apply extends_push_bool.
   - destruct x; apply extends_refl.
@@ -1780,7 +2039,7 @@ Proof.
 Qed.
 Lemma lower_stmt_exited S li s st : let '(_, _, _, ex) := lower_stmt S li s st in ex = true -> exits s = true.
 Proof.
-  destruct s as [o|i o|e|j e|x| |ln o|ln e|c s1 s2|c b k|ss| | |op a b|i op a b|dst f args|r|gg og|gg gop ga gb]; cbn [lower_stmt exits]; try (intros; discriminate); auto;
+  destruct s as [o|i o|e|j e|x| |ln o|ln e|c s1 s2|c b k|ss| | |op a b|i op a b|dst f args|r|gg og|gg gop ga gb|hh eh]; cbn [lower_stmt exits]; try (intros; discriminate); auto;
     destruct_lets; intros; discriminate.
 Qed.
 
@@ -1808,13 +2067,20 @@ Definition frame_post (out : outcome) (m m' : mem) : Prop :=
   | _ => fagree m m'
   end.
 (* memory m holds the int globals G *)
-Definition greps (G : list Z) (m : mem) : Prop :=
-  length G = ng /\ forall g, (g < ng)%nat -> gl <= a_glob R g /\ inb m (a_glob R g) w = true /\ sgn (lw m (a_glob R g)) = nth g G 0.
+Definition greps (G : gstore) (m : mem) : Prop :=
+  (length (fst G) = ng /\ forall g, (g < ng)%nat -> gl <= a_glob R g < W /\ inb m (a_glob R g) w = true /\ sgn (lw m (a_glob R g)) = nth g (fst G) 0) /\
+  (length (snd G) = nbg /\ forall h, (h < nbg)%nat -> gl <= a_bglob R h < W /\ inb m (a_bglob R h) 1 = true /\
+                                      lb m (a_bglob R h) = nth h (snd G) 0 /\ (nth h (snd G) 0 = 0 \/ nth h (snd G) 0 = 1)).
+(* where the globals are: pairwise apart (a fact about the layout only) *)
+Definition glayout : Prop :=
+  (forall g g', (g < ng)%nat -> (g' < ng)%nat -> g <> g' -> a_glob R g + w <= a_glob R g' \/ a_glob R g' + w <= a_glob R g) /\
+  (forall h h', (h < nbg)%nat -> (h' < nbg)%nat -> h <> h' -> a_bglob R h <> a_bglob R h') /\
+  (forall g h, (g < ng)%nat -> (h < nbg)%nat -> a_bglob R h + 1 <= a_glob R g \/ a_glob R g + w <= a_bglob R h).
 Definition post (S S' : senv) (s s' : store) (out : outcome) (m m' : mem) : Prop :=
   match out with
   | ONormal => rep S' s' m' /\ wf_senv S'
   | OBreak | OContinue => rep S (trunc s s') m'
-  | OReturn v => match v with Some x => sgn (lw m' (FP m - w)) = x | None => True end /\ greps (sg s') m'
+  | OReturn v => match v with Some x => sgn (lw m' (FP m - w)) = x | None => True end /\ greps (gs_of s') m'
   | OFault _ => True
   end.
 (* the frame holds exactly the return address and the locals in scope *)
@@ -1822,23 +2088,22 @@ Definition tight (S : senv) : Prop := top S = w * (1 + Z.of_nat (length (ioffs S
 Definition stmt_spec (d : Z) (s : stmt) (s0 : store) (evs : list Z) (out : outcome) (s1 : store) : Prop :=
   forall S li st C S' st' ex p m,
     lower_stmt S li s st = (C, S', st', ex) -> plc C p -> wf_senv S -> tight S -> rep S s0 m -> d = FP m - lo ->
-    sscoped w ng lib_hyps cf (length (ioffs S)) (length (boffs S)) (in_loop li) s -> fst (need_stmt S s) <= FP m - lo ->
+    sscoped w ng nbg lib_hyps cf (length (ioffs S)) (length (boffs S)) (in_loop li) s -> fst (need_stmt S s) <= FP m - lo ->
     exists m' pc', exit_pc li out (p + size C) (lw m (FP m - w)) = Some pc' /\
       runs (mk p m) (map EOut evs) (mk pc' m') /\ frame_post out m m' /\ post S S' s0 s1 out m m'.
 Definition stmts_spec (d : Z) (ss : stmts) (s0 : store) (evs : list Z) (out : outcome) (s1 : store) : Prop :=
   forall S li st C S' st' ex p m,
     lower_stmts S li ss st = (C, S', st', ex) -> plc C p -> wf_senv S -> tight S -> rep S s0 m -> d = FP m - lo ->
-    ssscoped w ng lib_hyps cf (length (ioffs S)) (length (boffs S)) (in_loop li) ss -> need_stmts S ss <= FP m - lo ->
+    ssscoped w ng nbg lib_hyps cf (length (ioffs S)) (length (boffs S)) (in_loop li) ss -> need_stmts S ss <= FP m - lo ->
     exists m' pc', exit_pc li out (p + size C) (lw m (FP m - w)) = Some pc' /\
       runs (mk p m) (map EOut evs) (mk pc' m') /\ frame_post out m m' /\ post S S' s0 s1 out m m'.
 (* a call of function f from an entry memory: fp at the callee's frame, the return address below
    it, then the arguments; d bytes of stack below fp *)
-Definition call_spec (d : Z) (f : nat) (vs G : list Z) (evs : list Z) (res : cres) : Prop :=
+Definition call_spec (d : Z) (f : nat) (vs : list Z) (G : gstore) (evs : list Z) (res : cres) : Prop :=
   forall m, lib_hyps -> cf f (length vs) -> regs_ok w R lo m -> d = FP m - lo -> 0 <= FP m - lo <= W / 2 -> FP m <= msize m ->
     (ap_sep w R lo -> lw m (a_ap R) = lo) ->
     (forall k, (k < length vs)%nat -> sgn (lw m (FP m - (Z.of_nat k + 2) * w)) = nth k vs 0) ->
-    FP m <= gl -> greps G m ->
-    (forall g g', (g < ng)%nat -> (g' < ng)%nat -> g <> g' -> a_glob R g + w <= a_glob R g' \/ a_glob R g' + w <= a_glob R g) ->
+    FP m <= gl -> greps G m -> glayout ->
     exists m', match res with
       | CRet v G' => runs (mk (lab (func_label f)) m) (map EOut evs) (mk (lw m (FP m - w)) m') /\ gagree w R lo gl (FP m) m m' /\
                   match v with Some x => sgn (lw m' (FP m - w)) = x | None => True end /\ greps G' m'
@@ -1847,7 +2112,7 @@ Definition call_spec (d : Z) (f : nat) (vs G : list Z) (evs : list Z) (res : cre
 (* every callable function is in the code: label, entry guard, body; its guard constant is a word *)
 Hypothesis cf_ok : forall f n, cf f n -> exists fd st, nth_error funs f = Some fd /\ fn_params fd = n /\
   0 <= fun_need w fd < W / 2 /\ plc (fst (lower_fun w f fd st)) (lab (func_label f)) /\
-  ssscoped w ng lib_hyps cf n 0 false (fn_body fd).
+  ssscoped w ng nbg lib_hyps cf n 0 false (fn_body fd).
 
 Lemma trunc_self s : trunc s s = s.
 Proof. destruct s as [a b c]. unfold trunc; cbn [si sb sg]. now rewrite !firstn_all. Qed.
@@ -1871,15 +2136,15 @@ Qed.
 Lemma rep_len_le S S1 s s1 m m1 : extends S S1 -> rep S s m -> rep S1 s1 m1 ->
   (length (si s) <= length (si s1))%nat /\ (length (sb s) <= length (sb s1))%nat.
 Proof.
-  intros [[l El] [[k Ek] _]] Rp Rp1. rewrite (rp_li w R lo gl ng S s m Rp), (rp_lb w R lo gl ng S s m Rp),
-    (rp_li w R lo gl ng S1 s1 m1 Rp1), (rp_lb w R lo gl ng S1 s1 m1 Rp1), El, Ek, !app_length. lia.
+  intros [[l El] [[k Ek] _]] Rp Rp1. rewrite (rp_li w R lo gl ng nbg S s m Rp), (rp_lb w R lo gl ng nbg S s m Rp),
+    (rp_li w R lo gl ng nbg S1 s1 m1 Rp1), (rp_lb w R lo gl ng nbg S1 s1 m1 Rp1), El, Ek, !app_length. lia.
 Qed.
 
 (* ---------- bookkeeping for the induction ---------- *)
 Lemma tight_step S s : wf_senv S -> tight S -> tight (snd (need_stmt S s)).
 Proof.
   intros Wf T. pose proof (wfs_w w fb S Wf) as Ews. unfold tight in *.
-  destruct s as [o|i o|e|j e|x| |ln o|ln e|c s1 s2|c b k|ss| | |op a b|i op a b|dst f args|r|gg og|gg gop ga gb];
+  destruct s as [o|i o|e|j e|x| |ln o|ln e|c s1 s2|c b k|ss| | |op a b|i op a b|dst f args|r|gg og|gg gop ga gb|hh eh];
     cbn [need_stmt need_bool_decl snd]; try exact T; try (destruct x; exact T); try (destruct r; exact T);
     try (destruct dst; try exact T); cbn [push_int push_bool top ioffs boffs]; rewrite ?app_length; cbn [length]; rewrite ?Ews; lia.
 Qed.
@@ -1901,7 +2166,7 @@ Proof. intros L A B. apply (frame_post_pre out m m1 m2 L A B). Qed.
 (* the return address is not touched by code that keeps the frame *)
 Lemma ra_fagree S s m m1 : wf_senv S -> rep S s m -> fagree m m1 -> lw m1 (FP m1 - w) = lw m (FP m - w).
 Proof.
-  intros Wf Rp A. pose proof (rp_regs w R lo gl ng S s m Rp) as L. rewrite (FP_fagree w R lo fb gl Hw Hgl m m1 L A).
+  intros Wf Rp A. pose proof (rp_regs w R lo gl ng nbg S s m Rp) as L. rewrite (FP_fagree w R lo fb gl Hw Hgl m m1 L A).
   pose proof (wfs_fb w fb S Wf) as Ofb.
   apply (gagree_lw w R lo gl Hw Hgl (FP m - fb) m m1 _ A); [destruct L, Rp; lia | unfold dj; destruct L, Rp; lia | destruct L, Rp; lia].
 Qed.
@@ -1912,8 +2177,19 @@ Proof.
   intros N F Po. destruct out; cbn [post] in *; try exact I; try (rewrite trunc_idem; exact Po); [contradiction | rewrite <- F; exact Po].
 Qed.
 (* the globals part of a representation *)
-Lemma rep_greps S s m : rep S s m -> greps (sg s) m.
-Proof. intros Rp. split; [apply (rp_gn w R lo gl ng S s m Rp) | apply (rp_g w R lo gl ng S s m Rp)]. Qed.
+Lemma rep_greps S s m : rep S s m -> greps (gs_of s) m.
+Proof.
+  intros Rp. split; (split; [first [apply (rp_gn w R lo gl ng nbg S s m Rp) | apply (rp_gbn w R lo gl ng nbg S s m Rp)]
+                            | first [apply (rp_g w R lo gl ng nbg S s m Rp) | apply (rp_gb w R lo gl ng nbg S s m Rp)]]).
+Qed.
+Lemma greps_agree S s m m' hi : rep S s m -> agree w R lo hi m m' -> hi <= FP m -> greps (gs_of s) m'.
+Proof.
+  intros Rp A Hh. split; cbn [gs_of fst snd].
+  - split; [apply (rp_gn w R lo gl ng nbg S s m Rp) | apply (glob_agree w R lo gl ng nbg Hw Hgl S s m m' hi Rp A Hh)].
+  - split; [apply (rp_gbn w R lo gl ng nbg S s m Rp) | apply (globb_agree w R lo gl ng nbg Hw Hgl S s m m' hi Rp A Hh)].
+Qed.
+Lemma rep_glayout S s m : rep S s m -> glayout.
+Proof. intros Rp. split; [apply (rp_gd w R lo gl ng nbg S s m Rp) | apply (rp_gbd w R lo gl ng nbg S s m Rp)]. Qed.
 
 (* ---------- the frame of a function and its entry memory ---------- *)
 Lemma nth_fun_ioffs n i : (i < n)%nat -> nth i (ioffs (is_you_senv w n)) 0 = (Z.of_nat i + 2) * w.
@@ -1934,13 +2210,12 @@ Proof. unfold tight. cbn [is_you_senv top ioffs boffs length]. rewrite map_lengt
 Lemma rep_fun_entry n vs G m : length vs = n -> regs_ok w R lo m -> (Z.of_nat n + 1) * w <= FP m - lo ->
   0 <= FP m - lo <= W / 2 -> FP m <= msize m -> (ap_sep w R lo -> lw m (a_ap R) = lo) ->
   (forall k, (k < n)%nat -> sgn (lw m (FP m - (Z.of_nat k + 2) * w)) = nth k vs 0) ->
-  FP m <= gl -> greps G m ->
-  (forall g g', (g < ng)%nat -> (g' < ng)%nat -> g <> g' -> a_glob R g + w <= a_glob R g' \/ a_glob R g' + w <= a_glob R g) ->
-  rep (is_you_senv w n) (mkstore vs [] G) m.
+  FP m <= gl -> greps G m -> glayout ->
+  rep (is_you_senv w n) (mkstore vs [] (fst G) (snd G)) m.
 Proof.
-  intros Lv L Hr Hh Hs Hap Hv Hfg [Gn Gg] Gd.
+  intros Lv L Hr Hh Hs Hap Hv Hfg [[Gn Gg] [Bn Bg]] [Gd Gbd].
   assert (Ln : length (ioffs (is_you_senv w n)) = n) by (cbn [is_you_senv ioffs]; now rewrite map_length, seq_length).
-  constructor; rewrite ?Ln; cbn [si sb sg]; try assumption; try (cbn [is_you_senv top]; lia); try reflexivity.
+  constructor; rewrite ?Ln; cbn [si sb sg sgb]; try assumption; try (cbn [is_you_senv top]; lia); try reflexivity.
   - intros i Hi. rewrite (nth_fun_ioffs n i Hi). apply Hv. exact Hi.
   - intros j Hj. cbn [is_you_senv boffs length] in Hj. lia.
 Qed.
@@ -1963,9 +2238,9 @@ Proof. intros [Hfp [H0 [H1 [H2 [_ [_ Hap]]]]]] L. destruct L. unfold ap_sep. rew
 Lemma fetch_result_runs S s m i x q : wf_senv S -> rep S s m -> (i < length (ioffs S))%nat -> top S + w <= FP m - lo ->
   sgn (lw m (FP m - (top S + w))) = x ->
   plc [AInstr (ALwso R1 (SReg RFp) (SLit (- (top S + ws S)))); AInstr (ASwso (SReg RFp) (SLit (- nth i (ioffs S) 0)) (SReg R1))] q ->
-  exists m', runs (mk q m) [] (mk (q + 2) m') /\ rep S (mkstore (upd i x (si s)) (sb s) (sg s)) m' /\ fagree m m'.
+  exists m', runs (mk q m) [] (mk (q + 2) m') /\ rep S (mkstore (upd i x (si s)) (sb s) (sg s) (sgb s)) m' /\ fagree m m'.
 Proof.
-  intros Wf Rp Hi Hr Hx P. pose proof (rp_regs w R lo gl ng S s m Rp) as L. pose proof (wfs_w w fb S Wf) as Ews.
+  intros Wf Rp Hi Hr Hx P. pose proof (rp_regs w R lo gl ng nbg S s m Rp) as L. pose proof (wfs_w w fb S Wf) as Ews.
   pose proof (wfs_fb w fb S Wf) as Ofb. assert (Hlo : 0 <= lo) by (destruct L; lia).
   cbn [placed res_ins res_sym regaddr] in P. destruct P as [Cl [Cs _]]. rewrite Ews in Cl.
   assert (Ho : 0 < top S + w <= W / 2) by (destruct Rp; lia).
@@ -1976,9 +2251,9 @@ Proof.
   set (xw := lw m (FP m - (top S + w))) in *. set (m1 := sw m r1 xw) in *.
   assert (Rx : inrange w xw) by (apply (lw_range w Hw1), (lo_wf w R lo m L)).
   assert (A1 : agree w R lo (FP m - top S) m m1) by (apply (agree_sw w R lo Hw); [apply (lo_r1 w R lo m L) | auto]).
-  pose proof (rep_agree w R lo fb gl ng Hw S s m m1 Wf Rp A1) as Rp1. pose proof (rp_regs w R lo gl ng S s m1 Rp1) as L1.
+  pose proof (rep_agree w R lo fb gl ng nbg Hw S s m m1 Wf Rp A1) as Rp1. pose proof (rp_regs w R lo gl ng nbg S s m1 Rp1) as L1.
   pose proof (FP_agree w R lo Hw _ m m1 L A1) as F1.
-  destruct (rep_slot_i w R lo fb gl ng Hw S s m1 i (FP m1 - top S) Wf Rp1 Hi ltac:(lia)) as [O1 [O2 [O3 _]]].
+  destruct (rep_slot_i w R lo fb gl ng nbg Hw S s m1 i (FP m1 - top S) Wf Rp1 Hi ltac:(lia)) as [O1 [O2 [O3 _]]].
   assert (Ov : oval m1 (St r1) = Some xw).
   { rewrite (oval_st w cmem m1 r1 (lo_i1 w R lo m1 L1)). unfold m1. rewrite (lw_sw_same w Hw1) by apply (lo_r1 w R lo m L).
     now rewrite (wrap_small w _ Rx). }
@@ -1987,7 +2262,7 @@ Proof.
   eexists. split; [|split; [exact Rp3|]].
   - change (@nil event) with (@nil event ++ []). eapply runs_trans; [apply (runs_next act _ _ None Al)|].
     replace (q + 2) with (q + 1 + 1) by lia. exact Rs.
-  - apply (fagree_trans w R lo fb gl Hw Hgl m m1); [exact L | apply (agree_fagree w R lo fb gl ng S s m m1 Wf Rp A1) | exact Fa].
+  - apply (fagree_trans w R lo fb gl Hw Hgl m m1); [exact L | apply (agree_fagree w R lo fb gl ng nbg S s m m1 Wf Rp A1) | exact Fa].
 Qed.
 Lemma need_args_ge args : forall S, 0 <= ws S -> top S + Z.of_nat (length args) * ws S <= need_args S args.
 Proof.
@@ -1996,20 +2271,23 @@ Proof.
 Qed.
 (* the stack in use is the frame the environment describes *)
 Lemma tight_frame_top S s m : tight S -> rep S s m -> frame_top w s = top S.
-Proof. intros T Rp. unfold frame_top. rewrite (rp_li w R lo gl ng S s m Rp), (rp_lb w R lo gl ng S s m Rp). symmetry. exact T. Qed.
+Proof. intros T Rp. unfold frame_top. rewrite (rp_li w R lo gl ng nbg S s m Rp), (rp_lb w R lo gl ng nbg S s m Rp). symmetry. exact T. Qed.
 
 (* a memory that differs below the stack top and in the globals represents the store with the new globals *)
 Lemma rep_of_gagree S s m m' G' : wf_senv S -> rep S s m -> gagree w R lo gl (FP m - top S) m m' -> greps G' m' ->
   rep S (with_g s G') m'.
 Proof.
-  intros Wf Rp A [Gn Gg]. destruct (rep_locals_gagree w R lo fb gl ng Hw Hgl S s m m' Wf Rp A) as [L' [EF [Sz [Hi [Hb Ha]]]]].
-  destruct Rp as [Rg Rlo Rh Rsz Rli Rlb Ri Rb Rap Rgl Rgn Rgg Rgd].
-  constructor; cbn [with_g si sb sg]; rewrite ?EF, ?Sz; try assumption.
+  intros Wf Rp A [[Gn Gg] [Bn Bg]]. destruct (rep_locals_gagree w R lo fb gl ng nbg Hw Hgl S s m m' Wf Rp A) as [L' [EF [Sz [Hi [Hb Ha]]]]].
+  destruct Rp as [Rg Rlo Rh Rsz Rli Rlb Ri Rb Rap Rgl Rgn Rgg Rgd Rbn Rbg Rbd].
+  constructor; cbn [with_g si sb sg sgb]; rewrite ?EF, ?Sz; try assumption.
 Qed.
 Lemma greps_setfp G m v : regs_ok w R lo m -> greps G m -> greps G (sw m fp v).
 Proof.
-  intros L [Gn Gg]. split; [exact Gn|]. intros g Hg. destruct (Gg g Hg) as [G0 [G1 G2]].
-  split; [exact G0|]. split; [rewrite inb_sw; exact G1|]. rewrite <- G2. f_equal. apply (lw_sw_other w Hw1); destruct L; lia.
+  intros L [[Gn Gg] [Bn Bg]]. split; (split; [assumption|]).
+  - intros g Hg. destruct (Gg g Hg) as [G0 [G1 G2]].
+    split; [exact G0|]. split; [rewrite inb_sw; exact G1|]. rewrite <- G2. f_equal. apply (lw_sw_other w Hw1); destruct L; lia.
+  - intros h Hh. destruct (Bg h Hh) as [G0 [G1 [G2 G3]]].
+    split; [exact G0|]. split; [rewrite inb_sw; exact G1|]. split; [|exact G3]. rewrite <- G2. apply (lb_sw_other w Hw1); destruct L; lia.
 Qed.
 (* g = f(args): the result, at frame offset top + w, loaded into the global *)
 Lemma fetch_result_glob_runs S s m g x q : wf_senv S -> rep S s m -> (g < ng)%nat -> top S + w <= FP m - lo ->
@@ -2017,8 +2295,8 @@ Lemma fetch_result_glob_runs S s m g x q : wf_senv S -> rep S s m -> (g < ng)%na
   plc [AInstr (ALwso (RGlob g) (SReg RFp) (SLit (- (top S + ws S))))] q ->
   exists m', runs (mk q m) [] (mk (q + 1) m') /\ rep S (set_g s g x) m' /\ fagree m m'.
 Proof.
-  intros Wf Rp Hg Hr Hx P. pose proof (rp_regs w R lo gl ng S s m Rp) as L. pose proof (wfs_w w fb S Wf) as Ews.
-  pose proof (wfs_fb w fb S Wf) as Ofb. destruct (rp_g w R lo gl ng S s m Rp g Hg) as [G0 [G1 G2]].
+  intros Wf Rp Hg Hr Hx P. pose proof (rp_regs w R lo gl ng nbg S s m Rp) as L. pose proof (wfs_w w fb S Wf) as Ews.
+  pose proof (wfs_fb w fb S Wf) as Ofb. destruct (rp_g w R lo gl ng nbg S s m Rp g Hg) as [G0 [G1 G2]].
   cbn [placed res_ins res_sym regaddr] in P. destruct P as [Cl _]. rewrite Ews in Cl.
   assert (Ho : 0 < top S + w <= W / 2) by (destruct Rp; lia).
   assert (I0 : inb m (FP m - (top S + w)) w = true) by (apply inb_true; destruct L, Rp; lia).
@@ -2028,6 +2306,117 @@ Proof.
   assert (Rx : inrange w (lw m (FP m - (top S + w)))) by (apply (lw_range w Hw1), (lo_wf w R lo m L)).
   destruct (rep_set_glob S s m m g _ Wf Rp (agree_refl w R lo _ m) Hg Rx) as [Rp' Fa]. rewrite Hx in Rp'.
   eexists. split; [apply (runs_next act _ _ None Al)|]. split; assumption.
+Qed.
+(* g = o  for EVERY int operand o *)
+Lemma assign_glob_runs_gen S s m g o p : wf_senv S -> rep S s m -> (g < ng)%nat -> oscoped w ng (length (ioffs S)) o ->
+  need_int S o false <= FP m - lo -> plc (assign_glob S g o) p ->
+  exists m', runs (mk p m) [] (mk (p + size (assign_glob S g o)) m') /\ rep S (set_g s g (ieval w s o)) m' /\ fagree m m'.
+Proof.
+  intros Wf Rp Hg Sc Hn P. pose proof (rp_regs w R lo gl ng nbg S s m Rp) as L.
+  destruct (sval_ieval S s m o Wf Rp Sc) as [Sv Rv]. destruct (rp_g w R lo gl ng nbg S s m Rp g Hg) as [G0 [G1 G2]].
+  pose proof (rp_gl w R lo gl ng nbg S s m Rp) as Hf. pose proof (wfs_fb w fb S Wf) as Ofb.
+  assert (Ha : 0 <= a_glob R g) by (destruct L; lia).
+  unfold assign_glob in *.
+  destruct (eval_opd (env_of S) (top S) (RGlob g) o false) as [c0 bub] eqn:Ev. destruct (pop_value (RGlob g) bub) as [c1 v] eqn:Pv.
+  rewrite app_assoc in P |- *. apply placed_app in P. destruct P as [Pe Pm].
+  destruct (eval_glob_props S s m g Wf Rp Hg o c0 bub c1 v p Sc Hn Ev Pv Pe) as [ma [m1 [A [O [Rn [Ov Hv]]]]]].
+  set (xw := wval w R (env_of S) m o) in *.
+  assert (I1 : inb m1 (a_glob R g) w = true) by (unfold inb; rewrite (proj1 O), (proj1 A); exact G1).
+  (* the final memory: the value is in the global *)
+  assert (Fin : exists mf, only_g g ma mf /\ lw mf (a_glob R g) = xw /\
+            runs (mk (p + size (c0 ++ c1)) m1) [] (mk (p + size ((c0 ++ c1) ++ (if is_state_of (RGlob g) v then [] else [AInstr (AMov (RGlob g) v)]))) mf)).
+  { destruct (is_state_of (RGlob g) v) eqn:Is.
+    - assert (Evx : v = SReg (RGlob g)).
+      { destruct v as [z|r|l|c|r|x0]; try discriminate Is. cbn [is_state_of] in Is. destruct r; try discriminate Is. cbn [reg_eqb] in Is. apply Nat.eqb_eq in Is. now subst. }
+      subst v. cbn [res_sym regaddr] in Ov. destruct (oval_st_inv w cmem m1 _ _ Ov) as [_ E].
+      exists m1. split; [exact O|]. split; [symmetry; exact E|]. rewrite app_nil_r. apply runs_refl.
+    - cbn [placed res_ins regaddr] in Pm. destruct Pm as [Cq _].
+      pose proof (act_mov w code cmem _ m1 (a_glob R g) (rs v) _ Cq Ov I1) as Am.
+      exists (sw m1 (a_glob R g) xw). split; [apply only_g_sw; assumption|]. split.
+      + rewrite (lw_sw_same w Hw1) by exact Ha. apply (wrap_small w). exact Rv.
+      + rewrite (size_app (c0 ++ c1)). cbn [size]. replace (p + (size (c0 ++ c1) + (1 + 0))) with (p + size (c0 ++ c1) + 1) by lia.
+        apply (runs_next act _ _ None Am). }
+  destruct Fin as [mf [Of [Vf Rf]]].
+  assert (Gm : gagree w R lo gl (FP m - top S) m mf).
+  { eapply (gagree_trans w R lo gl); [apply (agree_gagree w R lo gl); exact A | apply (only_g_gagree g); [lia | assumption]]. }
+  assert (Gr : greps (upd g (sgn xw) (sg s), sgb s) mf).
+  { split; cbn [fst snd].
+    2:{ split; [apply (rp_gbn w R lo gl ng nbg S s m Rp)|]. intros h Hh.
+        destruct (rp_gb w R lo gl ng nbg S s m Rp h Hh) as [B0 [B1 [B2 B3]]]. split; [exact B0|].
+        split; [unfold inb; rewrite (proj1 Of), (proj1 A); exact B1|]. split; [|exact B3]. rewrite <- B2.
+        transitivity (lb ma (a_bglob R h)).
+        - unfold Machine.lb. apply (proj2 (proj2 Of)); [destruct L; lia|]. destruct (proj2 (rp_gbd w R lo gl ng nbg S s m Rp) g h Hg Hh); lia.
+        - apply (agree_lb w R lo (FP m - top S) m ma _ A); [destruct L; lia | unfold dj; destruct L, Rp; lia]. }
+    split; [rewrite length_upd; apply (rp_gn w R lo gl ng nbg S s m Rp)|]. intros k Hk.
+    destruct (rp_g w R lo gl ng nbg S s m Rp k Hk) as [K0 [K1 K2]]. split; [exact K0|].
+    split; [unfold inb; rewrite (proj1 Of), (proj1 A); exact K1|].
+    destruct (Nat.eq_dec k g) as [->|Ne].
+    - rewrite nth_upd_same by (rewrite (rp_gn w R lo gl ng nbg S s m Rp); exact Hg). rewrite Vf. reflexivity.
+    - rewrite nth_upd_other by congruence. rewrite <- K2. f_equal.
+      rewrite (only_g_lw g ma mf _ Of); [| destruct L; lia | destruct (rp_gd w R lo gl ng nbg S s m Rp k g Hk Hg Ne); lia].
+      apply (agree_lw w R lo Hw (FP m - top S) m ma _ A); [destruct L; lia | unfold dj; destruct L, Rp; lia]. }
+  pose proof (rep_of_gagree S s m mf _ Wf Rp Gm Gr) as Rpf.
+  exists mf. split; [|split].
+  - change (@nil event) with (@nil event ++ []). eapply runs_trans; [exact Rn | exact Rf].
+  - rewrite Sv in Rpf. exact Rpf.
+  - apply (gagree_mono w R lo gl (FP m - top S)); [lia | exact Gm].
+Qed.
+(* ---------- h = e  for a bool global: get_expr_value(r1, e); sbs var_h, value ---------- *)
+Lemma act_sbs p m a v x z : code p = Some (IStore WByte a v) -> oval m a = Some x -> oval m v = Some z -> inb m x 1 = true ->
+  act (mk p m) = ANext (mk (p + 1) (Machine.sb m x z)) None.
+Proof.
+  intros C A V I. unfold Machine.act; cbn [pc]; rewrite C; cbn [Machine.exec].
+  rewrite !val_oval; cbn [mm]; rewrite A, V. unfold Machine.store; cbn [mm]; rewrite I. reflexivity.
+Qed.
+Lemma assign_bglob_runs S s m h e st c st' p : wf_senv S -> rep S s m -> (h < nbg)%nat ->
+  bscoped w ng nbg (length (ioffs S)) (length (boffs S)) e -> top S + Z.of_nat (temps_b e) * w <= FP m - lo ->
+  assign_bglob (env_of S) h e st = (c, st') -> plc c p ->
+  exists m', runs (mk p m) [] (mk (p + size c) m') /\ rep S (set_gb s h (b2z (bevals w s e))) m' /\ fagree m m'.
+Proof.
+  intros Wf Rp Hh Sc Hn Ev P. unfold assign_bglob in Ev.
+  destruct (eval_bool_value (env_of S) R1 e st) as [[c0 v] st0] eqn:E0. inversion Ev; subst c st'; clear Ev.
+  apply placed_app in P. destruct P as [P0 P1]. cbn [placed res_ins res_sym regaddr] in P1. destruct P1 as [Cq _].
+  pose proof (rep_layout w R lo fb gl ng nbg S s m Wf Rp) as Lo.
+  pose proof (rep_vars w R lo fb gl ng nbg Hw S s m e (top S) Wf Rp Sc ltac:(lia) Hn) as V.
+  pose proof (rep_norm w R lo fb gl ng nbg S s m e Wf Rp Sc) as N.
+  destruct (bool_value_runs w R (env_of S) lo Hw (wfs_w w fb S Wf) code cmem lab lab_range e st c0 v st0 p m E0 P0 Lo V N)
+    as [m1 [R1' [A1 O1]]].
+  rewrite (rep_beval w R lo fb gl ng nbg S s m e Wf Rp Sc) in O1.
+  pose proof (rp_regs w R lo gl ng nbg S s m Rp) as L. pose proof (wfs_fb w fb S Wf) as Ofb.
+  pose proof (rep_agree w R lo fb gl ng nbg Hw S s m m1 Wf Rp A1) as Rp1.
+  pose proof (rp_regs w R lo gl ng nbg S s m1 Rp1) as L1. pose proof (rp_gl w R lo gl ng nbg S s m1 Rp1) as Hf1.
+  destruct (rp_gb w R lo gl ng nbg S s m1 Rp1 h Hh) as [B0 [B1 [B2 B3]]].
+  set (a := a_bglob R h) in *. set (bv := b2z (bevals w s e)) in *.
+  assert (Ha : 0 <= a) by (destruct L1; lia).
+  assert (Oa : oval m1 (Imm a) = Some a) by (rewrite oval_imm; f_equal; apply (wrap_small w); unfold inrange; lia).
+  pose proof (act_sbs _ m1 (Imm a) (rs v) a _ Cq Oa O1 B1) as As.
+  set (m2 := Machine.sb m1 a bv) in *.
+  assert (G12 : gagree w R lo gl (FP m - top S) m1 m2).
+  { unfold m2, Machine.sb. split; [reflexivity|]. split.
+    - intros Wfm. apply wf_setb; [exact Wfm | exact Ha | apply Z.mod_pos_bound; lia].
+    - intros x X N0 N1 N2 N3 N4. apply getb_setb_other; [exact Ha | exact X | lia]. }
+  assert (Gm : gagree w R lo gl (FP m - top S) m m2).
+  { eapply (gagree_trans w R lo gl); [apply (agree_gagree w R lo gl); exact A1 | exact G12]. }
+  assert (Gr : greps (sg s, upd h bv (sgb s)) m2).
+  { split; cbn [fst snd].
+    - split; [apply (rp_gn w R lo gl ng nbg S s m1 Rp1)|]. intros g Hg.
+      destruct (rp_g w R lo gl ng nbg S s m1 Rp1 g Hg) as [K0 [K1 K2]]. split; [exact K0|].
+      split; [unfold m2, inb, Machine.sb in *; exact K1|]. rewrite <- K2. f_equal. unfold m2.
+      apply (lw_sb_other w Hw1); [exact Ha | destruct L1; lia | destruct (proj2 (rp_gbd w R lo gl ng nbg S s m1 Rp1) g h Hg Hh); lia].
+    - split; [rewrite length_upd; apply (rp_gbn w R lo gl ng nbg S s m1 Rp1)|]. intros k Hk.
+      destruct (rp_gb w R lo gl ng nbg S s m1 Rp1 k Hk) as [K0 [K1 [K2 K3]]]. split; [exact K0|].
+      split; [unfold m2, inb, Machine.sb in *; exact K1|].
+      destruct (Nat.eq_dec k h) as [->|Ne].
+      + rewrite nth_upd_same by (rewrite (rp_gbn w R lo gl ng nbg S s m1 Rp1); exact Hh). split; [|apply b2z_01].
+        unfold m2. rewrite lb_sb_same. apply Z.mod_small. unfold bv. destruct (bevals w s e); cbn; lia.
+      + rewrite nth_upd_other by congruence. split; [|exact K3]. rewrite <- K2. unfold m2, Machine.lb, Machine.sb.
+        apply getb_setb_other; [exact Ha | destruct L1; lia |]. pose proof (proj1 (rp_gbd w R lo gl ng nbg S s m1 Rp1) k h Hk Hh Ne). fold a in H. lia. }
+  pose proof (rep_of_gagree S s m m2 _ Wf Rp Gm Gr) as Rp2.
+  exists m2. split; [|split].
+  - rewrite size_app. cbn [size]. change (@nil event) with (@nil event ++ []). eapply runs_trans; [exact R1'|].
+    replace (p + (size c0 + (1 + 0))) with (p + size c0 + 1) by lia. apply (runs_next act _ _ None As).
+  - exact Rp2.
+  - apply (gagree_mono w R lo gl (FP m - top S)); [lia | exact Gm].
 Qed.
 Ltac fin_normal Rn Fa := split; [reflexivity|]; split; [exact Rn|]; split; [exact Fa|].
 Theorem stmts_runs :
@@ -2040,7 +2429,7 @@ Proof.
     intros d o s S li st C S' st' ex p m Ev P Wf Tg Rp Hd Sc Hn. cbn [lower_stmt] in Ev. inversion Ev; subst C S' st' ex; clear Ev.
     cbn [need_stmt fst sscoped] in *. apply need_max in Hn. destruct Hn as [Hn1 Hn2]. rewrite (wfs_w w fb S Wf) in Hn2.
     destruct (decl_int_runs S s m o p Wf Rp Sc Hn1 Hn2 P) as [m' [Rn [Rp' Fa]]].
-    exists m', (p + size (decl_int S o)). fin_normal Rn (agree_fagree w R lo fb gl ng S s m m' Wf Rp Fa).
+    exists m', (p + size (decl_int S o)). fin_normal Rn (agree_fagree w R lo fb gl ng nbg S s m m' Wf Rp Fa).
     split; [exact Rp' | apply wf_push_int; exact Wf].
   - (* xi = o *)
     intros d i o s Hi S li st C S' st' ex p m Ev P Wf Tg Rp Hd Sc Hn. cbn [lower_stmt] in Ev. inversion Ev; subst C S' st' ex; clear Ev.
@@ -2052,7 +2441,7 @@ Proof.
     destruct (declare_bool (env_of S) e st) as [c st1] eqn:Ed. inversion Ev; subst C S' st' ex; clear Ev.
     cbn [sscoped] in Sc.
     destruct (declare_bool_runs S s m e st c st1 p Wf Rp Sc Hn Ed P) as [m' [Rn [Rp' Fa]]].
-    exists m', (p + size c). fin_normal Rn (agree_fagree w R lo fb gl ng S s m m' Wf Rp Fa).
+    exists m', (p + size c). fin_normal Rn (agree_fagree w R lo fb gl ng nbg S s m m' Wf Rp Fa).
     split; [exact Rp' | apply wf_push_bool; exact Wf].
   - (* pj = e *)
     intros d j e s Hj S li st C S' st' ex p m Ev P Wf Tg Rp Hd Sc Hn. cbn [lower_stmt] in Ev.
@@ -2062,7 +2451,7 @@ Proof.
     exists m', (p + size c). fin_normal Rn Fa. split; assumption.
   - (* write *)
     intros d x s S li st C S' st' ex p m Ev P Wf Tg Rp Hd Sc Hn. cbn [lower_stmt] in Ev. inversion Ev; subst C S' st' ex; clear Ev.
-    assert (Hx : match x with WrByte o => oscoped w ng (length (ioffs S)) o /\ is_glob o = false /\ need_int S o false <= FP m - lo | _ => True end).
+    assert (Hx : match x with WrByte o => oscoped w ng (length (ioffs S)) o /\ need_int S o false <= FP m - lo | _ => True end).
     { destruct x; cbn [sscoped need_stmt fst] in *; tauto. }
     destruct (write_runs S s m x p Wf Rp Hx P) as [m' [Rn [Rp' Fa]]].
     exists m', (p + size (lower_write S x)). fin_normal Rn Fa. split; assumption.
@@ -2102,9 +2491,9 @@ Proof.
     apply need_max in Hn. destruct Hn as [Hnc Hn]. apply need_max in Hn. destruct Hn as [Hn1 Hn2].
     rewrite (wfs_w w fb S Wf) in Hnc.
     destruct (cond_runs S s m c el st2 cc st3 p Wf Rp Scc Hnc Ec Pcc) as [m1 [Rc A1]].
-    pose proof (rep_agree w R lo fb gl ng Hw S s m m1 Wf Rp A1) as Rp1.
-    pose proof (rp_regs w R lo gl ng S s m Rp) as L. pose proof (FP_agree w R lo Hw _ m m1 L A1) as F1.
-    pose proof (agree_fagree w R lo fb gl ng S s m m1 Wf Rp A1) as Fa1.
+    pose proof (rep_agree w R lo fb gl ng nbg Hw S s m m1 Wf Rp A1) as Rp1.
+    pose proof (rp_regs w R lo gl ng nbg S s m Rp) as L. pose proof (FP_agree w R lo Hw _ m m1 L A1) as F1.
+    pose proof (agree_fagree w R lo fb gl ng nbg S s m m1 Wf Rp A1) as Fa1.
     pose proof (ra_fagree S s m m1 Wf Rp Fa1) as Ra1.
     destruct (bevals w s c).
     + (* then *)
@@ -2119,7 +2508,7 @@ Proof.
            pose proof (goto_label w code cmem _ m2 (lab ee) Gj Gh) as G.
            rewrite (wrap_small w (lab ee) (lab_range ee)), Lee in G. close_with G.
         -- destruct Po as [Rp2 _]. split; [|exact Wf].
-           apply (rep_shrink S S1 s s' m2 X1 (rp_li w R lo gl ng S s m Rp) (rp_lb w R lo gl ng S s m Rp) Rp2).
+           apply (rep_shrink S S1 s s' m2 X1 (rp_li w R lo gl ng nbg S s m Rp) (rp_lb w R lo gl ng nbg S s m Rp) Rp2).
       * exists m2, pc2. split; [rewrite <- Ex; apply exit_pc_exit; exact Nn|]. split; [|split; [exact Fa|]].
         -- change (map EOut evs) with ([] ++ map EOut evs). eapply runs_trans; [exact Rc | exact Rn].
         -- apply (post_exit S S1 S s s' out m m1 m2 Nn F1 Po).
@@ -2134,7 +2523,7 @@ Proof.
         -- change (map EOut evs) with ([] ++ map EOut evs).
            eapply runs_trans; [exact Rc|]. cbn [size goto] in Rn. close_with Rn.
         -- destruct Po as [Rp2 _]. split; [|exact Wf].
-           apply (rep_shrink S S2 s s' m2 X2 (rp_li w R lo gl ng S s m Rp) (rp_lb w R lo gl ng S s m Rp) Rp2).
+           apply (rep_shrink S S2 s s' m2 X2 (rp_li w R lo gl ng nbg S s m Rp) (rp_lb w R lo gl ng nbg S s m Rp) Rp2).
       * exists m2, pc2. split; [rewrite <- Ex; apply exit_pc_exit; exact Nn|]. split; [|split; [exact Fa|]].
         -- change (map EOut evs) with ([] ++ map EOut evs). eapply runs_trans; [exact Rc | exact Rn].
         -- apply (post_exit S S2 S s s' out m m1 m2 Nn F1 Po).
@@ -2151,9 +2540,9 @@ Proof.
     cbn [sscoped need_stmt fst] in Sc, Hn. destruct Sc as [Scc [Sc1 Sc2]].
     apply need_max in Hn. destruct Hn as [Hnc Hn]. rewrite (wfs_w w fb S Wf) in Hnc.
     destruct (cond_runs S s m c lb st3 cc st4 p Wf Rp Scc Hnc Ec Pcc) as [m1 [Rc A1]]. rewrite Hc in Rc.
-    eexists m1, _. split; [reflexivity|]. split; [|split; [apply (agree_fagree w R lo fb gl ng S s m m1 Wf Rp A1)|]].
+    eexists m1, _. split; [reflexivity|]. split; [|split; [apply (agree_fagree w R lo fb gl ng nbg S s m m1 Wf Rp A1)|]].
     + cbn [map]. rewrite Llb in Rc. close_with Rc.
-    + split; [apply (rep_agree w R lo fb gl ng Hw S s m m1 Wf Rp A1) | exact Wf].
+    + split; [apply (rep_agree w R lo fb gl ng nbg Hw S s m m1 Wf Rp A1) | exact Wf].
   - (* while: the body breaks *)
     intros d c b k s evs s1 Hc Hb IHb S li st C S' st' ex p m Ev P Wf Tg Rp Hd Sc Hn. cbn [lower_stmt] in Ev.
     destruct (add_label LLoop st) as [ls st1]. destruct (add_label LContinue st1) as [lc st2]. destruct (add_label LBreak st2) as [lb st3].
@@ -2167,14 +2556,14 @@ Proof.
     cbn [sscoped need_stmt fst] in Sc, Hn. destruct Sc as [Scc [Sc1 Sc2]].
     apply need_max in Hn. destruct Hn as [Hnc Hn]. apply need_max in Hn. destruct Hn as [Hn1 Hn2]. rewrite (wfs_w w fb S Wf) in Hnc.
     destruct (cond_runs S s m c lb st3 cc st4 p Wf Rp Scc Hnc Ec Pcc) as [m1 [Rc A1]]. rewrite Hc in Rc.
-    pose proof (rep_agree w R lo fb gl ng Hw S s m m1 Wf Rp A1) as Rp1.
-    pose proof (rp_regs w R lo gl ng S s m Rp) as L. pose proof (FP_agree w R lo Hw _ m m1 L A1) as F1.
+    pose proof (rep_agree w R lo fb gl ng nbg Hw S s m m1 Wf Rp A1) as Rp1.
+    pose proof (rp_regs w R lo gl ng nbg S s m Rp) as L. pose proof (FP_agree w R lo Hw _ m m1 L A1) as F1.
     destruct (IHb S (Some (lc, lb)) st4 c1 S1 st5 ex1 (p + size cc) m1 E1 Pc1 Wf Tg Rp1 ltac:(rewrite F1; exact Hd) Sc1 ltac:(rewrite F1; exact Hn1))
       as [m2 [pc2 [Ex [Rn [Fa2 Po]]]]].
     cbn [exit_pc] in Ex. inversion Ex; subst pc2. cbn [post frame_post] in Po, Fa2.
     eexists m2, _. split; [reflexivity|]. split; [|split].
     + change (map EOut evs) with ([] ++ map EOut evs). eapply runs_trans; [exact Rc|]. rewrite Llb in Rn. close_with Rn.
-    + apply (fagree_trans w R lo fb gl Hw Hgl m m1 m2 L); [apply (agree_fagree w R lo fb gl ng S s m m1 Wf Rp A1) | exact Fa2].
+    + apply (fagree_trans w R lo fb gl Hw Hgl m m1 m2 L); [apply (agree_fagree w R lo fb gl ng nbg S s m m1 Wf Rp A1) | exact Fa2].
     + split; [exact Po | exact Wf].
   - (* while: the body returns or faults *)
     intros d c b k s evs out s1 Hc Hb IHb Lv S li st C S' st' ex p m Ev P Wf Tg Rp Hd Sc Hn. cbn [lower_stmt] in Ev.
@@ -2187,9 +2576,9 @@ Proof.
     cbn [sscoped need_stmt fst] in Sc, Hn. destruct Sc as [Scc [Sc1 Sc2]].
     apply need_max in Hn. destruct Hn as [Hnc Hn]. apply need_max in Hn. destruct Hn as [Hn1 Hn2]. rewrite (wfs_w w fb S Wf) in Hnc.
     destruct (cond_runs S s m c lb st3 cc st4 p Wf Rp Scc Hnc Ec Pcc) as [m1 [Rc A1]]. rewrite Hc in Rc.
-    pose proof (rep_agree w R lo fb gl ng Hw S s m m1 Wf Rp A1) as Rp1.
-    pose proof (rp_regs w R lo gl ng S s m Rp) as L. pose proof (FP_agree w R lo Hw _ m m1 L A1) as F1.
-    pose proof (agree_fagree w R lo fb gl ng S s m m1 Wf Rp A1) as Fa1. pose proof (ra_fagree S s m m1 Wf Rp Fa1) as Ra1.
+    pose proof (rep_agree w R lo fb gl ng nbg Hw S s m m1 Wf Rp A1) as Rp1.
+    pose proof (rp_regs w R lo gl ng nbg S s m Rp) as L. pose proof (FP_agree w R lo Hw _ m m1 L A1) as F1.
+    pose proof (agree_fagree w R lo fb gl ng nbg S s m m1 Wf Rp A1) as Fa1. pose proof (ra_fagree S s m m1 Wf Rp Fa1) as Ra1.
     destruct (IHb S (Some (lc, lb)) st4 c1 S1 st5 ex1 (p + size cc) m1 E1 Pc1 Wf Tg Rp1 ltac:(rewrite F1; exact Hd) Sc1 ltac:(rewrite F1; exact Hn1))
       as [m2 [pc2 [Ex [Rn [Fa2 Po]]]]].
     rewrite Ra1 in Ex. exists m2, pc2. split; [rewrite <- Ex; apply exit_pc_leaves; exact Lv|].
@@ -2210,15 +2599,15 @@ Proof.
     cbn [sscoped need_stmt fst] in Sc, Hn. destruct Sc as [Scc [Sc1 Sc2]].
     apply need_max in Hn. destruct Hn as [Hnc Hn]. apply need_max in Hn. destruct Hn as [Hn1 Hn2]. rewrite (wfs_w w fb S Wf) in Hnc.
     destruct (cond_runs S s m c lb st3 cc st4 p Wf Rp Scc Hnc Ec Pcc) as [m1 [Rc A1]]. rewrite Hc in Rc.
-    pose proof (rep_agree w R lo fb gl ng Hw S s m m1 Wf Rp A1) as Rp1.
-    pose proof (rp_regs w R lo gl ng S s m Rp) as L. pose proof (FP_agree w R lo Hw _ m m1 L A1) as F1.
-    pose proof (agree_fagree w R lo fb gl ng S s m m1 Wf Rp A1) as Fa1.
+    pose proof (rep_agree w R lo fb gl ng nbg Hw S s m m1 Wf Rp A1) as Rp1.
+    pose proof (rp_regs w R lo gl ng nbg S s m Rp) as L. pose proof (FP_agree w R lo Hw _ m m1 L A1) as F1.
+    pose proof (agree_fagree w R lo fb gl ng nbg S s m m1 Wf Rp A1) as Fa1.
     destruct (IHb S (Some (lc, lb)) st4 c1 S1 st5 ex1 (p + size cc) m1 E1 Pc1 Wf Tg Rp1 ltac:(rewrite F1; exact Hd) Sc1 ltac:(rewrite F1; exact Hn1))
       as [m2 [pc2 [Ex [Rn [Fa2 Po]]]]].
     assert (B2 : pc2 = lab lc /\ rep S (trunc s s1) m2 /\ fagree m1 m2).
     { destruct Nb as [-> | ->]; cbn [exit_pc post frame_post] in Ex, Po, Fa2.
       - inversion Ex; subst pc2. split; [rewrite Llc; lia|]. destruct Po as [Rp2 _]. split; [|exact Fa2].
-        apply (rep_shrink S S1 s s1 m2 X1 (rp_li w R lo gl ng S s m Rp) (rp_lb w R lo gl ng S s m Rp) Rp2).
+        apply (rep_shrink S S1 s s1 m2 X1 (rp_li w R lo gl ng nbg S s m Rp) (rp_lb w R lo gl ng nbg S s m Rp) Rp2).
       - inversion Ex; subst pc2. split; [reflexivity | split; [exact Po | exact Fa2]]. }
     destruct B2 as [-> [Rp2 Fa2']].
     pose proof (fagree_trans w R lo fb gl Hw Hgl m m1 m2 L Fa1 Fa2') as Fa12.
@@ -2231,8 +2620,8 @@ Proof.
       eapply runs_trans; [exact Rc|]. eapply runs_trans; [exact Rn | exact Rn3].
     + apply (post_exit S S2 S s s2 out2 m m m3 Nn2 eq_refl).
       apply (post_rebase S S2 s (trunc s s1) s2 out2 m m2 m3); [| | exact F2 | exact Po3].
-      * rewrite (rp_li w R lo gl ng S _ m2 Rp2), (rp_li w R lo gl ng S s m Rp). reflexivity.
-      * rewrite (rp_lb w R lo gl ng S _ m2 Rp2), (rp_lb w R lo gl ng S s m Rp). reflexivity.
+      * rewrite (rp_li w R lo gl ng nbg S _ m2 Rp2), (rp_li w R lo gl ng nbg S s m Rp). reflexivity.
+      * rewrite (rp_lb w R lo gl ng nbg S _ m2 Rp2), (rp_lb w R lo gl ng nbg S s m Rp). reflexivity.
   - (* while: one more iteration *)
     intros d c b k s e1 out1 s1 e2 s2 e3 out3 s3 Hc Hb IHb Nb Hk IHk Hw' IHw S li st C S' st' ex p m Ev P Wf Tg Rp Hd Sc Hn.
     pose proof Ev as Ev0. pose proof P as P0. cbn [lower_stmt] in Ev.
@@ -2250,16 +2639,16 @@ Proof.
     cbn [sscoped need_stmt fst] in Sc, Hn. destruct Sc as [Scc [Sc1 Sc2]].
     apply need_max in Hn. destruct Hn as [Hnc Hn]. apply need_max in Hn. destruct Hn as [Hn1 Hn2]. rewrite (wfs_w w fb S Wf) in Hnc.
     destruct (cond_runs S s m c lb st3 cc st4 p Wf Rp Scc Hnc Ec Pcc) as [m1 [Rc A1]]. rewrite Hc in Rc.
-    pose proof (rep_agree w R lo fb gl ng Hw S s m m1 Wf Rp A1) as Rp1.
-    pose proof (rp_regs w R lo gl ng S s m Rp) as L. pose proof (FP_agree w R lo Hw _ m m1 L A1) as F1.
-    pose proof (agree_fagree w R lo fb gl ng S s m m1 Wf Rp A1) as Fa1.
+    pose proof (rep_agree w R lo fb gl ng nbg Hw S s m m1 Wf Rp A1) as Rp1.
+    pose proof (rp_regs w R lo gl ng nbg S s m Rp) as L. pose proof (FP_agree w R lo Hw _ m m1 L A1) as F1.
+    pose proof (agree_fagree w R lo fb gl ng nbg S s m m1 Wf Rp A1) as Fa1.
     (* the body: ends at the continue label, normally or by `continue` *)
     destruct (IHb S (Some (lc, lb)) st4 c1 S1 st5 ex1 (p + size cc) m1 E1 Pc1 Wf Tg Rp1 ltac:(rewrite F1; exact Hd) Sc1 ltac:(rewrite F1; exact Hn1))
       as [m2 [pc2 [Ex [Rn [Fa2 Po]]]]].
     assert (B2 : pc2 = lab lc /\ rep S (trunc s s1) m2 /\ fagree m1 m2).
     { destruct Nb as [-> | ->]; cbn [exit_pc post frame_post] in Ex, Po, Fa2.
       - inversion Ex; subst pc2. split; [rewrite Llc; lia|]. destruct Po as [Rp2 _]. split; [|exact Fa2].
-        apply (rep_shrink S S1 s s1 m2 X1 (rp_li w R lo gl ng S s m Rp) (rp_lb w R lo gl ng S s m Rp) Rp2).
+        apply (rep_shrink S S1 s s1 m2 X1 (rp_li w R lo gl ng nbg S s m Rp) (rp_lb w R lo gl ng nbg S s m Rp) Rp2).
       - inversion Ex; subst pc2. split; [reflexivity | split; [exact Po | exact Fa2]]. }
     destruct B2 as [-> [Rp2 Fa2']].
     pose proof (fagree_trans w R lo fb gl Hw Hgl m m1 m2 L Fa1 Fa2') as Fa12.
@@ -2268,9 +2657,9 @@ Proof.
     destruct (IHk S li st5 c2 S2 st6 ex2 _ m2 E2 Pc2 Wf Tg Rp2 ltac:(rewrite F2; exact Hd) Sc2 ltac:(rewrite F2; exact Hn2))
       as [m3 [pc3 [Ex3 [Rn3 [Fa3 Po3]]]]].
     cbn [exit_pc post frame_post] in Ex3, Po3, Fa3. inversion Ex3; subst pc3. destruct Po3 as [Rp3 _].
-    pose proof (rep_shrink S S2 (trunc s s1) s2 m3 X2 (rp_li w R lo gl ng S _ m2 Rp2) (rp_lb w R lo gl ng S _ m2 Rp2) Rp3) as Rp3'.
+    pose proof (rep_shrink S S2 (trunc s s1) s2 m3 X2 (rp_li w R lo gl ng nbg S _ m2 Rp2) (rp_lb w R lo gl ng nbg S _ m2 Rp2) Rp3) as Rp3'.
     assert (Et : trunc (trunc s s1) s2 = trunc s s2).
-    { apply trunc_same_len; [rewrite (rp_li w R lo gl ng S _ m2 Rp2), (rp_li w R lo gl ng S s m Rp) | rewrite (rp_lb w R lo gl ng S _ m2 Rp2), (rp_lb w R lo gl ng S s m Rp)]; reflexivity. }
+    { apply trunc_same_len; [rewrite (rp_li w R lo gl ng nbg S _ m2 Rp2), (rp_li w R lo gl ng nbg S s m Rp) | rewrite (rp_lb w R lo gl ng nbg S _ m2 Rp2), (rp_lb w R lo gl ng nbg S s m Rp)]; reflexivity. }
     rewrite Et in Rp3'.
     pose proof (fagree_trans w R lo fb gl Hw Hgl m m2 m3 L Fa12 Fa3) as Fa13.
     pose proof (FP_fagree w R lo fb gl Hw Hgl m m3 L Fa13) as F3. pose proof (ra_fagree S s m m3 Wf Rp Fa13) as Ra3.
@@ -2287,8 +2676,8 @@ Proof.
       eapply runs_trans; [exact Rc|]. eapply runs_trans; [exact Rn|].
       eapply runs_trans; [exact Rn3|]. eapply runs_trans; [exact G | exact Rn4].
     + apply (post_rebase S S s (trunc s s2) s3 out3 m m3 m4); [| | exact F3 | exact Po4].
-      * rewrite (rp_li w R lo gl ng S _ m3 Rp3'), (rp_li w R lo gl ng S s m Rp). reflexivity.
-      * rewrite (rp_lb w R lo gl ng S _ m3 Rp3'), (rp_lb w R lo gl ng S s m Rp). reflexivity.
+      * rewrite (rp_li w R lo gl ng nbg S _ m3 Rp3'), (rp_li w R lo gl ng nbg S s m Rp). reflexivity.
+      * rewrite (rp_lb w R lo gl ng nbg S _ m3 Rp3'), (rp_lb w R lo gl ng nbg S s m Rp). reflexivity.
   - (* block *)
     intros d ss s evs out s' Hx IH S li st C S' st' ex p m Ev P Wf Tg Rp Hd Sc Hn. cbn [lower_stmt] in Ev.
     pose proof (lower_stmts_extends ss S li st ltac:(rewrite (wfs_w w fb S Wf); lia)) as X1.
@@ -2298,7 +2687,7 @@ Proof.
     exists m2, pc2. split; [exact Ex|]. split; [exact Rn|]. split; [exact Fa|].
     destruct (outcome_normal_dec out) as [-> | Nn]; [|apply (post_exit S S1 S s s' out m m m2 Nn eq_refl Po)].
     destruct Po as [Rp2 _]. split; [|exact Wf].
-    apply (rep_shrink S S1 s s' m2 X1 (rp_li w R lo gl ng S s m Rp) (rp_lb w R lo gl ng S s m Rp) Rp2).
+    apply (rep_shrink S S1 s s' m2 X1 (rp_li w R lo gl ng nbg S s m Rp) (rp_lb w R lo gl ng nbg S s m Rp) Rp2).
   - (* break *)
     intros d s S li st C S' st' ex p m Ev P Wf Tg Rp Hd Sc Hn. cbn [lower_stmt sscoped] in Ev, Sc.
     destruct li as [[lc lb]|]; [|discriminate Sc]. inversion Ev; subst C S' st' ex; clear Ev.
@@ -2319,7 +2708,7 @@ Proof.
     cbn [sscoped need_stmt fst] in Sc, Hn. destruct Sc as [Hop [Sa [Sb Hl]]].
     apply need_max in Hn. destruct Hn as [Hn1 Hn2]. rewrite (wfs_w w fb S Wf) in Hn2.
     destruct (decldiv_runs S s m op a b da p Hl Wf Rp Hop Sa Sb Hn1 Hn2 P) as [Ok _]. destruct (Ok Nz) as [m' [Rn [Rp' A]]].
-    eexists m', _. fin_normal Rn (agree_fagree w R lo fb gl ng S s m m' Wf Rp A). split; [exact Rp' | apply wf_push_int; exact Wf].
+    eexists m', _. fin_normal Rn (agree_fagree w R lo fb gl ng nbg S s m m' Wf Rp A). split; [exact Rp' | apply wf_push_int; exact Wf].
   - (* int x = a / 0 *)
     intros d op a b s Z0 S li st C S' st' ex p m Ev P Wf Tg Rp Hd Sc Hn. cbn [lower_stmt] in Ev.
     destruct (add_label LDivAllowed st) as [da st1]. inversion Ev; subst C S' st' ex; clear Ev.
@@ -2344,7 +2733,7 @@ Proof.
     destruct (add_label LEndCall st) as [ec st1]. inversion Ev; subst C S' st' ex; clear Ev.
     cbn [sscoped need_stmt fst] in Sc, Hn. destruct Sc as [Sd [Cf [Sa Hl]]].
     pose proof (wfs_w w fb S Wf) as Ews. apply need_max in Hn. destruct Hn as [Hn1 Hn2]. rewrite Ews in Hn1.
-    pose proof (rp_regs w R lo gl ng S s m Rp) as L.
+    pose proof (rp_regs w R lo gl ng nbg S s m Rp) as L.
     unfold lower_call in P. apply placed_app in P. destruct P as [Pra P]. apply placed_app in P. destruct P as [Pargs P].
     apply placed_app in P. destruct P as [Pcall Pdst].
     destruct (push_ra_runs S s m ec p Wf Rp Hn1 Pra) as [Rra [Ara [Rpa Vra]]].
@@ -2362,19 +2751,19 @@ Proof.
     pose proof Hl as [Hfp [H0 [H1 [H2 [CA [BR Hap]]]]]].
     assert (Lwb : forall a, fp + w <= a -> lw m1 a = lw mb a).
     { intros a Ha. apply (lw_agree w Hw). intros x Hx. apply G1; destruct L; lia. }
-    pose proof (rep_agree w R lo fb gl ng Hw S s m mb Wf Rp A0b) as Rpb.
-    assert (Grb : greps (sg s) m1) by (apply greps_setfp; [apply (rp_regs w R lo gl ng S s mb Rpb) | apply (rep_greps S s mb Rpb)]).
+    pose proof (rep_agree w R lo fb gl ng nbg Hw S s m mb Wf Rp A0b) as Rpb.
+    assert (Grb : greps (gs_of s) m1) by (apply greps_setfp; [apply (rp_regs w R lo gl ng nbg S s mb Rpb) | apply (rep_greps S s mb Rpb)]).
     destruct (IHc m1 Hl ltac:(rewrite map_length; exact Cf) L1 ltac:(rewrite F1, Eft, Hd; lia)
                 ltac:(rewrite F1; destruct Rp; lia) ltac:(rewrite F1, Sz1, (proj1 A0b); destruct Rp; lia)) as [m2 Res].
     { intros Ap. replace (lw m1 (a_ap R)) with (lw mb (a_ap R)).
-      - rewrite (ap_agree w R lo Hw _ m mb Ap A0b). apply (rp_ap w R lo gl ng S s m Rp Ap).
+      - rewrite (ap_agree w R lo Hw _ m mb Ap A0b). apply (rp_ap w R lo gl ng nbg S s m Rp Ap).
       - symmetry. apply (lw_agree w Hw). intros x Hx. apply G1; rewrite Hap, Hfp in *; lia. }
     { intros k Hk. rewrite map_length in Hk. rewrite F1. specialize (Vargs k Hk).
       change 0 with (ieval w s (OLit 0)). rewrite map_nth. rewrite <- Vargs. f_equal. rewrite Lwb by (rewrite Hfp; destruct L, Rp; nia).
       f_equal. lia. }
-    { rewrite F1. pose proof (rp_gl w R lo gl ng S s m Rp). lia. }
+    { rewrite F1. pose proof (rp_gl w R lo gl ng nbg S s m Rp). lia. }
     { exact Grb. }
-    { apply (rp_gd w R lo gl ng S s m Rp). }
+    { apply (rep_glayout S s m Rp). }
     destruct Res as [Rc [A2 [Vr Gr]]]. rewrite F1 in Rc, A2, Vr.
     destruct (user_call_runs S s m mb ec f _ evs (fun x => match v with Some xv => sgn x = xv | None => True end) (fun mm => greps G' mm /\ regs_ok w R lo mm)
                 Wf Rp A0b Hn1 Vrb Pcall) as [m3 [Rcall [A3 [Q3 [m2' [[Gr2 L2'] [E3 _]]]]]]].
@@ -2418,7 +2807,7 @@ Proof.
     destruct (add_label LEndCall st) as [ec st1]. inversion Ev; subst C S' st' ex; clear Ev.
     cbn [sscoped need_stmt fst] in Sc, Hn. destruct Sc as [Sd [Cf [Sa Hl]]].
     pose proof (wfs_w w fb S Wf) as Ews. apply need_max in Hn. destruct Hn as [Hn1 Hn2]. rewrite Ews in Hn1.
-    pose proof (rp_regs w R lo gl ng S s m Rp) as L.
+    pose proof (rp_regs w R lo gl ng nbg S s m Rp) as L.
     unfold lower_call in P. apply placed_app in P. destruct P as [Pra P]. apply placed_app in P. destruct P as [Pargs P].
     apply placed_app in P. destruct P as [Pcall Pdst].
     destruct (push_ra_runs S s m ec p Wf Rp Hn1 Pra) as [Rra [Ara [Rpa Vra]]].
@@ -2434,43 +2823,58 @@ Proof.
     pose proof Hl as [Hfp [H0 [H1 [H2 [CA [BR Hap]]]]]].
     assert (Lwb : forall a, fp + w <= a -> lw m1 a = lw mb a).
     { intros a Ha. apply (lw_agree w Hw). intros x Hx. apply G1; destruct L; lia. }
-    pose proof (rep_agree w R lo fb gl ng Hw S s m mb Wf Rp A0b) as Rpb.
-    assert (Grb : greps (sg s) m1) by (apply greps_setfp; [apply (rp_regs w R lo gl ng S s mb Rpb) | apply (rep_greps S s mb Rpb)]).
+    pose proof (rep_agree w R lo fb gl ng nbg Hw S s m mb Wf Rp A0b) as Rpb.
+    assert (Grb : greps (gs_of s) m1) by (apply greps_setfp; [apply (rp_regs w R lo gl ng nbg S s mb Rpb) | apply (rep_greps S s mb Rpb)]).
     destruct (IHc m1 Hl ltac:(rewrite map_length; exact Cf) L1 ltac:(rewrite F1, Eft, Hd; lia)
                 ltac:(rewrite F1; destruct Rp; lia) ltac:(rewrite F1, Sz1, (proj1 A0b); destruct Rp; lia)) as [m2 Res].
     { intros Ap. replace (lw m1 (a_ap R)) with (lw mb (a_ap R)).
-      - rewrite (ap_agree w R lo Hw _ m mb Ap A0b). apply (rp_ap w R lo gl ng S s m Rp Ap).
+      - rewrite (ap_agree w R lo Hw _ m mb Ap A0b). apply (rp_ap w R lo gl ng nbg S s m Rp Ap).
       - symmetry. apply (lw_agree w Hw). intros x Hx. apply G1; rewrite Hap, Hfp in *; lia. }
     { intros k Hk. rewrite map_length in Hk. rewrite F1. specialize (Vargs k Hk).
       change 0 with (ieval w s (OLit 0)). rewrite map_nth. rewrite <- Vargs. f_equal. rewrite Lwb by (rewrite Hfp; destruct L, Rp; nia).
       f_equal. lia. }
-    { rewrite F1. pose proof (rp_gl w R lo gl ng S s m Rp). lia. }
+    { rewrite F1. pose proof (rp_gl w R lo gl ng nbg S s m Rp). lia. }
     { exact Grb. }
-    { apply (rp_gd w R lo gl ng S s m Rp). }
+    { apply (rep_glayout S s m Rp). }
     exists m2, (a_lib R + fault_off ft). split; [reflexivity|]. split; [|split; exact I].
     change (map EOut evs) with ([] ++ ([] ++ ([] ++ map EOut evs))). eapply runs_trans; [exact Rra|].
     eapply runs_trans; [cbn [size]; replace (p + (1 + 0)) with (p + 1) by lia; exact Rargs|].
     eapply runs_trans; [apply (call_enter S s m mb ec f _ Wf Rp A0b Pcall) | exact Res].
   - (* g = o *)
     intros d g o s Hg S li st C S' st' ex p m Ev P Wf Tg Rp Hd Sc Hn. cbn [lower_stmt] in Ev. inversion Ev; subst C S' st' ex; clear Ev.
-    cbn [sscoped need_stmt fst] in Sc, Hn. destruct Sc as [Sg [So Nu]].
-    destruct (assign_glob_runs S s m g o p Wf Rp Sg So Nu Hn P) as [m' [Rn [Rp' Fa]]].
+    cbn [sscoped need_stmt fst] in Sc, Hn. destruct Sc as [Sg So].
+    destruct (assign_glob_runs_gen S s m g o p Wf Rp Sg So Hn P) as [m' [Rn [Rp' Fa]]].
     eexists m', _. fin_normal Rn Fa. split; assumption.
-  - (* g = a / b: outside the proved fragment *)
-    intros d g op a b s Hg Nz S li st C S' st' ex p m Ev P Wf Tg Rp Hd Sc Hn. destruct Sc.
-  - intros d g op a b s Z0 S li st C S' st' ex p m Ev P Wf Tg Rp Hd Sc Hn. destruct Sc.
+  - (* g = a / b *)
+    intros d g op a b s Hg Nz S li st C S' st' ex p m Ev P Wf Tg Rp Hd Sc Hn. cbn [lower_stmt] in Ev.
+    destruct (add_label LDivAllowed st) as [da st1]. inversion Ev; subst C S' st' ex; clear Ev.
+    cbn [sscoped need_stmt fst] in Sc, Hn. destruct Sc as [Sg [Hop [Sa [Sb Hl]]]].
+    destruct (assign_glob_div_runs S s m g op a b da p Hl Wf Rp Sg Hop Sa Sb Hn P) as [Ok _]. destruct (Ok Nz) as [m' [Rn [Rp' Fa]]].
+    eexists m', _. fin_normal Rn Fa. split; assumption.
+  - (* g = a / 0 *)
+    intros d g op a b s Z0 S li st C S' st' ex p m Ev P Wf Tg Rp Hd Sc Hn. cbn [lower_stmt] in Ev.
+    destruct (add_label LDivAllowed st) as [da st1]. inversion Ev; subst C S' st' ex; clear Ev.
+    cbn [sscoped need_stmt fst] in Sc, Hn. destruct Sc as [Sg [Hop [Sa [Sb Hl]]]].
+    destruct (assign_glob_div_runs S s m g op a b da p Hl Wf Rp Sg Hop Sa Sb Hn P) as [_ Fl]. destruct (Fl Z0) as [m' Rn].
+    exists m', div_stub. split; [reflexivity|]. split; [exact Rn|]. split; exact I.
+  - (* h = e, bool global *)
+    intros d h e s Hh S li st C S' st' ex p m Ev P Wf Tg Rp Hd Sc Hn. cbn [lower_stmt] in Ev.
+    destruct (assign_bglob (env_of S) h e st) as [c0 st0] eqn:E0. inversion Ev; subst C S' st' ex; clear Ev.
+    cbn [sscoped need_stmt fst] in Sc, Hn. destruct Sc as [Sg So]. rewrite (wfs_w w fb S Wf) in Hn.
+    destruct (assign_bglob_runs S s m h e st c0 st0 p Wf Rp Sg So Hn E0 P) as [m' [Rn [Rp' Fa]]].
+    eexists m', _. fin_normal Rn Fa. split; assumption.
   - (* return; *)
     intros d s S li st C S' st' ex p m Ev P Wf Tg Rp Hd Sc Hn. cbn [lower_stmt] in Ev. inversion Ev; subst C S' st' ex; clear Ev.
     destruct (return_runs S s m None p Wf Rp I P) as [m' [Rn [A _]]].
-    pose proof (rp_regs w R lo gl ng S s m Rp) as L.
+    pose proof (rp_regs w R lo gl ng nbg S s m Rp) as L.
     exists m', (lw m (FP m - w)). split; [reflexivity|]. split; [exact Rn|]. split; [apply (agree_gagree w R lo gl); exact A|].
-    split; [exact I|]. split; [apply (rp_gn w R lo gl ng S s m Rp)|]. apply (glob_agree w R lo gl ng Hw Hgl S s m m' _ Rp A). lia.
+    split; [exact I|]. apply (greps_agree S s m m' _ Rp A). lia.
   - (* return o; *)
     intros d o s S li st C S' st' ex p m Ev P Wf Tg Rp Hd Sc Hn. cbn [lower_stmt] in Ev. inversion Ev; subst C S' st' ex; clear Ev.
     cbn [sscoped need_stmt fst] in Sc, Hn.
     destruct (return_runs S s m (Some o) p Wf Rp (conj Sc Hn) P) as [m' [Rn [A V]]].
     exists m', (lw m (FP m - w)). split; [reflexivity|]. split; [exact Rn|]. split; [apply (agree_gagree w R lo gl); exact A|].
-    split; [exact V|]. split; [apply (rp_gn w R lo gl ng S s m Rp)|]. apply (glob_agree w R lo gl ng Hw Hgl S s m m' _ Rp A). lia.
+    split; [exact V|]. apply (greps_agree S s m m' _ Rp A). lia.
   - (* the empty list *)
     intros d s S li st C S' st' ex p m Ev P Wf Tg Rp Hd Sc Hn. cbn [lower_stmts] in Ev. inversion Ev; subst C S' st' ex; clear Ev.
     exists m, (p + size []). split; [reflexivity|]. cbn [size map]. replace (p + 0) with p by lia.
@@ -2488,13 +2892,13 @@ Proof.
     destruct (need_stmt S s) as [n S1'] eqn:En. cbn [snd] in Ee, Tg1. subst S1'. apply need_max in Hn. destruct Hn as [Hns Hnr].
     destruct (IH1 S li st c S1 st1 false p m E1 Pc Wf Tg Rp Hd Scs ltac:(rewrite En; exact Hns)) as [m1 [pc1 [Ex1 [Rn1 [Fa1 Po1]]]]].
     cbn [exit_pc post frame_post] in Ex1, Po1, Fa1. inversion Ex1; subst pc1. destruct Po1 as [Rp1 Wf1].
-    pose proof (rp_regs w R lo gl ng S s0 m Rp) as L. pose proof (FP_fagree w R lo fb gl Hw Hgl m m1 L Fa1) as F1.
+    pose proof (rp_regs w R lo gl ng nbg S s0 m Rp) as L. pose proof (FP_fagree w R lo fb gl Hw Hgl m m1 L Fa1) as F1.
     pose proof (ra_fagree S s0 m m1 Wf Rp Fa1) as Ra1.
     assert (X1 : extends S S1).
     { pose proof (need_stmt_extends S s ltac:(rewrite (wfs_w w fb S Wf); lia)) as X. rewrite En in X. exact X. }
-    assert (Scr' : ssscoped w ng lib_hyps cf (length (ioffs S1)) (length (boffs S1)) (in_loop li) r).
+    assert (Scr' : ssscoped w ng nbg lib_hyps cf (length (ioffs S1)) (length (boffs S1)) (in_loop li) r).
     { assert (Es : S1 = snd (need_stmt S s)) by (rewrite En; reflexivity).
-      destruct s as [o|i o|e|j e|x| |ln o|ln e|c0 t1 t2|c0 b k|ss| | |op a b|i op a b|dst f args|rv|gg og|gg gop ga gb]; try destruct x; try destruct dst; try destruct rv;
+      destruct s as [o|i o|e|j e|x| |ln o|ln e|c0 t1 t2|c0 b k|ss| | |op a b|i op a b|dst f args|rv|gg og|gg gop ga gb|hh eh]; try destruct x; try destruct dst; try destruct rv;
         cbn [need_stmt need_bool_decl snd] in Es; subst S1;
         cbn [push_int push_bool ioffs boffs]; rewrite ?app_length; cbn [length]; rewrite ?Nat.add_1_r; exact Scr. }
     destruct (IH2 S1 li st1 cr S2 st2 ex2 (p + size c) m1 E2 Pr Wf1 Tg1 Rp1 ltac:(rewrite F1; exact Hd) Scr' ltac:(rewrite F1; exact Hnr))
@@ -2504,9 +2908,9 @@ Proof.
     + rewrite <- Ex2. rewrite size_app. replace (p + (size c + size cr)) with (p + size c + size cr) by lia. reflexivity.
     + rewrite map_app. eapply runs_trans; [exact Rn1 | exact Rn2].
     + destruct out; cbn [post] in Po2 |- *; try exact Po2; try exact I.
-      * pose proof (rep_shrink S S1 s0 _ m2 X1 (rp_li w R lo gl ng S s0 m Rp) (rp_lb w R lo gl ng S s0 m Rp) Po2) as Rs.
+      * pose proof (rep_shrink S S1 s0 _ m2 X1 (rp_li w R lo gl ng nbg S s0 m Rp) (rp_lb w R lo gl ng nbg S s0 m Rp) Po2) as Rs.
         destruct (rep_len_le S S1 s0 s1 m m1 X1 Rp Rp1) as [La Lb]. rewrite (trunc_trunc s0 s1 s2 La Lb) in Rs. exact Rs.
-      * pose proof (rep_shrink S S1 s0 _ m2 X1 (rp_li w R lo gl ng S s0 m Rp) (rp_lb w R lo gl ng S s0 m Rp) Po2) as Rs.
+      * pose proof (rep_shrink S S1 s0 _ m2 X1 (rp_li w R lo gl ng nbg S s0 m Rp) (rp_lb w R lo gl ng nbg S s0 m Rp) Po2) as Rs.
         destruct (rep_len_le S S1 s0 s1 m m1 X1 Rp Rp1) as [La Lb]. rewrite (trunc_trunc s0 s1 s2 La Lb) in Rs. exact Rs.
       * rewrite <- F1. exact Po2.
   - (* s; rest -- s does not complete: the rest is skipped *)
@@ -2682,6 +3086,12 @@ Proof.
   unfold assign_bool. destruct (eval_bool_value E R1 e st) as [[c0 v] st0] eqn:E0. intros Ev. inversion Ev; subst.
   destruct (eval_bool_value_defs E e R1 st c0 v st' E0) as [M [F D]]. split; [exact M|]. defl. rewrite app_nil_r. split; assumption.
 Qed.
+Lemma assign_bglob_defs E h e st c st' : assign_bglob E h e st = (c, st') ->
+  st_le st st' /\ Forall (between st st') (deflabels c) /\ NoDup (deflabels c).
+Proof.
+  unfold assign_bglob. destruct (eval_bool_value E R1 e st) as [[c0 v] st0] eqn:E0. intros Ev. inversion Ev; subst.
+  destruct (eval_bool_value_defs E e R1 st c0 v st' E0) as [M [F D]]. split; [exact M|]. defl. rewrite app_nil_r. split; assumption.
+Qed.
 Lemma declare_bool_defs E e st c st' : declare_bool E e st = (c, st') ->
   st_le st st' /\ Forall (between st st') (deflabels c) /\ NoDup (deflabels c).
 Proof.
@@ -2806,6 +3216,8 @@ Proof.
     pose proof (add_label_le LDivAllowed st) as M1. pose proof (single_blk LDivAllowed st) as B1.
     destruct (add_label LDivAllowed st) as [da st1]. cbn [fst snd] in M1, B1. inversion Ev; subst C S' st' ex; clear Ev.
     unfold defs_ok, assign_glob_div. rewrite eval_div_labels. cbn [blk_ok] in B1. destruct B1 as [F1 D1]. split; [exact M1|]. split; assumption.
+  - intros h e S li st C S' st' ex Ev. cbn [lower_stmt] in Ev.
+    destruct (assign_bglob (env_of S) h e st) as [c st1] eqn:Ea. inversion Ev; subst. apply (assign_bglob_defs _ _ _ _ _ _ Ea).
   - intros S li st C S' st' ex Ev. cbn [lower_stmts] in Ev. inversion Ev; subst. apply defs_ok_nil. reflexivity.
   - intros s IHs r IHr S li st C S' st' ex Ev. cbn [lower_stmts] in Ev.
     destruct (lower_stmt S li s st) as [[[c S1] st1] ex1] eqn:E1. destruct (IHs _ _ _ _ _ _ _ E1) as [M1 [F1 D1]].
@@ -2826,6 +3238,7 @@ Hypothesis ext_range : forall x, 0 <= ext x < Machine.W w.
 Variable funs : list fundef.
 Variable gl : Z.
 Variable ng : nat.
+Variable nbg : nat.
 Hypothesis Hgl : lo <= gl.
 Notation act := (Machine.act w code cmem).
 Notation Halts := (HidV.Sphinx.Halts.Halts act).
@@ -2833,7 +3246,7 @@ Notation runs := (HidV.Sphinx.Halts.runs act).
 Notation FP := (LowerBoolProofs.FP w R).
 (* statement lists without calls of the program's functions (calls: program_lowering_correct) *)
 Definition no_calls (f n : nat) : Prop := False.
-Notation scoped := (ssscoped w ng (lib_hyps w R code) no_calls).
+Notation scoped := (ssscoped w ng nbg (lib_hyps w R code) no_calls).
 
 (* statement lists inside a loop whose continue / break labels are defined elsewhere: where the run
    ends (the end of the code, a loop label, the return address, a fault stub), what has changed,
@@ -2845,7 +3258,7 @@ Theorem stmts_lowering_correct_gen ss d s0 evs out s1 S li st B m :
   let S' := snd (fst (fst r)) in
   code_at code B (resolve R ext B C) -> 0 <= B -> B + size C < Machine.W w ->
   match li with Some (lc, lb) => below st lc /\ below st lb | None => True end ->
-  wf_senv w w S -> tight w S -> rep w R lo gl ng S s0 m -> d = FP m - lo ->
+  wf_senv w w S -> tight w S -> rep w R lo gl ng nbg S s0 m -> d = FP m - lo ->
   scoped (length (ioffs S)) (length (boffs S)) (match li with Some _ => true | None => false end) ss ->
   need_stmts S ss <= FP m - lo ->
   exists m' pc',
@@ -2857,7 +3270,7 @@ Theorem stmts_lowering_correct_gen ss d s0 evs out s1 S li st B m :
     | OFault ft, _ => pc' = a_lib R + fault_off ft
     | _, None => False
     end /\
-    runs (mk B m) (map EOut evs) (mk pc' m') /\ frame_post w R lo w gl out m m' /\ post w R lo w gl ng S S' s0 s1 out m m'.
+    runs (mk B m) (map EOut evs) (mk pc' m') /\ frame_post w R lo w gl out m m' /\ post w R lo w gl ng nbg S S' s0 s1 out m m'.
 Proof.
   intros Hx r C S' CA HB HS Hli Wf Tg Rp Hd Sc Hn.
   destruct (lower_stmts S li ss st) as [[[C0 S1] st'] ex] eqn:L. cbn [fst snd] in r, C, S'. subst C S'.
@@ -2867,7 +3280,7 @@ Proof.
   assert (Cfk : forall f n, no_calls f n -> exists fd st, nth_error funs f = Some fd /\ fn_params fd = n /\
             0 <= fun_need w fd < Machine.W w / 2 /\ placed R lab code (fst (lower_fun w f fd st)) (lab (func_label f)) /\
             scoped n 0%nat false (fn_body fd)) by (intros f n []).
-  destruct (proj1 (proj2 (stmts_runs w R lo w Hw code cmem lab LR funs no_calls eq_refl gl ng Hgl Cfk)) d ss s0 evs out s1 Hx S li st C0 S1 st' ex B m L P Wf Tg Rp Hd Sc Hn)
+  destruct (proj1 (proj2 (stmts_runs w R lo w Hw code cmem lab LR funs no_calls eq_refl gl ng nbg Hgl Cfk)) d ss s0 evs out s1 Hx S li st C0 S1 st' ex B m L P Wf Tg Rp Hd Sc Hn)
     as [m' [pc' [Ex [Rn [Fa Po]]]]].
   exists m', pc'. split; [|split; [exact Rn|split; [exact Fa | exact Po]]].
   assert (Xl : forall l, below st l -> lab l = ext l).
@@ -2885,11 +3298,11 @@ Theorem stmts_lowering_correct ss d s0 evs s1 S st B m :
   let C := fst (fst (fst r)) in
   let S' := snd (fst (fst r)) in
   code_at code B (resolve R ext B C) -> 0 <= B -> B + size C < Machine.W w ->
-  wf_senv w w S -> tight w S -> rep w R lo gl ng S s0 m -> d = FP m - lo ->
+  wf_senv w w S -> tight w S -> rep w R lo gl ng nbg S s0 m -> d = FP m - lo ->
   scoped (length (ioffs S)) (length (boffs S)) false ss ->
   need_stmts S ss <= FP m - lo ->
   exists m', runs (mk B m) (map EOut evs) (mk (B + size C) m') /\
-             rep w R lo gl ng S' s1 m' /\ wf_senv w w S' /\ fagree w R lo w gl m m'.
+             rep w R lo gl ng nbg S' s1 m' /\ wf_senv w w S' /\ fagree w R lo w gl m m'.
 Proof.
   intros Hx r C S' CA HB HS Wf Tg Rp Hd Sc Hn.
   destruct (stmts_lowering_correct_gen ss d s0 evs ONormal s1 S None st B m Hx CA HB HS I Wf Tg Rp Hd Sc Hn)
@@ -2901,7 +3314,7 @@ Theorem stmts_fault_correct ss d s0 evs ft s1 S st B m :
   execs w funs d ss s0 evs (OFault ft) s1 ->
   let C := fst (fst (fst (lower_stmts S None ss st))) in
   code_at code B (resolve R ext B C) -> 0 <= B -> B + size C < Machine.W w ->
-  wf_senv w w S -> tight w S -> rep w R lo gl ng S s0 m -> d = FP m - lo ->
+  wf_senv w w S -> tight w S -> rep w R lo gl ng nbg S s0 m -> d = FP m - lo ->
   scoped (length (ioffs S)) (length (boffs S)) false ss ->
   need_stmts S ss <= FP m - lo ->
   exists m', runs (mk B m) (map EOut evs) (mk (a_lib R + fault_off ft) m').
@@ -2917,7 +3330,7 @@ Corollary stmts_no_new_halt ss d s0 evs s1 S st B m :
   execs w funs d ss s0 evs ONormal s1 ->
   let C := fst (fst (fst (lower_stmts S None ss st))) in
   code_at code B (resolve R ext B C) -> 0 <= B -> B + size C < Machine.W w ->
-  wf_senv w w S -> tight w S -> rep w R lo gl ng S s0 m -> d = FP m - lo ->
+  wf_senv w w S -> tight w S -> rep w R lo gl ng nbg S s0 m -> d = FP m - lo ->
   scoped (length (ioffs S)) (length (boffs S)) false ss ->
   need_stmts S ss <= FP m - lo ->
   (forall m', ~ Halts (mk (B + size C) m')) -> ~ Halts (mk B m).
@@ -2945,7 +3358,7 @@ Theorem body_lowering_correct ss d s0 evs s1 S st B m :
   execs w funs d ss s0 evs ONormal s1 ->
   let C := fst (lower_body S ss st) in
   code_at code B (resolve R ext B C) -> 0 <= B -> B + size C < Machine.W w ->
-  wf_senv w w S -> tight w S -> rep w R lo gl ng S s0 m -> d = FP m - lo ->
+  wf_senv w w S -> tight w S -> rep w R lo gl ng nbg S s0 m -> d = FP m - lo ->
   scoped (length (ioffs S)) (length (boffs S)) false ss ->
   need_stmts S ss <= FP m - lo ->
   let ra := Machine.lw w m (FP m - w) in
@@ -2963,15 +3376,15 @@ Proof.
   assert (Cfk : forall f n, no_calls f n -> exists fd st, nth_error funs f = Some fd /\ fn_params fd = n /\
             0 <= fun_need w fd < Machine.W w / 2 /\ placed R lab code (fst (lower_fun w f fd st)) (lab (func_label f)) /\
             scoped n 0%nat false (fn_body fd)) by (intros f n []).
-  pose proof (lower_stmts_extends w R code lab funs no_calls gl ng Cfk ss S None st ltac:(rewrite (wfs_w w w S Wf); lia)) as X1. rewrite L in X1.
-  destruct (proj1 (proj2 (stmts_runs w R lo w Hw code cmem lab LR funs no_calls eq_refl gl ng Hgl Cfk)) d ss s0 evs ONormal s1 Hx S None st C0 S1 st' ex B m L P0 Wf Tg Rp Hd Sc Hn)
+  pose proof (lower_stmts_extends w R code lab funs no_calls gl ng nbg Cfk ss S None st ltac:(rewrite (wfs_w w w S Wf); lia)) as X1. rewrite L in X1.
+  destruct (proj1 (proj2 (stmts_runs w R lo w Hw code cmem lab LR funs no_calls eq_refl gl ng nbg Hgl Cfk)) d ss s0 evs ONormal s1 Hx S None st C0 S1 st' ex B m L P0 Wf Tg Rp Hd Sc Hn)
     as [m1 [pc1 [Ex [Rn [Fa [Rp1 Wf1]]]]]].
   cbn [exit_pc] in Ex. inversion Ex; subst pc1. cbn [frame_post] in Fa.
   assert (Ews : ws S1 = ws S) by (destruct X1 as [_ [_ [_ E]]]; exact E).
   assert (Pt' : placed R lab code (lower_return S1 None) (B + size C0)) by (cbn [lower_return]; rewrite Ews; exact Pt).
-  destruct (return_runs w R lo w Hw code cmem lab no_calls eq_refl gl ng Hgl S1 s1 m1 None _ Wf1 Rp1 I Pt') as [m2 [R2 [A2 _]]].
-  pose proof (rp_regs w R lo gl ng S s0 m Rp) as L0. pose proof (FP_fagree w R lo w gl Hw Hgl m m1 L0 Fa) as F1.
-  rewrite (ra_fagree w R lo w Hw code lab funs no_calls eq_refl gl ng Hgl Cfk S s0 m m1 Wf Rp Fa) in R2. rewrite F1 in A2.
+  destruct (return_runs w R lo w Hw code cmem lab no_calls eq_refl gl ng nbg Hgl S1 s1 m1 None _ Wf1 Rp1 I Pt') as [m2 [R2 [A2 _]]].
+  pose proof (rp_regs w R lo gl ng nbg S s0 m Rp) as L0. pose proof (FP_fagree w R lo w gl Hw Hgl m m1 L0 Fa) as F1.
+  rewrite (ra_fagree w R lo w Hw code lab funs no_calls eq_refl gl ng nbg Hgl Cfk S s0 m m1 Wf Rp Fa) in R2. rewrite F1 in A2.
   exists m2. split.
   - rewrite <- (app_nil_r (map EOut evs)). eapply runs_trans; [exact Rn | exact R2].
   - eapply (gagree_trans w R lo gl); [|apply (agree_gagree w R lo gl); exact A2]. apply (gagree_mono w R lo gl (FP m - w)); [lia | exact Fa].
@@ -2988,11 +3401,12 @@ End TopS.
 Section Check.
 Variable w : Z.
 Variable ng : nat.
+Variable nbg : nat.
 Variable cfb : nat -> nat -> bool.
 Notation oscoped_b := (LowerStmtSem.oscoped_b w ng).
-Notation bscoped_b := (LowerStmtSem.bscoped_b w ng).
-Notation sscoped_b := (LowerStmtSem.sscoped_b w ng cfb).
-Notation ssscoped_b := (LowerStmtSem.ssscoped_b w ng cfb).
+Notation bscoped_b := (LowerStmtSem.bscoped_b w ng nbg).
+Notation sscoped_b := (LowerStmtSem.sscoped_b w ng nbg cfb).
+Notation ssscoped_b := (LowerStmtSem.ssscoped_b w ng nbg cfb).
 Variable lib : Prop.
 Variable cf : nat -> nat -> Prop.
 Hypothesis Hlib : lib.
@@ -3007,25 +3421,25 @@ Proof.
   - auto.
   - apply Nat.ltb_lt. exact H.
 Qed.
-Lemma bscoped_b_ok ni nb e : bscoped_b ni nb e = true -> bscoped w ng ni nb e.
+Lemma bscoped_b_ok ni nb e : bscoped_b ni nb e = true -> bscoped w ng nbg ni nb e.
 Proof.
   induction e as [b|j|op a b|e1 IH|e1 IH1 e2 IH2|e1 IH1 e2 IH2]; cbn [bscoped_b bscoped]; intros H; auto.
-  - apply Nat.ltb_lt. exact H.
+  - destruct j; apply Nat.ltb_lt; exact H.
   - apply andb_true_iff in H. destruct H. split; apply oscoped_b_ok; assumption.
   - apply andb_true_iff in H. destruct H. split; auto.
   - apply andb_true_iff in H. destruct H. split; auto.
 Qed.
 Ltac andb_split H := repeat (apply andb_true_iff in H; let H' := fresh H in destruct H as [H H']).
 Lemma scoped_b_ok :
-  (forall s ni nb il, sscoped_b ni nb il s = true -> sscoped w ng lib cf ni nb il s) /\
-  (forall ss ni nb il, ssscoped_b ni nb il ss = true -> ssscoped w ng lib cf ni nb il ss).
+  (forall s ni nb il, sscoped_b ni nb il s = true -> sscoped w ng nbg lib cf ni nb il s) /\
+  (forall ss ni nb il, ssscoped_b ni nb il ss = true -> ssscoped w ng nbg lib cf ni nb il ss).
 Proof.
   apply stmt_stmts_ind.
   - intros o ni nb il H. apply oscoped_b_ok. exact H.
   - intros i o ni nb il H. cbn [sscoped_b sscoped] in *. andb_split H. split; [apply Nat.ltb_lt; assumption | apply oscoped_b_ok; assumption].
   - intros e ni nb il H. apply bscoped_b_ok. exact H.
   - intros j e ni nb il H. cbn [sscoped_b sscoped] in *. andb_split H. split; [apply Nat.ltb_lt; assumption | apply bscoped_b_ok; assumption].
-  - intros x ni nb il H. destruct x; cbn [sscoped_b sscoped] in *; auto. apply andb_true_iff in H. destruct H as [H1 H2]. split; [apply oscoped_b_ok; exact H1 | apply negb_true_iff; exact H2].
+  - intros x ni nb il H. destruct x; cbn [sscoped_b sscoped] in *; auto. apply oscoped_b_ok; exact H.
   - intros; exact I.
   - intros ln o ni nb il H. cbn [sscoped_b sscoped] in *. split; [apply oscoped_b_ok; assumption | exact Hlib].
   - intros ln e ni nb il H. cbn [sscoped_b sscoped] in *. split; [apply bscoped_b_ok; assumption | exact Hlib].
@@ -3045,11 +3459,14 @@ Proof.
     match goal with Hf : forallb _ _ = true |- _ => rewrite forallb_forall in Hf; apply Hf; exact Ho end.
   - intros r ni nb il H. destruct r; cbn [sscoped_b sscoped] in *; auto using oscoped_b_ok.
   - intros g o ni nb il H. cbn [sscoped_b sscoped] in *. andb_split H.
-    split; [apply Nat.ltb_lt; assumption|]. split; [apply oscoped_b_ok; assumption|]. destruct o; try exact I; discriminate.
-  - intros g op a b ni nb il H. discriminate H.
+    split; [apply Nat.ltb_lt; assumption | apply oscoped_b_ok; assumption].
+  - intros g op a b ni nb il H. cbn [sscoped_b sscoped] in *. andb_split H.
+    split; [apply Nat.ltb_lt; assumption|].
+    split; [destruct op; cbn [divop_b] in *; try discriminate; auto | split; [apply oscoped_b_ok; assumption | split; [apply oscoped_b_ok; assumption | exact Hlib]]].
+  - intros h e ni nb il H. cbn [sscoped_b sscoped] in *. andb_split H. split; [apply Nat.ltb_lt; assumption | apply bscoped_b_ok; assumption].
   - intros; exact I.
   - intros s IHs r IHr ni nb il H. cbn [ssscoped_b ssscoped] in *. andb_split H. split; [apply IHs; assumption|].
-    destruct s as [o|i o|e|j e|x| |ln o|ln e|c0 t1 t2|c0 b k|ss| | |op a b|i op a b|dst f args|rv|gg og|gg gop ga gb]; try destruct dst; apply IHr; assumption.
+    destruct s as [o|i o|e|j e|x| |ln o|ln e|c0 t1 t2|c0 b k|ss| | |op a b|i op a b|dst f args|rv|gg og|gg gop ga gb|hh eh]; try destruct dst; apply IHr; assumption.
 Qed.
 End Check.
 
@@ -3156,7 +3573,7 @@ Qed.
 
 (* the state section hidc emits: ap, fp, r0, r1, r2, the stack, the entry arguments (last parameter
    first), the return address of the entry point (all_is_win) *)
-Record init_ok (w stack : Z) (args : list Z) (ra : Z) (ga : nat -> Z) (ginit : list Z) (m : mem) : Prop := {
+Record init_ok (w stack : Z) (args : list Z) (ra : Z) (ga : nat -> Z) (ginit : list Z) (gb : nat -> Z) (binit : list Z) (m : mem) : Prop := {
   io_wf : wf_mem m;
   io_ap : Machine.lw w m 0 = 5 * w;                                     (* ap: .word stack_start *)
   io_fp : Machine.lw w m w = (stack + Z.of_nat (length args) + 6) * w;  (* fp: .word stack_end *)
@@ -3165,9 +3582,59 @@ Record init_ok (w stack : Z) (args : list Z) (ra : Z) (ga : nat -> Z) (ginit : l
   io_args : forall k, (k < length args)%nat ->
             Machine.sgn w (Machine.lw w m ((stack + Z.of_nat (length args) + 6) * w - (Z.of_nat k + 2) * w)) = nth k args 0;
   (* the int globals: words after stack_end (at the addresses ga), pairwise apart, holding their initial values *)
-  io_g : forall g, (g < length ginit)%nat -> (stack + Z.of_nat (length args) + 6) * w <= ga g /\ inb m (ga g) w = true /\
+  io_g : forall g, (g < length ginit)%nat -> (stack + Z.of_nat (length args) + 6) * w <= ga g < Machine.W w /\ inb m (ga g) w = true /\
                    Machine.sgn w (Machine.lw w m (ga g)) = nth g ginit 0;
-  io_gd : forall g g', (g < length ginit)%nat -> (g' < length ginit)%nat -> g <> g' -> ga g + w <= ga g' \/ ga g' + w <= ga g }.
+  io_gd : forall g g', (g < length ginit)%nat -> (g' < length ginit)%nat -> g <> g' -> ga g + w <= ga g' \/ ga g' + w <= ga g;
+  (* the bool globals: bytes after stack_end (at the addresses gb), apart from each other and from the words, holding 0 or 1 *)
+  io_gb : forall h, (h < length binit)%nat -> (stack + Z.of_nat (length args) + 6) * w <= gb h < Machine.W w /\ inb m (gb h) 1 = true /\
+                   Machine.lb m (gb h) = nth h binit 0 /\ (nth h binit 0 = 0 \/ nth h binit 0 = 1);
+  io_gbd : (forall h h', (h < length binit)%nat -> (h' < length binit)%nat -> h <> h' -> gb h <> gb h') /\
+           (forall g h, (g < length ginit)%nat -> (h < length binit)%nat -> gb h + 1 <= ga g \/ ga g + w <= gb h) }.
+(* hidc's layout of the globals (glob_addr: after stack_end, in the order of first reference, a word
+   per int global and a byte per bool global) satisfies the separation hypotheses of init_ok, for
+   every program and all globals that the generated functions refer to *)
+Definition gsize (w : Z) (r : gref) : Z := match r with GI _ => w | GB _ => 1 end.
+Lemma gref_eqb_eq a b : gref_eqb a b = true <-> a = b.
+Proof.
+  destruct a as [g|g], b as [h|h]; cbn [gref_eqb]; rewrite ?Nat.eqb_eq; split; intros H; try discriminate; try congruence.
+Qed.
+Lemma gref_off_nonneg w r l : 0 <= w -> 0 <= gref_off w r l.
+Proof.
+  intros Hw. induction l as [|x t IH]; cbn [gref_off]; [lia|]. destruct (gref_eqb x r); [lia|]. destruct x; lia.
+Qed.
+Lemma gref_off_apart w l : 0 <= w -> forall r r', In r l -> In r' l -> r <> r' ->
+  gref_off w r l + gsize w r <= gref_off w r' l \/ gref_off w r' l + gsize w r' <= gref_off w r l.
+Proof.
+  intros Hw. induction l as [|x t IH]; intros r r' I I' Ne; [destruct I|]. cbn [gref_off].
+  destruct (gref_eqb x r) eqn:E; destruct (gref_eqb x r') eqn:E'.
+  - apply gref_eqb_eq in E, E'. congruence.
+  - apply gref_eqb_eq in E. subst x. left. pose proof (gref_off_nonneg w r' t Hw). unfold gsize. destruct r; lia.
+  - apply gref_eqb_eq in E'. subst x. right. pose proof (gref_off_nonneg w r t Hw). unfold gsize. destruct r'; lia.
+  - assert (It : In r t) by (destruct I as [->|I]; [|exact I]; assert (X : gref_eqb r r = true) by (apply gref_eqb_eq; reflexivity); congruence).
+    assert (It' : In r' t) by (destruct I' as [->|I']; [|exact I']; assert (X : gref_eqb r' r' = true) by (apply gref_eqb_eq; reflexivity); congruence).
+    destruct (IH r r' It It' Ne); [left | right]; lia.
+Qed.
+Theorem glob_addr_layout w stack nparams funs ng nbg : 0 <= w ->
+  (forall g, (g < ng)%nat -> In (GI g) (globals_order funs)) ->
+  (forall h, (h < nbg)%nat -> In (GB h) (globals_order funs)) ->
+  let ga := fun g => glob_addr w stack nparams funs (GI g) in
+  let gb := fun h => glob_addr w stack nparams funs (GB h) in
+  (forall g, (stack + Z.of_nat nparams + 6) * w <= ga g) /\ (forall h, (stack + Z.of_nat nparams + 6) * w <= gb h) /\
+  (forall g g', (g < ng)%nat -> (g' < ng)%nat -> g <> g' -> ga g + w <= ga g' \/ ga g' + w <= ga g) /\
+  (forall h h', (h < nbg)%nat -> (h' < nbg)%nat -> h <> h' -> gb h <> gb h') /\
+  (forall g h, (g < ng)%nat -> (h < nbg)%nat -> gb h + 1 <= ga g \/ ga g + w <= gb h).
+Proof.
+  intros Hw Hi Hb ga gb. unfold ga, gb, glob_addr. set (l := globals_order funs) in *. set (F := (stack + Z.of_nat nparams + 6) * w).
+  split; [intros g; pose proof (gref_off_nonneg w (GI g) l Hw); lia|].
+  split; [intros h; pose proof (gref_off_nonneg w (GB h) l Hw); lia|].
+  split; [|split].
+  - intros g g' Hg Hg' Ne. destruct (gref_off_apart w l Hw (GI g) (GI g') (Hi g Hg) (Hi g' Hg') ltac:(congruence)) as [X|X];
+      cbn [gsize] in X; lia.
+  - intros h h' Hh Hh' Ne. destruct (gref_off_apart w l Hw (GB h) (GB h') (Hb h Hh) (Hb h' Hh') ltac:(congruence)) as [X|X];
+      cbn [gsize] in X; lia.
+  - intros g h Hg Hh. destruct (gref_off_apart w l Hw (GI g) (GB h) (Hi g Hg) (Hb h Hh) ltac:(discriminate)) as [X|X];
+      cbn [gsize] in X; lia.
+Qed.
 (* what the machine shows after the program's own output *)
 Definition result_flags (res : cres) : list event :=
   match res with
@@ -3187,11 +3654,14 @@ Variable args : list Z.            (* the values of the entry point's parameters
 Variable dft : Z.                  (* where a `defeat` word would be (not used by the fragment) *)
 Variable ga : nat -> Z.            (* the addresses of the int globals (hidc: the words after stack_end) *)
 Variable ginit : list Z.           (* their initial values *)
+Variable gb : nat -> Z.            (* the addresses of the bool globals (bytes after stack_end) *)
+Variable binit : list Z.           (* their initial values (0 or 1) *)
 Variable cmem : mem.
 Let C := lower_program w funs.
 Let lib := size C.
-Let R := hidc_regs_g w dft lib ga.
+Let R := hidc_regs_gb w dft lib ga gb.
 Let ng := length ginit.
+Let nbg := length binit.
 Let ext0 : label -> Z := fun _ => 0.
 Let prog := resolve R ext0 0 C ++ stdlib_code w lib.
 Let code := code_of prog.
@@ -3208,10 +3678,10 @@ Let n := Z.of_nat (length args).
    hidc lays out emits exactly these bytes, then the flags of all_is_win (resp. of the fault
    stub), then sleeps forever: it never halts. *)
 Theorem program_lowering_correct evs res m0 :
-  prog_ok_b w ng funs (length args) = true ->
+  prog_ok_b w ng nbg funs (length args) = true ->
   0 <= stack -> lib + stdlib_len <= Machine.W w -> (stack + n + 6) * w < Machine.W w / 2 ->
-  init_ok w stack args (lib + off_all_is_win) ga ginit m0 ->
-  callf w funs ((stack + n + 1) * w) 0 args ginit evs res ->
+  init_ok w stack args (lib + off_all_is_win) ga ginit gb binit m0 ->
+  callf w funs ((stack + n + 1) * w) 0 args (ginit, binit) evs res ->
   exists m', runs (mk 0 m0) (map EOut evs ++ result_flags res) (tnt lib m') /\
              ~ Halts (mk 0 m0) /\
              forall k, csteps (mk 0 m0) (map EOut evs ++ result_flags res ++ repeat sleep_ev k) (tnt lib m').
@@ -3229,7 +3699,7 @@ Proof.
   set (lab := labenv ext0 0 C) in *.
   assert (Elen : lib = Z.of_nat (length (resolve R ext0 0 C))) by (unfold resolve; rewrite length_instrs; reflexivity).
   assert (Hl : lib_hyps w R code).
-  { unfold lib_hyps, R, hidc_regs_g; cbn [a_fp a_r0 a_r1 a_r2 a_lib a_ap]. repeat split; try lia.
+  { unfold lib_hyps, R, hidc_regs_gb; cbn [a_fp a_r0 a_r1 a_r2 a_lib a_ap]. repeat split; try lia.
     apply (lib_at_after w _ lib Elen). }
   (* the callable functions: those that are generated *)
   set (cf := fun f k => cf_b funs ord f k = true).
@@ -3238,7 +3708,7 @@ Proof.
     destruct (nth_error funs f); [discriminate | discriminate Hfs]. }
   assert (Cfk : forall f k, cf f k -> exists fd st, nth_error funs f = Some fd /\ fn_params fd = k /\
             0 <= fun_need w fd < Machine.W w / 2 /\ placed R lab code (fst (lower_fun w f fd st)) (lab (func_label f)) /\
-            ssscoped w ng (lib_hyps w R code) cf k 0%nat false (fn_body fd)).
+            ssscoped w ng nbg (lib_hyps w R code) cf k 0%nat false (fn_body fd)).
   { intros f k Hc'. unfold cf, cf_b in Hc'. apply andb_true_iff in Hc'. destruct Hc' as [Hin' Hk].
     apply existsb_exists in Hin'. destruct Hin' as [g [Ig Eg]]. apply Nat.eqb_eq in Eg. subst g.
     destruct (lower_funs_placed R lab code w funs ord st_init 0 P Ovalid f Ig) as [fd [stf [Efd Pf]]].
@@ -3247,28 +3717,28 @@ Proof.
     apply andb_true_iff in Hfs. destruct Hfs as [Hfs Hsc]. apply andb_true_iff in Hfs. destruct Hfs as [Hn0 Hn1].
     apply Z.leb_le in Hn0. apply Z.ltb_lt in Hn1.
     exists fd, stf. split; [exact Efd|]. split; [exact Hk|]. split; [lia|]. split; [exact Pf|].
-    rewrite <- Hk. apply (proj2 (scoped_b_ok w ng (cf_b funs ord) (lib_hyps w R code) cf Hl (fun f0 n0 H => H))). exact Hsc. }
+    rewrite <- Hk. apply (proj2 (scoped_b_ok w ng nbg (cf_b funs ord) (lib_hyps w R code) cf Hl (fun f0 n0 H => H))). exact Hsc. }
   (* the entry memory *)
-  destruct Hin as [Iwf Iap Ifp Isz Ira Iargs Ig Igd]. fold n in Ifp, Isz, Ira, Iargs, Ig.
+  destruct Hin as [Iwf Iap Ifp Isz Ira Iargs Ig Igd Ib Ibd]. fold n in Ifp, Isz, Ira, Iargs, Ig, Ib.
   set (F := (stack + n + 6) * w) in *.
   assert (Hn : 0 <= n) by (unfold n; lia).
-  assert (HF : FP w R m0 = F) by (unfold FP, R, hidc_regs_g; cbn [a_fp]; exact Ifp).
+  assert (HF : FP w R m0 = F) by (unfold FP, R, hidc_regs_gb; cbn [a_fp]; exact Ifp).
   assert (L : regs_ok w R (5 * w) m0).
-  { unfold R, hidc_regs_g. constructor; cbn [a_r0 a_r1 a_r2 a_fp]; try lia; try exact Iwf;
+  { unfold R, hidc_regs_gb. constructor; cbn [a_r0 a_r1 a_r2 a_fp]; try lia; try exact Iwf;
       try (apply inb_true; unfold F in *; nia).
-    change (FP w (mkregs 0 w (2 * w) (3 * w) (4 * w) dft lib ga) m0) with (FP w R m0). rewrite HF. unfold F. nia. }
+    change (FP w (mkregs 0 w (2 * w) (3 * w) (4 * w) dft lib ga gb) m0) with (FP w R m0). rewrite HF. unfold F. nia. }
   assert (E0 : lab (func_label 0) = 0).
   { unfold C, lower_program in P. fold ord in P. destruct ord as [|[|?] r]; try discriminate Hhd.
     cbn [lower_funs] in P. inversion Ovalid as [|? ? H0 _]; subst. destruct (nth_error funs 0) as [fd0|]; [|contradiction].
     unfold lower_fun in P. destruct (add_label LNoOverflow st_init) as [no st']. destruct (lower_stmts _ None (fn_body fd0) st') as [[[cc S1] st2] ex].
     cbn [app placed] in P. tauto. }
-  pose proof (proj2 (proj2 (stmts_runs w R (5 * w) w Hw code cmem lab LR funs cf eq_refl F ng ltac:(unfold F; nia) Cfk)) _ 0%nat args ginit evs res Hc m0 Hl Hcf0 L) as Sp.
+  pose proof (proj2 (proj2 (stmts_runs w R (5 * w) w Hw code cmem lab LR funs cf eq_refl F ng nbg ltac:(unfold F; nia) Cfk)) _ 0%nat args (ginit, binit) evs res Hc m0 Hl Hcf0 L) as Sp.
   destruct (Sp ltac:(rewrite HF; unfold F; lia) ltac:(rewrite HF; unfold F; nia) ltac:(rewrite HF; exact Isz)) as [m' Res].
-  { intros _. unfold R, hidc_regs_g; cbn [a_ap]. exact Iap. }
+  { intros _. unfold R, hidc_regs_gb; cbn [a_ap]. exact Iap. }
   { intros k Hk. rewrite HF. apply Iargs. exact Hk. }
   { rewrite HF. lia. }
-  { split; [reflexivity|]. intros g Hg. unfold R, hidc_regs_g; cbn [a_glob]. apply (Ig g Hg). }
-  { intros g g' Hg Hg' Ne. unfold R, hidc_regs_g; cbn [a_glob]. apply (Igd g g' Hg Hg' Ne). }
+  { split; cbn [fst snd]; (split; [reflexivity|]); unfold R, hidc_regs_gb; cbn [a_glob a_bglob]; [exact Ig | exact Ib]. }
+  { unfold glayout, R, hidc_regs_gb; cbn [a_glob a_bglob]. split; [exact Igd | exact Ibd]. }
   rewrite E0, HF in Res.
   assert (Abs : forall pcs flags, runs (mk 0 m0) (map EOut evs) (mk pcs m') -> absorbed w code cmem lib (mk pcs m') flags ->
             runs (mk 0 m0) (map EOut evs ++ flags) (tnt lib m') /\ ~ Halts (mk 0 m0) /\
@@ -3277,20 +3747,20 @@ Proof.
     destruct (runs_not_halts act _ _ _ Rn Nh) as [N0 C0].
     split; [eapply runs_trans; [exact Rn | exact Rt]|]. split; [exact N0|].
     intros k. eapply csteps_app; [exact C0 | apply Cs]. }
-  destruct Hl as [_ [_ [_ [_ [CAl [BR _]]]]]]. unfold R, hidc_regs_g in CAl, BR; cbn [a_lib] in CAl, BR.
+  destruct Hl as [_ [_ [_ [_ [CAl [BR _]]]]]]. unfold R, hidc_regs_gb in CAl, BR; cbn [a_lib] in CAl, BR.
   exists m'. destruct res as [v|ft].
   - destruct Res as [Rn _]. replace (F - w) with ((stack + n + 5) * w) in Rn by (unfold F; lia). rewrite Ira in Rn.
     apply (Abs _ _ Rn). apply (all_is_win_absorbing w code cmem lib Hw CAl BR m').
-  - unfold R, hidc_regs_g in Res; cbn [a_lib] in Res. apply (Abs _ _ Res).
+  - unfold R, hidc_regs_gb in Res; cbn [a_lib] in Res. apply (Abs _ _ Res).
     destruct ft; cbn [fault_off result_flags];
       [apply (division_by_zero_absorbing w code cmem lib Hw CAl BR m') | apply (stack_overflow_absorbing w code cmem lib Hw CAl BR m')].
 Qed.
 (* in particular (C03 for these programs): the compiled program never halts *)
 Corollary program_never_halts evs res m0 :
-  prog_ok_b w ng funs (length args) = true ->
+  prog_ok_b w ng nbg funs (length args) = true ->
   0 <= stack -> lib + stdlib_len <= Machine.W w -> (stack + n + 6) * w < Machine.W w / 2 ->
-  init_ok w stack args (lib + off_all_is_win) ga ginit m0 ->
-  callf w funs ((stack + n + 1) * w) 0 args ginit evs res ->
+  init_ok w stack args (lib + off_all_is_win) ga ginit gb binit m0 ->
+  callf w funs ((stack + n + 1) * w) 0 args (ginit, binit) evs res ->
   ~ Halts (mk 0 m0).
 Proof.
   intros H1 H2 H3 H4 H5 H6. destruct (program_lowering_correct evs res m0 H1 H2 H3 H4 H5 H6) as [m' [_ [N _]]]. exact N.
@@ -3324,12 +3794,12 @@ Definition sx_ss : stmts :=
             (SCons (SIf (BCmp SEq (OVar 3) (OLit 7)) (SCons SBreak SNil) SNil)
             (SCons (SAssignI 3 (OArith SAdd (OVar 3) (OLit 1))) SNil)))
             SNil)
-  (SCons (SIf (BAnd (BVar 0) (BCmp SNe (OVar 2) (OLit 2))) (SCons (SWrite (WrChar 65)) SNil) (SCons SWriteln SNil))
+  (SCons (SIf (BAnd (BVar (BLocal 0)) (BCmp SNe (OVar 2) (OLit 2))) (SCons (SWrite (WrChar 65)) SNil) (SCons SWriteln SNil))
   (SCons (SBlock (SCons (SDeclI (OArith SMul (OVar 2) (OVar 2))) (SCons (SWrite (WrByte (OVar 4))) SNil)))
    SNil)))).
 Definition sx_S : senv := is_you_senv 2 3.
 Definition sx_st : lstate := fun _ => 0%nat.
-Definition sx_s0 : store := mkstore [5; 7; 2] [] [].
+Definition sx_s0 : store := mkstore [5; 7; 2] [] [] [].
 Definition sx_out : list Z := [54; 55; 10; 4].
 Definition sx_code : list aline := fst (lower_body sx_S sx_ss sx_st).
 Definition sx_ra : Z := size sx_code.            (* the caller: an absorbing stub right after the body *)
@@ -3352,7 +3822,7 @@ Proof.
   - intros i i' Hi Hi' Ne. destruct i as [|[|[|]]]; try (cbn in Hi; lia); destruct i' as [|[|[|]]]; try (cbn in Hi'; lia);
       try congruence; carith.
 Qed.
-Lemma sx_rep : rep 2 (hidc_regs 2 62 200) 40 60 0 sx_S sx_s0 sx_mem.
+Lemma sx_rep : rep 2 (hidc_regs 2 62 200) 40 60 0 0 sx_S sx_s0 sx_mem.
 Proof.
   assert (Wfm : wf_mem sx_mem) by (unfold sx_mem; repeat (apply (wf_sw 2); [|lia]); apply wf_ex_zero).
   constructor; try reflexivity; try (vm_compute; intro; discriminate).
@@ -3361,8 +3831,10 @@ Proof.
   - intros j Hj. cbn in Hj. lia.
   - intros g Hg. lia.
   - intros g g' Hg. lia.
+  - intros g Hg. lia.
+  - split; intros; lia.
 Qed.
-Lemma sx_scoped ng lib cf : ssscoped 2 ng lib cf 3 0 false sx_ss.
+Lemma sx_scoped ng nbg lib cf : ssscoped 2 ng nbg lib cf 3 0 false sx_ss.
 Proof. cbn. repeat split; try lia; carith. Qed.
 
 (* the theorem applies: the body runs to the return address, emitting the source's output *)
@@ -3372,7 +3844,7 @@ Proof.
   destruct sx_exec as [s1 Hx].
   destruct (body_lowering_correct 2 ltac:(lia) (code_of sx_prog) (zmem 0) (hidc_regs 2 62 200) 40 sx_ext
               ltac:(intros x; vm_compute; split; [discriminate | reflexivity])
-              [] 60 0%nat ltac:(lia) sx_ss 20 sx_s0 sx_out s1 sx_S sx_st 0 sx_mem Hx) as [m' [Rn _]].
+              [] 60 0%nat 0%nat ltac:(lia) sx_ss 20 sx_s0 sx_out s1 sx_S sx_st 0 sx_mem Hx) as [m' [Rn _]].
   - apply code_at_code_of_app.
   - lia.
   - vm_compute. reflexivity.
@@ -3424,7 +3896,7 @@ Proof.
   unfold lib_hyps. repeat split; try reflexivity; try (vm_compute; intro; discriminate).
   apply (lib_at_after 2 _ lx_lib). vm_compute. reflexivity.
 Qed.
-Lemma lx_rep : rep 2 lx_regs 10 60 0 sx_S sx_s0 lx_mem.
+Lemma lx_rep : rep 2 lx_regs 10 60 0 0 sx_S sx_s0 lx_mem.
 Proof.
   assert (Wfm : wf_mem lx_mem) by (unfold lx_mem; repeat (apply (wf_sw 2); [|lia]); apply wf_ex_zero).
   constructor; try reflexivity; try (vm_compute; intro; discriminate).
@@ -3433,6 +3905,8 @@ Proof.
   - intros j Hj. cbn in Hj. lia.
   - intros g Hg. lia.
   - intros g g' Hg. lia.
+  - intros g Hg. lia.
+  - split; intros; lia.
 Qed.
 Example lib_body_lowering_ex :
   exists m', HidV.Sphinx.Halts.runs (Machine.act 2 (code_of lx_prog) (zmem 0)) (mk 0 lx_mem) (map EOut lx_out) (mk lx_lib m').
@@ -3440,7 +3914,7 @@ Proof.
   destruct lx_exec as [s1 Hx].
   destruct (body_lowering_correct 2 ltac:(lia) (code_of lx_prog) (zmem 0) lx_regs 10 sx_ext
               ltac:(intros x; vm_compute; split; [discriminate | reflexivity])
-              [] 60 0%nat ltac:(lia) lx_ss 50 sx_s0 lx_out s1 sx_S sx_st 0 lx_mem Hx) as [m' [Rn _]].
+              [] 60 0%nat 0%nat ltac:(lia) lx_ss 50 sx_s0 lx_out s1 sx_S sx_st 0 lx_mem Hx) as [m' [Rn _]].
   - apply code_at_code_of_app.
   - lia.
   - vm_compute. reflexivity.
@@ -3485,7 +3959,7 @@ Definition px_prog : list instr := resolve (hidc_regs 2 0 px_lib) (fun _ => 0) 0
 Definition px_mem (stack a0 : Z) : mem :=
   let F := (stack + 7) * 2 in
   Machine.sw 2 (Machine.sw 2 (Machine.sw 2 (Machine.sw 2 (mkmem F (FMapPositive.PositiveMap.empty Z)) 0 10) 2 F) (F - 2) px_lib) (F - 4) a0.
-Lemma px_init stack a0 : 0 <= stack <= 100 -> - 1000 <= a0 <= 1000 -> init_ok 2 stack [a0] (px_lib + off_all_is_win) (fun _ => 0) [] (px_mem stack a0).
+Lemma px_init stack a0 : 0 <= stack <= 100 -> - 1000 <= a0 <= 1000 -> init_ok 2 stack [a0] (px_lib + off_all_is_win) (fun _ => 0) [] (fun _ => 0) [] (px_mem stack a0).
 Proof.
   intros Hs Ha. set (F := (stack + 7) * 2).
   assert (Wz : wf_mem (mkmem F (FMapPositive.PositiveMap.empty Z))) by (intros a; unfold getb; cbn [mdata]; rewrite FMapPositive.PositiveMap.gempty; lia).
@@ -3503,22 +3977,24 @@ Proof.
     destruct (Z.ltb_spec (a0 mod 65536) 32768); lia.
   - intros g Hg. cbn in Hg. lia.
   - intros g g' Hg. cbn in Hg. lia.
+  - intros g Hg. cbn in Hg. lia.
+  - split; intros ? ? Hg; cbn in Hg; lia.
 Qed.
-Lemma px_ok : prog_ok_b 2 0 px_funs 1 = true.
+Lemma px_ok : prog_ok_b 2 0 0 px_funs 1 = true.
 Proof. vm_compute. reflexivity. Qed.
 (* the source semantics, computed: 4! = 24, 24 / (4 - 5) = -24, -24 % 7 = 4;  5! = 120, then 120 / 0;
    with 8 words of stack the recursion does not fit *)
 Definition px_out4 : list Z := [50; 52; 10; 52; 10].
 Definition px_out5 : list Z := [49; 50; 48; 10].
-Lemma px_call stack a0 evs res : icall 2 px_funs 100 ((stack + 2) * 2) 0 [a0] [] = Some (evs, res) ->
-  callf 2 px_funs ((stack + Z.of_nat (length [a0]) + 1) * 2) 0 [a0] [] evs res.
+Lemma px_call stack a0 evs res : icall 2 px_funs 100 ((stack + 2) * 2) 0 [a0] ([], []) = Some (evs, res) ->
+  callf 2 px_funs ((stack + Z.of_nat (length [a0]) + 1) * 2) 0 [a0] ([], []) evs res.
 Proof. intros H. apply (proj2 (proj2 (interp_sound 2 px_funs 100))). cbn [length]. change (Z.of_nat 1) with 1. replace (stack + 1 + 1) with (stack + 2) by lia. exact H. Qed.
 Notation px_act := (Machine.act 2 (code_of px_prog) (zmem 0)).
 Example program_returns_ex : exists m',
   HidV.Sphinx.Halts.runs px_act (mk 0 (px_mem 40 4)) (map EOut px_out4 ++ [EFlag 0]) (tnt px_lib m') /\
   ~ HidV.Sphinx.Halts.Halts px_act (mk 0 (px_mem 40 4)).
 Proof.
-  destruct (program_lowering_correct 2 ltac:(lia) px_funs 40 [4] 0 (fun _ => 0) [] (zmem 0) px_out4 (CRet None []) (px_mem 40 4) px_ok ltac:(lia)
+  destruct (program_lowering_correct 2 ltac:(lia) px_funs 40 [4] 0 (fun _ => 0) [] (fun _ => 0) [] (zmem 0) px_out4 (CRet None ([], [])) (px_mem 40 4) px_ok ltac:(lia)
               ltac:(vm_compute; intro; discriminate) ltac:(vm_compute; reflexivity) (px_init 40 4 ltac:(lia) ltac:(lia))
               (px_call 40 4 _ _ ltac:(vm_compute; reflexivity))) as [m' [Rn [Nh _]]].
   exists m'. split; [exact Rn | exact Nh].
@@ -3527,7 +4003,7 @@ Example program_divides_by_zero_ex : exists m',
   HidV.Sphinx.Halts.runs px_act (mk 0 (px_mem 40 5)) (map EOut px_out5 ++ [EFlag 3; EFlag 1]) (tnt px_lib m') /\
   ~ HidV.Sphinx.Halts.Halts px_act (mk 0 (px_mem 40 5)).
 Proof.
-  destruct (program_lowering_correct 2 ltac:(lia) px_funs 40 [5] 0 (fun _ => 0) [] (zmem 0) px_out5 (CFault FDivZero) (px_mem 40 5) px_ok ltac:(lia)
+  destruct (program_lowering_correct 2 ltac:(lia) px_funs 40 [5] 0 (fun _ => 0) [] (fun _ => 0) [] (zmem 0) px_out5 (CFault FDivZero) (px_mem 40 5) px_ok ltac:(lia)
               ltac:(vm_compute; intro; discriminate) ltac:(vm_compute; reflexivity) (px_init 40 5 ltac:(lia) ltac:(lia))
               (px_call 40 5 _ _ ltac:(vm_compute; reflexivity))) as [m' [Rn [Nh _]]].
   exists m'. split; [exact Rn | exact Nh].
@@ -3536,7 +4012,7 @@ Example program_overflows_ex : exists m',
   HidV.Sphinx.Halts.runs px_act (mk 0 (px_mem 8 4)) [EFlag 2; EFlag 1] (tnt px_lib m') /\
   ~ HidV.Sphinx.Halts.Halts px_act (mk 0 (px_mem 8 4)).
 Proof.
-  destruct (program_lowering_correct 2 ltac:(lia) px_funs 8 [4] 0 (fun _ => 0) [] (zmem 0) [] (CFault FStackOverflow) (px_mem 8 4) px_ok ltac:(lia)
+  destruct (program_lowering_correct 2 ltac:(lia) px_funs 8 [4] 0 (fun _ => 0) [] (fun _ => 0) [] (zmem 0) [] (CFault FStackOverflow) (px_mem 8 4) px_ok ltac:(lia)
               ltac:(vm_compute; intro; discriminate) ltac:(vm_compute; reflexivity) (px_init 8 4 ltac:(lia) ltac:(lia))
               (px_call 8 4 _ _ ltac:(vm_compute; reflexivity))) as [m' [Rn [Nh _]]].
   exists m'. split; [exact Rn | exact Nh].
@@ -3554,6 +4030,98 @@ Example program_vm_run_ex :
   end /\
   match run_program 2 (px_bytes 8 4) [] px_prog [] mon_none 4000 with
   | OAbsorbed evs _ _ => firstn 2 evs = [EFlag 2; EFlag 1]
+  | _ => False
+  end.
+Proof. vm_compute. repeat split; reflexivity. Qed.
+
+(* a program with an int global and a bool global, both read and assigned:
+     int g0 = 5;  bool h0 = false;
+     empty @is_you(int a0) { g0 = g0 + a0; h0 = g0 > 6; if (h0) { write('Y'); } else { write('N'); }
+                             write(g0 is byte); writeln(g0); g0 /= a0 - 4; writeln(-g0); return; } *)
+Definition gx_funs : list fundef :=
+  [ mkfun 1 (SCons (SAssignG 0 (OArith SAdd (OGlob 0) (OVar 0)))
+            (SCons (SAssignBG 0 (BCmp SGt (OGlob 0) (OLit 6)))
+            (SCons (SIf (BVar (BGlobal 0)) (SCons (SWrite (WrChar 89)) SNil) (SCons (SWrite (WrChar 78)) SNil))
+            (SCons (SWrite (WrByte (OGlob 0)))
+            (SCons (SWriteI true (OGlob 0))
+            (SCons (SAssignGDiv 0 SDiv (OGlob 0) (OArith SSub (OVar 0) (OLit 4)))
+            (SCons (SWriteI true (OUn UNeg (OGlob 0)))
+            (SCons (SReturn None) SNil)))))))) ].
+Definition gx_code : list aline := lower_program 2 gx_funs.
+Definition gx_lib : Z := size gx_code.
+(* hidc's layout (-s 40, one parameter): stack_end = 94; var_g0_0 at 94 (.word 5), var_h0_0 at 96 (.byte 0) *)
+Definition gx_ga (g : nat) : Z := glob_addr 2 40 1 gx_funs (GI g).
+Definition gx_gb (h : nat) : Z := glob_addr 2 40 1 gx_funs (GB h).
+Definition gx_prog : list instr := resolve (hidc_regs_gb 2 0 gx_lib gx_ga gx_gb) (fun _ => 0) 0 gx_code ++ stdlib_code 2 gx_lib.
+Definition gx_mem (a0 : Z) : mem :=
+  Machine.sw 2 (Machine.sw 2 (Machine.sw 2 (Machine.sw 2 (Machine.sw 2 (mkmem 97 (FMapPositive.PositiveMap.empty Z)) 0 10) 2 94) 92 gx_lib) 90 a0) 94 5.
+Example gx_layout : gx_ga 0 = 94 /\ gx_gb 0 = 96.
+Proof. vm_compute. split; reflexivity. Qed.
+Lemma gx_init a0 : - 1000 <= a0 <= 1000 -> init_ok 2 40 [a0] (gx_lib + off_all_is_win) gx_ga [5] gx_gb [0] (gx_mem a0).
+Proof.
+  intros Ha.
+  assert (Wz : wf_mem (mkmem 97 (FMapPositive.PositiveMap.empty Z))) by (intros a; unfold getb; cbn [mdata]; rewrite FMapPositive.PositiveMap.gempty; lia).
+  assert (HW : Machine.W 2 = 65536) by reflexivity.
+  assert (G0 : gx_ga 0 = 94) by (vm_compute; reflexivity). assert (B0 : gx_gb 0 = 96) by (vm_compute; reflexivity).
+  unfold gx_mem. constructor; cbn [length]; change (Z.of_nat 1) with 1.
+  - repeat (apply (wf_sw 2); [|lia]). exact Wz.
+  - rewrite !(lw_sw_other 2) by lia. rewrite (lw_sw_same 2) by lia. reflexivity.
+  - rewrite !(lw_sw_other 2) by lia. rewrite (lw_sw_same 2) by lia. reflexivity.
+  - rewrite !msize_sw. cbn [msize]. lia.
+  - change ((40 + 1 + 5) * 2) with 92. rewrite !(lw_sw_other 2) by lia. rewrite (lw_sw_same 2) by lia.
+    unfold off_all_is_win. rewrite Z.add_0_r. vm_compute. reflexivity.
+  - intros k Hk. destruct k as [|k]; [|cbn in Hk; lia]. cbn [nth]. change ((40 + 1 + 6) * 2 - (Z.of_nat 0 + 2) * 2) with 90.
+    rewrite (lw_sw_other 2) by lia. rewrite (lw_sw_same 2) by lia.
+    unfold Machine.sgn, Machine.wrap. rewrite HW. change (65536 / 2) with 32768.
+    destruct (Z.ltb_spec (a0 mod 65536) 32768); lia.
+  - intros g Hg. destruct g as [|g]; [|cbn in Hg; lia]. rewrite G0, HW. change ((40 + 1 + 6) * 2) with 94. split; [lia|]. split.
+    + unfold inb. rewrite !msize_sw. cbn [msize]. reflexivity.
+    + rewrite (lw_sw_same 2) by lia. vm_compute. reflexivity.
+  - intros g g' Hg Hg'. cbn in Hg, Hg'. lia.
+  - intros h Hh. destruct h as [|h]; [|cbn in Hh; lia]. rewrite B0, HW. change ((40 + 1 + 6) * 2) with 94. split; [lia|]. split; [|split].
+    + unfold inb. rewrite !msize_sw. cbn [msize]. reflexivity.
+    + unfold Machine.lb. rewrite !(getb_sw_other 2) by lia. unfold getb; cbn [mdata]. rewrite FMapPositive.PositiveMap.gempty. reflexivity.
+    + left. reflexivity.
+  - split.
+    + intros h h' Hh Hh'. cbn in Hh, Hh'. lia.
+    + intros g h Hg Hh. destruct g as [|g]; [|cbn in Hg; lia]. destruct h as [|h]; [|cbn in Hh; lia]. rewrite G0, B0. lia.
+Qed.
+Lemma gx_ok : prog_ok_b 2 1 1 gx_funs 1 = true.
+Proof. vm_compute. reflexivity. Qed.
+(* a0 = 2: g0 = 7, h0 = true: "Y", byte 7, "7\n", g0 = 7 / -2 = -4 (the machine rounds down): "4\n";  a0 = 4: g0 = 9, then 9 / 0 *)
+Definition gx_out2 : list Z := [89; 7; 55; 10; 52; 10].
+Definition gx_out4 : list Z := [89; 9; 57; 10].
+Lemma gx_call a0 evs res : icall 2 gx_funs 100 ((40 + 2) * 2) 0 [a0] ([5], [0]) = Some (evs, res) ->
+  callf 2 gx_funs ((40 + Z.of_nat (length [a0]) + 1) * 2) 0 [a0] ([5], [0]) evs res.
+Proof. intros H. apply (proj2 (proj2 (interp_sound 2 gx_funs 100))). exact H. Qed.
+Notation gx_act := (Machine.act 2 (code_of gx_prog) (zmem 0)).
+Example program_globals_ex : exists m',
+  HidV.Sphinx.Halts.runs gx_act (mk 0 (gx_mem 2)) (map EOut gx_out2 ++ [EFlag 0]) (tnt gx_lib m') /\
+  ~ HidV.Sphinx.Halts.Halts gx_act (mk 0 (gx_mem 2)).
+Proof.
+  destruct (program_lowering_correct 2 ltac:(lia) gx_funs 40 [2] 0 gx_ga [5] gx_gb [0] (zmem 0) gx_out2 (CRet None ([-4], [1])) (gx_mem 2) gx_ok ltac:(lia)
+              ltac:(vm_compute; intro; discriminate) ltac:(vm_compute; reflexivity) (gx_init 2 ltac:(lia))
+              (gx_call 2 _ _ ltac:(vm_compute; reflexivity))) as [m' [Rn [Nh _]]].
+  exists m'. split; [exact Rn | exact Nh].
+Qed.
+Example program_globals_fault_ex : exists m',
+  HidV.Sphinx.Halts.runs gx_act (mk 0 (gx_mem 4)) (map EOut gx_out4 ++ [EFlag 3; EFlag 1]) (tnt gx_lib m') /\
+  ~ HidV.Sphinx.Halts.Halts gx_act (mk 0 (gx_mem 4)).
+Proof.
+  destruct (program_lowering_correct 2 ltac:(lia) gx_funs 40 [4] 0 gx_ga [5] gx_gb [0] (zmem 0) gx_out4 (CFault FDivZero) (gx_mem 4) gx_ok ltac:(lia)
+              ltac:(vm_compute; intro; discriminate) ltac:(vm_compute; reflexivity) (gx_init 4 ltac:(lia))
+              (gx_call 4 _ _ ltac:(vm_compute; reflexivity))) as [m' [Rn [Nh _]]].
+  exists m'. split; [exact Rn | exact Nh].
+Qed.
+(* the same two runs on the verified VM, from the bytes of the image *)
+Definition gx_bytes (a0 : Z) : list Z := map (fun a => getb (gx_mem a0) (Z.of_nat a)) (seq 0 97).
+Example program_globals_vm_run_ex :
+  match run_program 2 (gx_bytes 2) [] gx_prog [] mon_none 4000 with
+  | OAbsorbed evs _ _ => firstn 7 evs = map EOut gx_out2 ++ [EFlag 0]
+  | _ => False
+  end /\
+  match run_program 2 (gx_bytes 4) [] gx_prog [] mon_none 4000 with
+  | OAbsorbed evs _ _ => firstn 6 evs = map EOut gx_out4 ++ [EFlag 3; EFlag 1]
   | _ => False
   end.
 Proof. vm_compute. repeat split; reflexivity. Qed.
